@@ -16,2132 +16,1809 @@ Definition terms (ts : list tok) (t : pt) : string :=
   digest (show_toks (Some ts)) ++ " " ++ digest (show_pt (Some t)) ++ " " ++ digest (show_pt (parse ts)).
 Definition terms_full (ts : list tok) (t : pt) : string :=
   show_toks (Some ts) ++ nl ++ show_pt (Some t) ++ nl ++ show_pt (parse ts).
-Eval vm_compute in ("<<<M31>>>" ++ check (runes_of_ascii "MetaData
-T {crc /// triple
-u8x `say ""hi""` , } // `tick` ""quote"" 'q'")).
-Eval vm_compute in ("<<<M63>>>" ++ check (runes_of_ascii "options
-{  chars =
-    /// triple
-    char; o
-    /// triple
-    = true u128 =
-    ""x y"" ;} packet	chars
-    { @calculatedFrom( ""\n"" )repeat f64 packetx  ,  @tag(4294967296 ) float32 Header
-, zchar[
-007
-]float `// not a comment`
-    ,
-    }
-options  {
-stringy = zchar[ 7 ] ;}")).
-Eval vm_compute in ("<<<M95>>>" ++ check (runes_of_ascii "// trailing space 
-MetaData u8x
-{
-i64_
-    i64_ `doc`,i16 Z9_ `say ""hi""` , BodyLength
-roots ,
-}")).
-Eval vm_compute in ("<<<M127>>>" ++ check (runes_of_ascii "
-packet  u
-    //	t
-    {uint32 metadata	,	@lengthOf( metadata // " ++ [27880; 37322]%N ++ runes_of_ascii "
-)
-// `tick` ""quote"" 'q'
-// c
-repeat Logon
-    ,x_y_z// a // b
-, @lengthOf(
-    tag )
-// " ++ [128512]%N ++ runes_of_ascii " emoji
-// c
-float msg_type	,}MetaData chars { u8x
-    matchKey
-// " ++ [27880; 37322]%N ++ runes_of_ascii "
-//x
-,
-    uint8
-    x_y_z `u8 x,`, zchar x_y_z `doc` ,	char i64_ `a\` ,f32 tag//	t
-, } MetaData _x {
-// trailing space 
-// `tick` ""quote"" 'q'
-} options { }
-")).
-Eval vm_compute in ("<<<M159>>>" ++ check (runes_of_ascii "
-options{	roots ='\x00' lengthOf
-=
-    true
-; Packet = // `tick` ""quote"" 'q'
-""packet"" ; o = // packet A { u8 x, }
-""packet"" ; A// " ++ [27880; 37322]%N ++ runes_of_ascii "
-=
-    //
-    true ; // trailing space 
-} packet body
-{ _x ,	zchar[
-65535
-]
-Header @calculatedFrom( // trailing space 
-""""  ) `u8 x,` , }
-root packet
-    //	t
-    T // trailing space 
-{ @tag(// trailing space 
-7) @tag( 0
-    )
-@leftPad( '0' )// a // b
-int64
-x @lengthOf( Packet )
-    , msg_type stringy
-`" ++ [28040; 24687; 31867; 22411]%N ++ runes_of_ascii "`/// triple
-, } /// triple")).
-Eval vm_compute in ("<<<M191>>>" ++ check (runes_of_ascii "MetaData float {
-    lengthOf u128 `tab	here` ,u x ,
-metadata crc `line1
-line2` ,
-} root
-packet//
-trueish { @leftPad (
-'0'
-    ) repeat zchar[ 10 ] lengthOf `u8 x,`
-    ,@leftPad
-// " ++ [27880; 37322]%N ++ runes_of_ascii "
-// trailing space 
-('\x00'	) zchar[ 255 ] tag
-// a // b
-// @lengthOf(
-,
-@leftPad	(
-    ) u128 trueish, chars@lengthOf(
-    i64_
-) `it's` //	t
-,
-    @tag( 10 ) zchar[
-    007 ] asx, char[
-1]
-    zchar,
-// `tick` ""quote"" 'q'
-// trailing space 
-@tag( 7
-    // packet A { u8 x, }
-    ) @calculatedFrom(""packet""
-    )	match  f32a as
-uint8x{
-00  :Header , 007// trailing space 
-: charz ,[ 255 , """ ++ [233]%N ++ runes_of_ascii "t" ++ [233]%N ++ runes_of_ascii """ ] :
-rootA
-    // `tick` ""quote"" 'q'
-    ""it's"" :
-    lengthOf
-,""x y"" :
-pack //x
-,
-""" ++ [28040; 24687]%N ++ runes_of_ascii """
-: _x , } , repeat Header { char[ 7] i8i8 ,char  msg_type @lengthOf(pack ) `line1
-line2`
-,
-// packet A { u8 x, }
-// a // b
-uint8
-crc @lengthOf(
-zchar ) `line1
-line2` ,} , } packet Foo
-    { } packet// @lengthOf(
-Foo { zchar[0123456789
-    ]
-    packetx
-    @calculatedFrom(
-""packet"" // packet A { u8 x, }
-)
-    `doc`  , zchar @calculatedFrom( ""\n""//	t
-)
-`
-` , @leftPad  ( '\x00' )
-    @tag( // trailing space 
-65535 ) char[ 0
-/// triple
-// c
-] metadata@calculatedFrom( ""a\""b"" ), repeat
-    lengthOf{ lengthOf
-`" ++ [233]%N ++ runes_of_ascii "`
-    // `tick` ""quote"" 'q'
-    ,
-} , As , }
-packet BodyLength {//x
-@calculatedFrom( ""a\""b""
-)
-    @lengthOf( x ) @tag( 00
-) Packet zchar
-    `` ,
-@tag(0123456789 )	repeat	char[ 255 ]  x `it's`,// a // b
-u
-// " ++ [128512]%N ++ runes_of_ascii " emoji
-// c
-{ match BodyLength
-as
-// packet A { u8 x, }
-// `tick` ""quote"" 'q'
-tag
-    {3
-: matchKey ,} ,
-} ,@tag( 0123456789 )
-    // " ++ [128512]%N ++ runes_of_ascii " emoji
-    char	asx `line1
-line2`,@lengthOf( chars ) @calculatedFrom(
-""a	b"" )f64 len
-    , match int as //x
-BodyLength { 1
-:
-    Header ,[ 0 ] :// c
-tag
-""" ++ [28040; 24687]%N ++ runes_of_ascii """ :asx, } , @leftPad
-( ' '
-    ) metadata `crlf
-line` ,
-// `tick` ""quote"" 'q'
-// trailing space 
-len
-@lengthOf( metadata
-    ), zchar[  65535 ]
-    A
-@lengthOf( // c
-trueish )
-,@leftPad ( '0'
-)
-repeatCount Z9_
-    `" ++ [233]%N ++ runes_of_ascii "`  ,
-} 	 ")).
-Eval vm_compute in ("<<<M223>>>" ++ check (runes_of_ascii "  root packet charz{}")).
-Eval vm_compute in ("<<<T223>>>" ++ terms [mkTok 34 "root" 1 2 false; mkTok 35 "packet" 1 7 false; mkTok 42 "charz" 1 14 false; mkTok 2 "{" 1 19 false; mkTok 3 "}" 1 20 false; mkTok 0 "<EOF>" 1 21 false] (mkPacket (mkPtok 34 "root" 1 2 0) (Some (mkPtok 3 "}" 1 20 4)) [(DPacket (mkPacketDef (mkSpan (mkPtok 34 "root" 1 2 0) (mkPtok 3 "}" 1 20 4)) (Some (mkPtok 34 "root" 1 2 0)) (mkPtok 35 "packet" 1 7 1) (mkPtok 42 "charz" 1 14 2) (mkPtok 2 "{" 1 19 3) [] (mkPtok 3 "}" 1 20 4)))])).
-Eval vm_compute in ("<<<M255>>>" ++ check (runes_of_ascii "root packet  roots
-{ falsey@calculatedFrom(""a\""b"" ) ,
-    @lengthOf(
-A )Header @calculatedFrom( ""packet""
-) `u8 x,` ,
-@leftPad  (' '
-) @lengthOf(
-    calculatedFrom)
-// `tick` ""quote"" 'q'
-// packet A { u8 x, }
-match rootA as x_y_z {42	:
-    //	t
-    len, }, } options //x
-{ chars =// c
-4294967296 ;
-    BodyLength
-    = 0123456789 roots
-    = ""a\""b"";
-} //")).
-Eval vm_compute in ("<<<M287>>>" ++ check (runes_of_ascii "packet  int  { @calculatedFrom( """ ++ [28040; 24687]%N ++ runes_of_ascii """  )
-@tag(
-    // `tick` ""quote"" 'q'
-    007
-    ) options1 @calculatedFrom( ""CRC32"" ) `tab	here`
-, @lengthOf(
-As )
-    x x_y_z , repeat x
-{ i64 Z9_,
-zchar[
-    // c
-    007 ] body
-//	t
-// a // b
-@lengthOf( uint8x
-    )
-    // c
-    , f64  metadata @calculatedFrom( ""`tick`""	)
-    `tab	here`, }	, } packet msg_type {
-    repeat
-// trailing space 
-// c
-zchar[255 ]A, int64 f32a ,// " ++ [128512]%N ++ runes_of_ascii " emoji
-Pad
-@lengthOf( falsey
-)
-,
-match
-    falsey
-as
-x_y_z {
-7: // `tick` ""quote"" 'q'
-len
-,}
-/// triple
-// c
-, string // " ++ [27880; 37322]%N ++ runes_of_ascii "
-uint8x
-    `a\`,string rootA
-//x
-// a // b
-@lengthOf( int	) ,	}	root
-/// triple
-// `tick` ""quote"" 'q'
-packet pack { crc i64_ , }
-")).
-Eval vm_compute in ("<<<M319>>>" ++ check (runes_of_ascii "options
-{
-}
-root
-    // a // b
-    packet x //	t
-{ match
-    len as x{ [	7 , 42 ,	007 , //x
-255 // trailing space 
-, ""// no comment""
-// `tick` ""quote"" 'q'
-// " ++ [128512]%N ++ runes_of_ascii " emoji
-]:x_y_z, ""`tick`"" : u128
-, 3 : string_
-    /// triple
-    ,
-[	""CRC32""  ] : trueish ,4294967296 :Foo ,
-[ 0 ]
-: lengthOf } , }")).
-Eval vm_compute in ("<<<M351>>>" ++ check (runes_of_ascii "MetaData u { BodyLength repeatCount // packet A { u8 x, }
-,
-} options {
-string_
-= false ; i8i8=10 ;}
-    root packet float { } //")).
-Eval vm_compute in ("<<<M383>>>" ++ check (runes_of_ascii "// c
-
-
-")).
-Eval vm_compute in ("<<<M415>>>" ++ check (runes_of_ascii "packet
-metadata
-    { zchar[ 10]i64_ `say ""hi""` , repeat // " ++ [27880; 37322]%N ++ runes_of_ascii "
-Header
-// a // b
-// " ++ [128512]%N ++ runes_of_ascii " emoji
-uint8x ,@lengthOf( falsey ) int8
-_x @calculatedFrom( ""x y"" )`{ , }` // c
-,	stringy
-metadata`a\` // " ++ [128512]%N ++ runes_of_ascii " emoji
-, // " ++ [128512]%N ++ runes_of_ascii " emoji
-@lengthOf(
-Packet)
-    i64_
-{match crc  as Header
-{[ 0 , 0123456789  ] : // c
-Foo
-    ,
-    ""abc""
-// trailing space 
-// @lengthOf(
-:pack , } ,match int as charz { 1
-    /// triple
-    : packetx , 7: MetaDataX	, // " ++ [128512]%N ++ runes_of_ascii " emoji
-7
-: a1 007  :zchar, ""CRC32""
-    :
-stringy , [ ""\" ++ [233]%N ++ runes_of_ascii """,""CRC32"" ] : i8i8	}
-//
-//x
-, pack
-    /// triple
-    `doc`
-, tag
-{ _x@calculatedFrom( ""CRC32""
-    )
-    `
-` ,
-repeat asx
-`{ , }` /// triple
-,i32 _x //x
-@calculatedFrom(
-""\n"")  `u8 x,`, }
-, }, f32a @lengthOf( chars // trailing space 
-) , string Packet
-    , @leftPad  (
-    ' ' ) @lengthOf(
-u8x ) // trailing space 
-a1// " ++ [128512]%N ++ runes_of_ascii " emoji
-@calculatedFrom(
-    ""x y"" ) `doc` ,
-options1 , body
-`{ , }` , } MetaData Foo{ uint8 Z9_ `{ , }` , } packet Header
-    { pack	{// trailing space 
-leftPad	{ u128 i64_ , zchar[ 7
-// @lengthOf(
-// `tick` ""quote"" 'q'
-] i64_ @calculatedFrom( ""packet"" ) // packet A { u8 x, }
-`line1
-line2` //x
-, //
-metadata Logon , char[10 // packet A { u8 x, }
-]
-asx @lengthOf( uint8x
-) `it's`
-    ,
-} /// triple
-, } ,@calculatedFrom( ""a\\"") Logon
-@lengthOf(
-    uint8x ) `
-` , int64 msg_type
-    , metadata
-_x
-// @lengthOf(
-/// triple
-, @leftPad  (	)
-    trueish { Header {
-//x
-// `tick` ""quote"" 'q'
-uint8x
-    { char[0123456789]	leftPad	@calculatedFrom(
-""" ++ [233]%N ++ runes_of_ascii "t" ++ [233]%N ++ runes_of_ascii """ )
-    `" ++ [28040; 24687; 31867; 22411]%N ++ runes_of_ascii "`, } ,// " ++ [128512]%N ++ runes_of_ascii " emoji
-char[ // a // b
-1
-    ]
-// c
-// packet A { u8 x, }
-asx @calculatedFrom(  ""it's"" ) , roots	, } , }	, zchar[
-    // " ++ [128512]%N ++ runes_of_ascii " emoji
-    255 ]	Packet , // `tick` ""quote"" 'q'
-repeat i8i8 , repeat
-float64 u8x, @calculatedFrom(""" ++ [233]%N ++ runes_of_ascii "t" ++ [233]%N ++ runes_of_ascii """)
-asx @calculatedFrom( ""a\""b"" ),
-}  MetaData
-    /// triple
-    roots // packet A { u8 x, }
-{}")).
-Eval vm_compute in ("<<<M447>>>" ++ check (runes_of_ascii "packet lengthOf {
-} packet
-Z9_
-{ } packet  uint8x { leftPad Foo
-    // `tick` ""quote"" 'q'
-    `" ++ [233]%N ++ runes_of_ascii "` , // c
-@calculatedFrom(
-//
-/// triple
-""\n"" ) @calculatedFrom( """ ++ [128512]%N ++ runes_of_ascii """ ) zchar[  0123456789
-    ]metadata
-,}
-")).
-Eval vm_compute in ("<<<T447>>>" ++ terms [mkTok 35 "packet" 1 0 false; mkTok 42 "lengthOf" 1 7 false; mkTok 2 "{" 1 16 false; mkTok 3 "}" 2 0 false; mkTok 35 "packet" 2 2 false; mkTok 42 "Z9_" 3 0 false; mkTok 2 "{" 4 0 false; mkTok 3 "}" 4 2 false; mkTok 35 "packet" 4 4 false; mkTok 42 "uint8x" 4 12 false; mkTok 2 "{" 4 19 false; mkTok 42 "leftPad" 4 21 false; mkTok 42 "Foo" 4 29 false; mkTok 44 "// `tick` ""quote"" 'q'" 5 4 true; mkTok 43 (string_of_bytes [96; 195; 169; 96]%N) 6 4 false; mkTok 40 "," 6 8 false; mkTok 44 "// c" 6 10 true; mkTok 5 "@calculatedFrom(" 7 0 false; mkTok 44 "//" 8 0 true; mkTok 44 "/// triple" 9 0 true; mkTok 31 """\n""" 10 0 false; mkTok 6 ")" 10 5 false; mkTok 5 "@calculatedFrom(" 10 7 false; mkTok 31 (string_of_bytes [34; 240; 159; 152; 128; 34]%N) 10 24 false; mkTok 6 ")" 10 28 false; mkTok 14 "zchar[" 10 30 false; mkTok 30 "0123456789" 10 38 false; mkTok 13 "]" 11 4 false; mkTok 42 "metadata" 11 5 false; mkTok 40 "," 12 0 false; mkTok 3 "}" 12 1 false; mkTok 0 "<EOF>" 13 0 false] (mkPacket (mkPtok 35 "packet" 1 0 0) (Some (mkPtok 3 "}" 12 1 30)) [(DPacket (mkPacketDef (mkSpan (mkPtok 35 "packet" 1 0 0) (mkPtok 3 "}" 2 0 3)) None (mkPtok 35 "packet" 1 0 0) (mkPtok 42 "lengthOf" 1 7 1) (mkPtok 2 "{" 1 16 2) [] (mkPtok 3 "}" 2 0 3))); (DPacket (mkPacketDef (mkSpan (mkPtok 35 "packet" 2 2 4) (mkPtok 3 "}" 4 2 7)) None (mkPtok 35 "packet" 2 2 4) (mkPtok 42 "Z9_" 3 0 5) (mkPtok 2 "{" 4 0 6) [] (mkPtok 3 "}" 4 2 7))); (DPacket (mkPacketDef (mkSpan (mkPtok 35 "packet" 4 4 8) (mkPtok 3 "}" 12 1 30)) None (mkPtok 35 "packet" 4 4 8) (mkPtok 42 "uint8x" 4 12 9) (mkPtok 2 "{" 4 19 10) [(mkFieldWithAttr (mkSpan (mkPtok 42 "leftPad" 4 21 11) (mkPtok 40 "," 6 8 15)) [] (ObjectField (mkSpan (mkPtok 42 "leftPad" 4 21 11) (mkPtok 40 "," 6 8 15)) None (mkPtok 42 "leftPad" 4 21 11) (Some (mkPtok 42 "Foo" 4 29 12)) (Some (mkPtok 43 (string_of_bytes [96; 195; 169; 96]%N) 6 4 14)) (mkPtok 40 "," 6 8 15))); (mkFieldWithAttr (mkSpan (mkPtok 5 "@calculatedFrom(" 7 0 17) (mkPtok 40 "," 12 0 29)) [(FACalculatedFrom (mkSpan (mkPtok 5 "@calculatedFrom(" 7 0 17) (mkPtok 6 ")" 10 5 21)) (mkCalculatedFrom (mkSpan (mkPtok 5 "@calculatedFrom(" 7 0 17) (mkPtok 6 ")" 10 5 21)) (mkPtok 5 "@calculatedFrom(" 7 0 17) (mkPtok 31 """\n""" 10 0 20) (mkPtok 6 ")" 10 5 21))); (FACalculatedFrom (mkSpan (mkPtok 5 "@calculatedFrom(" 10 7 22) (mkPtok 6 ")" 10 28 24)) (mkCalculatedFrom (mkSpan (mkPtok 5 "@calculatedFrom(" 10 7 22) (mkPtok 6 ")" 10 28 24)) (mkPtok 5 "@calculatedFrom(" 10 7 22) (mkPtok 31 (string_of_bytes [34; 240; 159; 152; 128; 34]%N) 10 24 23) (mkPtok 6 ")" 10 28 24)))] (MetaField (mkSpan (mkPtok 14 "zchar[" 10 30 25) (mkPtok 40 "," 12 0 29)) None (mkMetaDecl (mkSpan (mkPtok 14 "zchar[" 10 30 25) (mkPtok 40 "," 12 0 29)) (TyFixed (mkSpan (mkPtok 14 "zchar[" 10 30 25) (mkPtok 13 "]" 11 4 27)) (mkFixedString (mkSpan (mkPtok 14 "zchar[" 10 30 25) (mkPtok 13 "]" 11 4 27)) (mkPtok 14 "zchar[" 10 30 25) (mkPtok 30 "0123456789" 10 38 26) (mkPtok 13 "]" 11 4 27))) (mkPtok 42 "metadata" 11 5 28) None (mkPtok 40 "," 12 0 29))))] (mkPtok 3 "}" 12 1 30)))])).
-Eval vm_compute in ("<<<M479>>>" ++ check (runes_of_ascii "  packet
-    body {
-    @tag( 00 ) zchar[
-255 ]
-//	t
-// `tick` ""quote"" 'q'
-zchar @calculatedFrom( ""it's"" ) , int8 i8i8	,
-    x_y_z @lengthOf(options1 )
-    ,
-    // packet A { u8 x, }
-    zchar[00
-] T,
-repeat float64
-chars , f64 repeatCount `doc` ,
-    repeat i64_
-repeatCount, repeat Header int
-    , uint16 len `line1
-line2`
-    ,
-@lengthOf(	Header)
-@tag( 0123456789
-) float64 u8x @lengthOf(options1 ) `u8 x,`
-    , }options { x = ""\" ++ [233]%N ++ runes_of_ascii """ ; }
-    // " ++ [128512]%N ++ runes_of_ascii " emoji
-    MetaData	trueish	{ options1 float ``  , // a // b
-zchar[ 3]
-    lengthOf , }options{ rootA
-    =""1""  T = """ ++ [128512]%N ++ runes_of_ascii """ }
-")).
-Eval vm_compute in ("<<<M511>>>" ++ check (runes_of_ascii "  MetaData tag { lengthOf
-Z9_	, } // `tick` ""quote"" 'q'
-packet body { @lengthOf( uint8x
-    )
-zchar[00
-// packet A { u8 x, }
-//	t
-] metadata@lengthOf(
-lengthOf)
-    , @rightPad ( ) u @lengthOf(	asx )  `{ , }`, roots // `tick` ""quote"" 'q'
-{ Foo{
-    packetx
-    ,
-}, match
-pack as stringy
-    { 65535 : Logon  , """ ++ [233]%N ++ runes_of_ascii "t" ++ [233]%N ++ runes_of_ascii """ :
-x_y_z [ """"
-    ]
-    :	metadata
-[ 65535 // a // b
-, ""it's""	,
-    00 ,// packet A { u8 x, }
-""{,}"", ""`tick`"" ,4294967296 , 42, 0 ] // " ++ [27880; 37322]%N ++ runes_of_ascii "
-:o ""it's"" : // c
-leftPad , } ,
-repeat string calculatedFrom ,u64 options1 ,
-    }  ,@lengthOf(
-// `tick` ""quote"" 'q'
-// @lengthOf(
-repeatCount )	@tag( 65535
-    // trailing space 
-    )
-@calculatedFrom( ""`tick`"" //
-) zchar @lengthOf(crc)
-`
-`
-    // @lengthOf(
-    , x_y_z ,
-} packet lengthOf // c
-{ @leftPad ( '0'
-)@lengthOf( uint8x
-) @leftPad
-//x
-/// triple
-( ' '	) Foo @calculatedFrom(
-""a\""b"") , zchar[
-7 ] Z9_
-    ,  } packet	crc{ @calculatedFrom( ""{,}""  ) @tag( 3	) @lengthOf(
-// packet A { u8 x, }
-// c
-int
-)
-    crc charz
-, } options { int
-=
-    '0' ; Packet =
-""" ++ [128512]%N ++ runes_of_ascii """ Packet
-= ""`tick`"" ;float = char[
-    10 ] ; // " ++ [27880; 37322]%N ++ runes_of_ascii "
-msg_type
-    = char[ 00
-    ]}
-")).
-Eval vm_compute in ("<<<M543>>>" ++ check (runes_of_ascii "// trailing space 
-root
-packet x_y_z //	t
-{ @leftPad (
-    )
-repeat
-rootA  {BodyLength body`
-` ,
-u8 leftPad
-@calculatedFrom( ""1""	)``,
-char[007 ] i64_ , } ,u32
-// trailing space 
-// c
-zchar `line1
-line2`, char[ 10
-    // packet A { u8 x, }
-    ]
-    //	t
-    i8i8 @calculatedFrom( """ ++ [233]%N ++ runes_of_ascii "t" ++ [233]%N ++ runes_of_ascii """ ) , }
-packet a1
-    {}
-")).
-Eval vm_compute in ("<<<M575>>>" ++ check (runes_of_ascii "root
-packet
-// a // b
-// " ++ [128512]%N ++ runes_of_ascii " emoji
-Z9_ // a // b
-{ // " ++ [128512]%N ++ runes_of_ascii " emoji
-}
-")).
-Eval vm_compute in ("<<<M607>>>" ++ check (runes_of_ascii "
-options {a1= 4294967296 ;
-    //	t
-    u =	"""" BodyLength =0123456789 ;
-}
-    packet float{
-    char[ 10// trailing space 
-]
-    calculatedFrom `say ""hi""`
-,}	packet  charz
-    { u
-{
-    match string_
-    as crc {
-0 : zchar//x
-4294967296:// packet A { u8 x, }
-u 255 : falsey }
-    ,len@lengthOf(
-// a // b
-// c
-asx )`tab	here`
-    ,o @calculatedFrom( ""\n"" ), },// " ++ [128512]%N ++ runes_of_ascii " emoji
-} options
-{  T = false ;}  packet
-calculatedFrom {
-    match u8x
-as leftPad { """ ++ [233]%N ++ runes_of_ascii "t" ++ [233]%N ++ runes_of_ascii """ //x
-:packetx , ""\n"" :lengthOf ,
-007 :
-    pack 007 :
-BodyLength
-,
-    ""a\\""  :
-charz}
-, @tag(
-    7 // trailing space 
-)body { repeat char[
-7 ]// packet A { u8 x, }
-_x`" ++ [28040; 24687; 31867; 22411]%N ++ runes_of_ascii "` , } ,	@tag(// " ++ [128512]%N ++ runes_of_ascii " emoji
-42 )string  tag `crlf
-line`	,  @tag( // " ++ [27880; 37322]%N ++ runes_of_ascii "
-00 )repeat char[	0  ] calculatedFrom `tab	here`, u16 Z9_ @calculatedFrom( ""{,}"" ) ,
-//x
-//x
-@calculatedFrom(
-    ""\" ++ [233]%N ++ runes_of_ascii """ )
-    match	Logon
-    // @lengthOf(
-    as Z9_ {
-[
-""1""
-    //	t
-    , // c
-""1""	] :
-    options1 } ,
-T
-    metadata ,_x {
-    // @lengthOf(
-    f32 x
-    , int64
-a1
-//x
-// " ++ [27880; 37322]%N ++ runes_of_ascii "
-@lengthOf(_x
-    )`u8 x,` , uint8x { _x	@lengthOf(
-charz ) // `tick` ""quote"" 'q'
-, int64// @lengthOf(
-trueish
-    ,  char[0	]
-// `tick` ""quote"" 'q'
-// c
-roots @calculatedFrom( ""// no comment"")
-    `crlf
-line` , u ,}
-    , } , }
-")).
-Eval vm_compute in ("<<<M639>>>" ++ check (runes_of_ascii "
-root packet
-a1  {repeat
-    string x
-`// not a comment`	,
-//x
-// @lengthOf(
-}options
-//
-//	t
-{ stringy
-= true } packet msg_type { @rightPad ( '\x00'
-    // " ++ [27880; 37322]%N ++ runes_of_ascii "
-    ) match crc
-as packetx
-{ 65535 :body , 65535 :
-T,	}
-    , //x
-stringy
-    ,u32 roots, uint32 body , }")).
-Eval vm_compute in ("<<<M671>>>" ++ check (runes_of_ascii "//
-MetaData calculatedFrom {
-    char[ 42 ]
-tag	,
-    body tag ``
-, int16 int , zchar[ 42 ] tag //	t
-`doc`
-, char[]matchKey , uint32 // " ++ [128512]%N ++ runes_of_ascii " emoji
-Z9_,  } //	t")).
-Eval vm_compute in ("<<<T671>>>" ++ terms [mkTok 44 "//" 1 0 true; mkTok 37 "MetaData" 2 0 false; mkTok 42 "calculatedFrom" 2 9 false; mkTok 2 "{" 2 24 false; mkTok 12 "char[" 3 4 false; mkTok 30 "42" 3 10 false; mkTok 13 "]" 3 13 false; mkTok 42 "tag" 4 0 false; mkTok 40 "," 4 4 false; mkTok 42 "body" 5 4 false; mkTok 42 "tag" 5 9 false; mkTok 43 "``" 5 13 false; mkTok 40 "," 6 0 false; mkTok 25 "int16" 6 2 false; mkTok 42 "int" 6 8 false; mkTok 40 "," 6 12 false; mkTok 14 "zchar[" 6 14 false; mkTok 30 "42" 6 21 false; mkTok 13 "]" 6 24 false; mkTok 42 "tag" 6 26 false; mkTok 44 (string_of_bytes [47; 47; 9; 116]%N) 6 30 true; mkTok 43 "`doc`" 7 0 false; mkTok 40 "," 8 0 false; mkTok 16 "char[]" 8 2 false; mkTok 42 "matchKey" 8 8 false; mkTok 40 "," 8 17 false; mkTok 22 "uint32" 8 19 false; mkTok 44 (string_of_bytes [47; 47; 32; 240; 159; 152; 128; 32; 101; 109; 111; 106; 105]%N) 8 26 true; mkTok 42 "Z9_" 9 0 false; mkTok 40 "," 9 3 false; mkTok 3 "}" 9 6 false; mkTok 44 (string_of_bytes [47; 47; 9; 116]%N) 9 8 true; mkTok 0 "<EOF>" 9 12 false] (mkPacket (mkPtok 37 "MetaData" 2 0 1) (Some (mkPtok 3 "}" 9 6 30)) [(DMeta (mkMetaDef (mkSpan (mkPtok 37 "MetaData" 2 0 1) (mkPtok 3 "}" 9 6 30)) (mkPtok 37 "MetaData" 2 0 1) (mkPtok 42 "calculatedFrom" 2 9 2) (mkPtok 2 "{" 2 24 3) [(MIDecl (mkMetaDecl (mkSpan (mkPtok 12 "char[" 3 4 4) (mkPtok 40 "," 4 4 8)) (TyFixed (mkSpan (mkPtok 12 "char[" 3 4 4) (mkPtok 13 "]" 3 13 6)) (mkFixedString (mkSpan (mkPtok 12 "char[" 3 4 4) (mkPtok 13 "]" 3 13 6)) (mkPtok 12 "char[" 3 4 4) (mkPtok 30 "42" 3 10 5) (mkPtok 13 "]" 3 13 6))) (mkPtok 42 "tag" 4 0 7) None (mkPtok 40 "," 4 4 8))); (MIRef (mkRefMetaDecl (mkSpan (mkPtok 42 "body" 5 4 9) (mkPtok 40 "," 6 0 12)) (mkPtok 42 "body" 5 4 9) (mkPtok 42 "tag" 5 9 10) (Some (mkPtok 43 "``" 5 13 11)) (mkPtok 40 "," 6 0 12))); (MIDecl (mkMetaDecl (mkSpan (mkPtok 25 "int16" 6 2 13) (mkPtok 40 "," 6 12 15)) (TyBasic (mkSpan (mkPtok 25 "int16" 6 2 13) (mkPtok 25 "int16" 6 2 13)) (mkBasicType (mkSpan (mkPtok 25 "int16" 6 2 13) (mkPtok 25 "int16" 6 2 13)) (mkPtok 25 "int16" 6 2 13))) (mkPtok 42 "int" 6 8 14) None (mkPtok 40 "," 6 12 15))); (MIDecl (mkMetaDecl (mkSpan (mkPtok 14 "zchar[" 6 14 16) (mkPtok 40 "," 8 0 22)) (TyFixed (mkSpan (mkPtok 14 "zchar[" 6 14 16) (mkPtok 13 "]" 6 24 18)) (mkFixedString (mkSpan (mkPtok 14 "zchar[" 6 14 16) (mkPtok 13 "]" 6 24 18)) (mkPtok 14 "zchar[" 6 14 16) (mkPtok 30 "42" 6 21 17) (mkPtok 13 "]" 6 24 18))) (mkPtok 42 "tag" 6 26 19) (Some (mkPtok 43 "`doc`" 7 0 21)) (mkPtok 40 "," 8 0 22))); (MIDecl (mkMetaDecl (mkSpan (mkPtok 16 "char[]" 8 2 23) (mkPtok 40 "," 8 17 25)) (TyDynamic (mkSpan (mkPtok 16 "char[]" 8 2 23) (mkPtok 16 "char[]" 8 2 23)) (mkDynamicString (mkSpan (mkPtok 16 "char[]" 8 2 23) (mkPtok 16 "char[]" 8 2 23)) (mkPtok 16 "char[]" 8 2 23))) (mkPtok 42 "matchKey" 8 8 24) None (mkPtok 40 "," 8 17 25))); (MIDecl (mkMetaDecl (mkSpan (mkPtok 22 "uint32" 8 19 26) (mkPtok 40 "," 9 3 29)) (TyBasic (mkSpan (mkPtok 22 "uint32" 8 19 26) (mkPtok 22 "uint32" 8 19 26)) (mkBasicType (mkSpan (mkPtok 22 "uint32" 8 19 26) (mkPtok 22 "uint32" 8 19 26)) (mkPtok 22 "uint32" 8 19 26))) (mkPtok 42 "Z9_" 9 0 28) None (mkPtok 40 "," 9 3 29)))] (mkPtok 3 "}" 9 6 30)))])).
-Eval vm_compute in ("<<<M703>>>" ++ check (runes_of_ascii "// @lengthOf(
-packet BodyLength { char T
-    , } root packet
-A
-{
-repeat len `say ""hi""` ,repeat Pad{ repeat char[] // " ++ [128512]%N ++ runes_of_ascii " emoji
-stringy  , repeat
-rootA
-{ uint64
-Foo @lengthOf( // `tick` ""quote"" 'q'
-options1 ) // @lengthOf(
-`it's` ,
-//x
-/// triple
-zchar { zchar[
-42] Z9_
-,
-    repeat o  i8i8 ,
-uint8 x `it's` ,
-    rootA Foo
-`{ , }`, }
-, }
-,
-metadata
-@calculatedFrom( ""a	b"" )
-, } ,  @tag(	1) string
-    // c
-    u `doc`
-    //	t
-    ,  u
-@calculatedFrom(
-    ""it's"")
-    ``,char[ 7 ]	packetx@lengthOf( A ) `{ , }`	, string _x `
-` ,
-float32 _x , repeat char[ 42 ] rootA
-`doc` ,} MetaData matchKey {
-zchar[ 0123456789
-    ]falsey
-    `` , }  packet Logon
-{ @lengthOf( zchar ) match leftPad as falsey
-    {
-3 : Packet , 007 :// `tick` ""quote"" 'q'
+Eval vm_compute in ("<<<M31>>>" ++ check (runes_of_ascii "root
+    packet body {
+    @calculatedFrom( ""a	b""	) repeat
+int32
 zchar
-1 : // @lengthOf(
-float ,	""it's"" :
-body""CRC32""
-    // " ++ [128512]%N ++ runes_of_ascii " emoji
-    :  body } , @calculatedFrom(""{,}"") zchar[
-    1 ] i8i8 @lengthOf(
-uint8x  )
-,
-zchar[ 00]
-    // `tick` ""quote"" 'q'
-    a1
-, uint64
-    u , string Packet @calculatedFrom( ""packet"" ), }
-")).
-Eval vm_compute in ("<<<M735>>>" ++ check (runes_of_ascii "options { packetx
-=
-255 ; }
-packet float
-{ repeat
-    //
-    f64 metadata `
-`
-//	t
-//	t
-,}
-MetaData leftPad {
-} //x")).
-Eval vm_compute in ("<<<M767>>>" ++ check (runes_of_ascii "
-")).
-Eval vm_compute in ("<<<M799>>>" ++ check (runes_of_ascii "
-MetaData o{ char[]BodyLength
-,
-}
-    options
-    { Foo=uint32 i8i8  = char[ 10
-    ];
-    Logon =  true i64_= string ;
-    }root
-//
-// @lengthOf(
-packet a1
-{ i8i8
-`tab	here` , @calculatedFrom( ""a	b""
-    ) string calculatedFrom
-    @calculatedFrom( ""abc"" )	``
-, }
-")).
-Eval vm_compute in ("<<<M831>>>" ++ check (runes_of_ascii "options { }")).
-Eval vm_compute in ("<<<M863>>>" ++ check (runes_of_ascii "options
-//	t
-// @lengthOf(
-{
-roots
-=""" ++ [28040; 24687]%N ++ runes_of_ascii """
-; }")).
-Eval vm_compute in ("<<<M895>>>" ++ check (runes_of_ascii "
-")).
-Eval vm_compute in ("<<<T895>>>" ++ terms [mkTok 0 "<EOF>" 2 0 false] (mkPacket (mkPtok 0 "<EOF>" 2 0 0) None [])).
-Eval vm_compute in ("<<<M927>>>" ++ check (runes_of_ascii "packet calculatedFrom
-    { @calculatedFrom(
-""{,}"" )
-    // c
-    @tag(
-    65535 ) f32 Packet @lengthOf(o )
-    , @calculatedFrom(  ""`tick`"" ) uint32 MetaDataX  @calculatedFrom(""it's""  ) ``,
-} // a // b")).
-Eval vm_compute in ("<<<M959>>>" ++ check (runes_of_ascii "options { Foo =
-    // trailing space 
-    ""\" ++ [233]%N ++ runes_of_ascii """roots = ""`tick`""
-// trailing space 
-//	t
-; crc = ""packet"" ; falsey= // a // b
-1
-float = u32	; } packet
-options1	{
-    match Header as Packet { [ ""abc""
-    ] : Header , ""`tick`"" : i64_, [ 7 ,
-/// triple
-//x
-"""", 3 ] : Z9_	,
-    [ ""// no comment"" ,
-""x y"" , """ ++ [28040; 24687]%N ++ runes_of_ascii """ , 1, ""a	b"" ] : x_y_z
-,""a\""b"" :float// c
-} , // @lengthOf(
-i8i8 _x,  @rightPad ( '\x00')	zchar[
-0
-    ] string_ ,}packet u8x {@lengthOf(  packetx) char[ 42
-    ]
-    // `tick` ""quote"" 'q'
-    _x,
-    f64 matchKey `it's`
-, match repeatCount
-as
-roots
-    {
-// packet A { u8 x, }
-// " ++ [27880; 37322]%N ++ runes_of_ascii "
-[
-""CRC32""
-,
-""" ++ [128512]%N ++ runes_of_ascii """
-    ] : i8i8 ,} ,
-    // " ++ [27880; 37322]%N ++ runes_of_ascii "
-    @lengthOf(
-len ) @rightPad
-( ' '	) u stringy	`say ""hi""` ,// @lengthOf(
-repeat char[ 7  ] pack	`" ++ [28040; 24687; 31867; 22411]%N ++ runes_of_ascii "`,	@tag( 42	) string u8x`// not a comment`
-    , } root packet As
-    {	int32 x
-@calculatedFrom( ""\n"" ) , }
-")).
-Eval vm_compute in ("<<<M991>>>" ++ check (runes_of_ascii "  packet Pad{	@leftPad ( '\x00' ) @tag( 42
-    )@rightPad ( ' ')
-    uint8 asx
-    // c
-    ,
+, lengthOf body ,
 @rightPad
-    (	)string a1,	u8x  @calculatedFrom( """ ++ [128512]%N ++ runes_of_ascii """ )	,	@tag(
-    1 ) zchar[ 255 ] u128 ,@tag( 00)match
+( ' '
+    )uint8x { u64  body , } , @tag( 1 )
+@leftPad ( '0' ) @calculatedFrom( """ ++ [233]%N ++ runes_of_ascii "t" ++ [233]%N ++ runes_of_ascii """
+)
+    u64
+x @calculatedFrom( """ ++ [128512]%N ++ runes_of_ascii """
+// packet A { u8 x, }
 //x
-//	t
-u128
-as zchar { 3 :	tag , [ """ ++ [233]%N ++ runes_of_ascii "t" ++ [233]%N ++ runes_of_ascii """ ]
-: // " ++ [27880; 37322]%N ++ runes_of_ascii "
-int ,
-}
-    ,
-    @leftPad	( ) zchar[7 ]
-    zchar
-@lengthOf(
-lengthOf ) , repeat Packet Foo	`a\`  , @lengthOf(
-msg_type
-)@rightPad
-(
-'0' ) @tag(255 ) string
+)
+    , x
+    , @lengthOf( u128 ) _x
+    T `` //	t
+, @rightPad	(
+'0' )  i64// trailing space 
+a1 , string
+trueish @calculatedFrom( ""// no comment""
+    ) `
+`, }packet
     tag
-//	t
-//
-@lengthOf(roots // a // b
-)
-    `say ""hi""` , repeat// " ++ [128512]%N ++ runes_of_ascii " emoji
-Logon f32a,}packet uint8x {
-    // trailing space 
-    @rightPad	(' ' )@lengthOf(
-    Header
-)zchar[
-7 ] u ,} // " ++ [128512]%N ++ runes_of_ascii " emoji
-MetaData a1
-    { rootA msg_type ,
-u16
-    /// triple
-    lengthOf `it's`,f32
-u8x
-, }
-    // c
-    packet	trueish {}")).
-Eval vm_compute in ("<<<M1023>>>" ++ check (runes_of_ascii "
-packet roots{pack, @calculatedFrom( ""it's""
-)
-    MetaDataX @lengthOf( u
-) , @lengthOf(//x
-falsey  ) metadata _x	`doc` , } options{ BodyLength =	""" ++ [28040; 24687]%N ++ runes_of_ascii """; Packet = 0123456789 ; T=
-    ' ' ; T = 4294967296
-;
+{ } MetaData body { T u
+    , string f32a  , f64
+Packet ,
+lengthOf Header `tab	here` ,
     }
-")).
-Eval vm_compute in ("<<<M1055>>>" ++ check (runes_of_ascii "root packet calculatedFrom{ } 	 ")).
-Eval vm_compute in ("<<<M1087>>>" ++ check (runes_of_ascii "options  { x_y_z
-= uint32
-    ; x
-= false ;len
-= 0//
-; }
-root packet trueish {
-    // `tick` ""quote"" 'q'
-    @tag( 42// packet A { u8 x, }
-) matchKey string_,
-}
-")).
-Eval vm_compute in ("<<<M1119>>>" ++ check (runes_of_ascii "packet
-    packetx
-{@calculatedFrom( ""packet""
-)
-    // " ++ [27880; 37322]%N ++ runes_of_ascii "
-    @calculatedFrom( ""// no comment"" ) @leftPad /// triple
-(	'0') //	t
-Z9_ T
-, leftPad uint8x ,@tag( 4294967296
-    //
-    ) leftPad //
-{ roots { char options1 , }, match Pad
-    as int{ [
-10 ]
-    :roots//	t
-,
-[	""CRC32"" , ""1"" , 3  ,7
-    ,// " ++ [27880; 37322]%N ++ runes_of_ascii "
-0
-, 0,
-    /// triple
-    ""CRC32"" , 7
-// `tick` ""quote"" 'q'
-// a // b
-]	:Packet
-,	1
-    : tag ,1:
-    matchKey [	42]:
-_x }
-, repeat	tag
-// packet A { u8 x, }
-// " ++ [128512]%N ++ runes_of_ascii " emoji
-{ metadata `" ++ [233]%N ++ runes_of_ascii "`
-,  }, //	t
-u
-    `a\` , } ,  }
-")).
-Eval vm_compute in ("<<<T1119>>>" ++ terms [mkTok 35 "packet" 1 0 false; mkTok 42 "packetx" 2 4 false; mkTok 2 "{" 3 0 false; mkTok 5 "@calculatedFrom(" 3 1 false; mkTok 31 """packet""" 3 18 false; mkTok 6 ")" 4 0 false; mkTok 44 (string_of_bytes [47; 47; 32; 230; 179; 168; 233; 135; 138]%N) 5 4 true; mkTok 5 "@calculatedFrom(" 6 4 false; mkTok 31 """// no comment""" 6 21 false; mkTok 6 ")" 6 37 false; mkTok 32 "@leftPad" 6 39 false; mkTok 44 "/// triple" 6 48 true; mkTok 8 "(" 7 0 false; mkTok 33 "'0'" 7 2 false; mkTok 6 ")" 7 5 false; mkTok 44 (string_of_bytes [47; 47; 9; 116]%N) 7 7 true; mkTok 42 "Z9_" 8 0 false; mkTok 42 "T" 8 4 false; mkTok 40 "," 9 0 false; mkTok 42 "leftPad" 9 2 false; mkTok 42 "uint8x" 9 10 false; mkTok 40 "," 9 17 false; mkTok 9 "@tag(" 9 18 false; mkTok 30 "4294967296" 9 24 false; mkTok 44 "//" 10 4 true; mkTok 6 ")" 11 4 false; mkTok 42 "leftPad" 11 6 false; mkTok 44 "//" 11 14 true; mkTok 2 "{" 12 0 false; mkTok 42 "roots" 12 2 false; mkTok 2 "{" 12 8 false; mkTok 19 "char" 12 10 false; mkTok 42 "options1" 12 15 false; mkTok 40 "," 12 24 false; mkTok 3 "}" 12 26 false; mkTok 40 "," 12 27 false; mkTok 38 "match" 12 29 false; mkTok 42 "Pad" 12 35 false; mkTok 17 "as" 13 4 false; mkTok 42 "int" 13 7 false; mkTok 2 "{" 13 10 false; mkTok 18 "[" 13 12 false; mkTok 30 "10" 14 0 false; mkTok 13 "]" 14 3 false; mkTok 39 ":" 15 4 false; mkTok 42 "roots" 15 5 false; mkTok 44 (string_of_bytes [47; 47; 9; 116]%N) 15 10 true; mkTok 40 "," 16 0 false; mkTok 18 "[" 17 0 false; mkTok 31 """CRC32""" 17 2 false; mkTok 40 "," 17 10 false; mkTok 31 """1""" 17 12 false; mkTok 40 "," 17 16 false; mkTok 30 "3" 17 18 false; mkTok 40 "," 17 21 false; mkTok 30 "7" 17 22 false; mkTok 40 "," 18 4 false; mkTok 44 (string_of_bytes [47; 47; 32; 230; 179; 168; 233; 135; 138]%N) 18 5 true; mkTok 30 "0" 19 0 false; mkTok 40 "," 20 0 false; mkTok 30 "0" 20 2 false; mkTok 40 "," 20 3 false; mkTok 44 "/// triple" 21 4 true; mkTok 31 """CRC32""" 22 4 false; mkTok 40 "," 22 12 false; mkTok 30 "7" 22 14 false; mkTok 44 "// `tick` ""quote"" 'q'" 23 0 true; mkTok 44 "// a // b" 24 0 true; mkTok 13 "]" 25 0 false; mkTok 39 ":" 25 2 false; mkTok 42 "Packet" 25 3 false; mkTok 40 "," 26 0 false; mkTok 30 "1" 26 2 false; mkTok 39 ":" 27 4 false; mkTok 42 "tag" 27 6 false; mkTok 40 "," 27 10 false; mkTok 30 "1" 27 11 false; mkTok 39 ":" 27 12 false; mkTok 42 "matchKey" 28 4 false; mkTok 18 "[" 28 13 false; mkTok 30 "42" 28 15 false; mkTok 13 "]" 28 17 false; mkTok 39 ":" 28 18 false; mkTok 42 "_x" 29 0 false; mkTok 3 "}" 29 3 false; mkTok 40 "," 30 0 false; mkTok 36 "repeat" 30 2 false; mkTok 42 "tag" 30 9 false; mkTok 44 "// packet A { u8 x, }" 31 0 true; mkTok 44 (string_of_bytes [47; 47; 32; 240; 159; 152; 128; 32; 101; 109; 111; 106; 105]%N) 32 0 true; mkTok 2 "{" 33 0 false; mkTok 42 "metadata" 33 2 false; mkTok 43 (string_of_bytes [96; 195; 169; 96]%N) 33 11 false; mkTok 40 "," 34 0 false; mkTok 3 "}" 34 3 false; mkTok 40 "," 34 4 false; mkTok 44 (string_of_bytes [47; 47; 9; 116]%N) 34 6 true; mkTok 42 "u" 35 0 false; mkTok 43 "`a\`" 36 4 false; mkTok 40 "," 36 9 false; mkTok 3 "}" 36 11 false; mkTok 40 "," 36 13 false; mkTok 3 "}" 36 16 false; mkTok 0 "<EOF>" 37 0 false] (mkPacket (mkPtok 35 "packet" 1 0 0) (Some (mkPtok 3 "}" 36 16 102)) [(DPacket (mkPacketDef (mkSpan (mkPtok 35 "packet" 1 0 0) (mkPtok 3 "}" 36 16 102)) None (mkPtok 35 "packet" 1 0 0) (mkPtok 42 "packetx" 2 4 1) (mkPtok 2 "{" 3 0 2) [(mkFieldWithAttr (mkSpan (mkPtok 5 "@calculatedFrom(" 3 1 3) (mkPtok 40 "," 9 0 18)) [(FACalculatedFrom (mkSpan (mkPtok 5 "@calculatedFrom(" 3 1 3) (mkPtok 6 ")" 4 0 5)) (mkCalculatedFrom (mkSpan (mkPtok 5 "@calculatedFrom(" 3 1 3) (mkPtok 6 ")" 4 0 5)) (mkPtok 5 "@calculatedFrom(" 3 1 3) (mkPtok 31 """packet""" 3 18 4) (mkPtok 6 ")" 4 0 5))); (FACalculatedFrom (mkSpan (mkPtok 5 "@calculatedFrom(" 6 4 7) (mkPtok 6 ")" 6 37 9)) (mkCalculatedFrom (mkSpan (mkPtok 5 "@calculatedFrom(" 6 4 7) (mkPtok 6 ")" 6 37 9)) (mkPtok 5 "@calculatedFrom(" 6 4 7) (mkPtok 31 """// no comment""" 6 21 8) (mkPtok 6 ")" 6 37 9))); (FAPadding (mkSpan (mkPtok 32 "@leftPad" 6 39 10) (mkPtok 6 ")" 7 5 14)) (mkPaddingAttr (mkSpan (mkPtok 32 "@leftPad" 6 39 10) (mkPtok 6 ")" 7 5 14)) (mkPtok 32 "@leftPad" 6 39 10) (mkPtok 8 "(" 7 0 12) (Some (mkPtok 33 "'0'" 7 2 13)) (mkPtok 6 ")" 7 5 14)))] (ObjectField (mkSpan (mkPtok 42 "Z9_" 8 0 16) (mkPtok 40 "," 9 0 18)) None (mkPtok 42 "Z9_" 8 0 16) (Some (mkPtok 42 "T" 8 4 17)) None (mkPtok 40 "," 9 0 18))); (mkFieldWithAttr (mkSpan (mkPtok 42 "leftPad" 9 2 19) (mkPtok 40 "," 9 17 21)) [] (ObjectField (mkSpan (mkPtok 42 "leftPad" 9 2 19) (mkPtok 40 "," 9 17 21)) None (mkPtok 42 "leftPad" 9 2 19) (Some (mkPtok 42 "uint8x" 9 10 20)) None (mkPtok 40 "," 9 17 21))); (mkFieldWithAttr (mkSpan (mkPtok 9 "@tag(" 9 18 22) (mkPtok 40 "," 36 13 101)) [(FATag (mkSpan (mkPtok 9 "@tag(" 9 18 22) (mkPtok 6 ")" 11 4 25)) (mkTagAttr (mkSpan (mkPtok 9 "@tag(" 9 18 22) (mkPtok 6 ")" 11 4 25)) (mkPtok 9 "@tag(" 9 18 22) (mkPtok 30 "4294967296" 9 24 23) (mkPtok 6 ")" 11 4 25)))] (InerObjectField (mkSpan (mkPtok 42 "leftPad" 11 6 26) (mkPtok 40 "," 36 13 101)) None (InerObjectDecl (mkSpan (mkPtok 42 "leftPad" 11 6 26) (mkPtok 3 "}" 36 11 100)) (mkPtok 42 "leftPad" 11 6 26) (mkPtok 2 "{" 12 0 28) [(InerObjectField (mkSpan (mkPtok 42 "roots" 12 2 29) (mkPtok 40 "," 12 27 35)) None (InerObjectDecl (mkSpan (mkPtok 42 "roots" 12 2 29) (mkPtok 3 "}" 12 26 34)) (mkPtok 42 "roots" 12 2 29) (mkPtok 2 "{" 12 8 30) [(MetaField (mkSpan (mkPtok 19 "char" 12 10 31) (mkPtok 40 "," 12 24 33)) None (mkMetaDecl (mkSpan (mkPtok 19 "char" 12 10 31) (mkPtok 40 "," 12 24 33)) (TyBasic (mkSpan (mkPtok 19 "char" 12 10 31) (mkPtok 19 "char" 12 10 31)) (mkBasicType (mkSpan (mkPtok 19 "char" 12 10 31) (mkPtok 19 "char" 12 10 31)) (mkPtok 19 "char" 12 10 31))) (mkPtok 42 "options1" 12 15 32) None (mkPtok 40 "," 12 24 33)))] (mkPtok 3 "}" 12 26 34)) (mkPtok 40 "," 12 27 35)); (MatchField (mkSpan (mkPtok 38 "match" 12 29 36) (mkPtok 40 "," 30 0 85)) (mkMatchFieldDecl (mkSpan (mkPtok 38 "match" 12 29 36) (mkPtok 3 "}" 29 3 84)) (mkPtok 38 "match" 12 29 36) (mkPtok 42 "Pad" 12 35 37) (mkPtok 17 "as" 13 4 38) (mkPtok 42 "int" 13 7 39) (mkPtok 2 "{" 13 10 40) [(mkMatchPair (mkSpan (mkPtok 18 "[" 13 12 41) (mkPtok 40 "," 16 0 47)) (MKList (mkKeyList (mkSpan (mkPtok 18 "[" 13 12 41) (mkPtok 13 "]" 14 3 43)) (mkPtok 18 "[" 13 12 41) (mkPtok 30 "10" 14 0 42) [] (mkPtok 13 "]" 14 3 43))) (mkPtok 39 ":" 15 4 44) (mkPtok 42 "roots" 15 5 45) (Some (mkPtok 40 "," 16 0 47))); (mkMatchPair (mkSpan (mkPtok 18 "[" 17 0 48) (mkPtok 40 "," 26 0 71)) (MKList (mkKeyList (mkSpan (mkPtok 18 "[" 17 0 48) (mkPtok 13 "]" 25 0 68)) (mkPtok 18 "[" 17 0 48) (mkPtok 31 """CRC32""" 17 2 49) [((mkPtok 40 "," 17 10 50), (mkPtok 31 """1""" 17 12 51)); ((mkPtok 40 "," 17 16 52), (mkPtok 30 "3" 17 18 53)); ((mkPtok 40 "," 17 21 54), (mkPtok 30 "7" 17 22 55)); ((mkPtok 40 "," 18 4 56), (mkPtok 30 "0" 19 0 58)); ((mkPtok 40 "," 20 0 59), (mkPtok 30 "0" 20 2 60)); ((mkPtok 40 "," 20 3 61), (mkPtok 31 """CRC32""" 22 4 63)); ((mkPtok 40 "," 22 12 64), (mkPtok 30 "7" 22 14 65))] (mkPtok 13 "]" 25 0 68))) (mkPtok 39 ":" 25 2 69) (mkPtok 42 "Packet" 25 3 70) (Some (mkPtok 40 "," 26 0 71))); (mkMatchPair (mkSpan (mkPtok 30 "1" 26 2 72) (mkPtok 40 "," 27 10 75)) (MKDigits (mkPtok 30 "1" 26 2 72)) (mkPtok 39 ":" 27 4 73) (mkPtok 42 "tag" 27 6 74) (Some (mkPtok 40 "," 27 10 75))); (mkMatchPair (mkSpan (mkPtok 30 "1" 27 11 76) (mkPtok 42 "matchKey" 28 4 78)) (MKDigits (mkPtok 30 "1" 27 11 76)) (mkPtok 39 ":" 27 12 77) (mkPtok 42 "matchKey" 28 4 78) None); (mkMatchPair (mkSpan (mkPtok 18 "[" 28 13 79) (mkPtok 42 "_x" 29 0 83)) (MKList (mkKeyList (mkSpan (mkPtok 18 "[" 28 13 79) (mkPtok 13 "]" 28 17 81)) (mkPtok 18 "[" 28 13 79) (mkPtok 30 "42" 28 15 80) [] (mkPtok 13 "]" 28 17 81))) (mkPtok 39 ":" 28 18 82) (mkPtok 42 "_x" 29 0 83) None)] (mkPtok 3 "}" 29 3 84)) (mkPtok 40 "," 30 0 85)); (InerObjectField (mkSpan (mkPtok 36 "repeat" 30 2 86) (mkPtok 40 "," 34 4 95)) (Some (mkPtok 36 "repeat" 30 2 86)) (InerObjectDecl (mkSpan (mkPtok 42 "tag" 30 9 87) (mkPtok 3 "}" 34 3 94)) (mkPtok 42 "tag" 30 9 87) (mkPtok 2 "{" 33 0 90) [(ObjectField (mkSpan (mkPtok 42 "metadata" 33 2 91) (mkPtok 40 "," 34 0 93)) None (mkPtok 42 "metadata" 33 2 91) None (Some (mkPtok 43 (string_of_bytes [96; 195; 169; 96]%N) 33 11 92)) (mkPtok 40 "," 34 0 93))] (mkPtok 3 "}" 34 3 94)) (mkPtok 40 "," 34 4 95)); (ObjectField (mkSpan (mkPtok 42 "u" 35 0 97) (mkPtok 40 "," 36 9 99)) None (mkPtok 42 "u" 35 0 97) None (Some (mkPtok 43 "`a\`" 36 4 98)) (mkPtok 40 "," 36 9 99))] (mkPtok 3 "}" 36 11 100)) (mkPtok 40 "," 36 13 101)))] (mkPtok 3 "}" 36 16 102)))])).
-Eval vm_compute in ("<<<M1151>>>" ++ check (runes_of_ascii "MetaData	pack
-{  } MetaData	trueish
+// c
+//
+packet T // @lengthOf(
 {
-    string o,
-u // @lengthOf(
-roots , Header calculatedFrom
-`doc` , zchar[42] metadata `u8 x,`
-    , Packet lengthOf , u128 lengthOf ,} root packet Logon{ repeat/// triple
-zchar[ 7 ]
-// packet A { u8 x, }
-// `tick` ""quote"" 'q'
-roots ,  match u as x  {  [""" ++ [28040; 24687]%N ++ runes_of_ascii """
-    , 0,""a	b""
-    // @lengthOf(
-    , 3/// triple
-,
-    ""a\""b"", ""// no comment""	,""packet"" , ""`tick`"" ]	: o ,[0  ,	""x y""] : u ""a\""b"" : pack [ 65535 , 007
-    , """ ++ [233]%N ++ runes_of_ascii "t" ++ [233]%N ++ runes_of_ascii """
-// " ++ [27880; 37322]%N ++ runes_of_ascii "
-// @lengthOf(
-,42] // trailing space 
-: f32a 255
-    : i8i8//	t
-, 0123456789 :
-Pad
-,
-} , Foo , @calculatedFrom( ""x y"" )
-body{
-    repeat string metadata`it's` , repeat zchar
-    x_y_z , lengthOf {Logon
-    pack
-, match options1
-as leftPad// c
-{ //x
-10:a1
-, """ ++ [28040; 24687]%N ++ runes_of_ascii """
-    :	A , [
-// trailing space 
-// " ++ [128512]%N ++ runes_of_ascii " emoji
-""" ++ [28040; 24687]%N ++ runes_of_ascii """ ,65535 , 0123456789 , 0
-] : i64_ , 1 // " ++ [27880; 37322]%N ++ runes_of_ascii "
-: string_ ,
-65535	:calculatedFrom ,
-}
-    , crc { u128, u128
-@lengthOf( x) , u16 falsey @lengthOf( u )	, } , char[ 42] options1
-@calculatedFrom( ""packet"")
-`u8 x,`,} , float/// triple
-float  `u8 x,` , }
-,match  packetx
-    as T { ""packet""
-// @lengthOf(
-// @lengthOf(
-: As,
-007 : BodyLength , 00:
-trueish
-, [
-    ""abc""  ,
-10
-    , 3 , 10,
-007
-    ,
-// " ++ [128512]%N ++ runes_of_ascii " emoji
-// c
-""\n""
-, 1
-//	t
-// a // b
-] : _x ,}	, o
-    `say ""hi""` ,
-@leftPad
-( '0' )
-@tag( 10 ) @calculatedFrom( ""\" ++ [233]%N ++ runes_of_ascii """ )
-u32 //	t
-i64_
-    // `tick` ""quote"" 'q'
-    `{ , }`
-,x
-body `line1
-line2`//	t
-,
-}
-packet
-    repeatCount {i64 rootA @calculatedFrom( """ ++ [128512]%N ++ runes_of_ascii """ )	`" ++ [28040; 24687; 31867; 22411]%N ++ runes_of_ascii "` , @rightPad( ' ' ) @rightPad
-(	)  int32 rootA	@calculatedFrom( ""{,}"" ) , i16
-    BodyLength // " ++ [27880; 37322]%N ++ runes_of_ascii "
-, @calculatedFrom( ""`tick`"" )
-Logon
-    lengthOf `two words`
-, zchar[ 4294967296]
-x_y_z
-    `" ++ [28040; 24687; 31867; 22411]%N ++ runes_of_ascii "` , string zchar
-    `say ""hi""`
-// `tick` ""quote"" 'q'
-// c
-, @tag( 1 ) f32 x_y_z `it's`
-, } root packet string_ {// @lengthOf(
-@leftPad
-( '0'
-) // a // b
-@calculatedFrom( ""// no comment"" ) @leftPad
-( ) // " ++ [27880; 37322]%N ++ runes_of_ascii "
-char[
-1]
-tag
-    `say ""hi""` , @calculatedFrom( // " ++ [27880; 37322]%N ++ runes_of_ascii "
-""it's""
-)
-    match BodyLength  as A {
-    255 :Foo,}, u16 x_y_z
-@calculatedFrom( ""CRC32""
-    ) , o  MetaDataX `// not a comment`, options1  @lengthOf(
-x ) , match  float as
-A{ [65535 ] :
-    leftPad
-, [ 007
-,
-7 , ""a\\"",1
-] : msg_type,  10 :u128 """ ++ [28040; 24687]%N ++ runes_of_ascii """ : As , }  ,}
-")).
-Eval vm_compute in ("<<<M1183>>>" ++ check (runes_of_ascii "// " ++ [27880; 37322]%N ++ runes_of_ascii "
-packet
-    Header {
-}
-// " ++ [128512]%N ++ runes_of_ascii " emoji
-")).
-Eval vm_compute in ("<<<M1215>>>" ++ check (runes_of_ascii "MetaData string_ {
-i32 packetx
-`doc`, }//
-packet zchar{ @rightPad
-    (' '
-)@calculatedFrom(""`tick`"" ) @calculatedFrom( ""CRC32"" // c
-)u8x
-    /// triple
-    @lengthOf(
-    Foo ) ,
-    }	root
-packet i8i8
-    { }
-
-")).
-Eval vm_compute in ("<<<M1247>>>" ++ check (runes_of_ascii "packet u128 {
-// packet A { u8 x, }
-// c
-@rightPad (
-' ')uint8x { zchar {
-match u8x
-as
-Logon {007 // @lengthOf(
-: Packet
-    //x
-    , [ 255 ,
-//
-//x
-""`tick`"" ,00 , 42 ,
-""a\\""
-    ,	3 ] :
-// @lengthOf(
-// a // b
-int ,},  metadata `" ++ [28040; 24687; 31867; 22411]%N ++ runes_of_ascii "` ,
-repeat char[]Header
-    , a1, }
-, match // packet A { u8 x, }
-leftPad as rootA{
-0123456789 : int,0 : pack, }, tag { // " ++ [27880; 37322]%N ++ runes_of_ascii "
-string_ ,
-    pack calculatedFrom  , },// packet A { u8 x, }
-} ,
-    //x
-    zchar[
-255] msg_type , i32// c
-x, match options1 // @lengthOf(
-as
-    options1 {  10// @lengthOf(
-: //
-zchar,
-42 : pack ,
-[  ""a\\"" ] :
-    // @lengthOf(
-    As [42
-,
-    ""a\""b"" ] : asx
-, [
-    10 ] :a1 ,
-[
-    00]
-:
-    // trailing space 
-    chars
-    // " ++ [27880; 37322]%N ++ runes_of_ascii "
-    , } ,
-// `tick` ""quote"" 'q'
-//	t
-char[0] Header @lengthOf(
-chars) // @lengthOf(
-`it's` ,
-//
-//	t
-match//	t
-x_y_z as
-    u8x {  65535 : Logon
-    ,""" ++ [233]%N ++ runes_of_ascii "t" ++ [233]%N ++ runes_of_ascii """ :
-Header ,
-    ""a	b"":
-metadata ,	[
-    255,
-""a\\""
-// a // b
-// c
-, ""a	b""
-, //x
-1 , ""{,}"" , """",255 , """ ++ [28040; 24687]%N ++ runes_of_ascii """ ]: f32a
-//	t
-// c
-, 3	:
-len // @lengthOf(
-}, @leftPad
-( ) @calculatedFrom( ""a\\"") int64 leftPad
-`" ++ [233]%N ++ runes_of_ascii "` , @calculatedFrom( ""packet"" )
-    @tag(
-10 )  @calculatedFrom(""a\\"" ) string Packet
-    @lengthOf( BodyLength ),//x
-@leftPad ( // @lengthOf(
-'0' )repeat
-char[]
-//	t
-// trailing space 
-Logon
-,
-@tag( 00
-) match
-u8x as Z9_ {
-[ 10 ] : lengthOf
-    0123456789 : _x, ""packet"" : i64_, } , }")).
-Eval vm_compute in ("<<<M1279>>>" ++ check (runes_of_ascii "options {
-    trueish
-=// a // b
-'0'
-/// triple
-//
-;} options  { x_y_z
-    =	'0'
-u
-= true;
-    asx
-= ""a	b"" ;
-u128= 4294967296  len
-=
-    true
-    ;	} packet u128 { A  { f32 repeatCount
-@lengthOf(
-    tag) , u32 tag , } ,
-// " ++ [128512]%N ++ runes_of_ascii " emoji
-// " ++ [128512]%N ++ runes_of_ascii " emoji
-repeat
-zchar
-    zchar`u8 x,` , match
-    u as	a1 { [ // " ++ [128512]%N ++ runes_of_ascii " emoji
-""a\""b"" ,""" ++ [28040; 24687]%N ++ runes_of_ascii """]: Z9_ , 10 :int ,	[ ""\n"" , ""CRC32"" , 007
-,
-// " ++ [128512]%N ++ runes_of_ascii " emoji
-// " ++ [128512]%N ++ runes_of_ascii " emoji
-""" ++ [28040; 24687]%N ++ runes_of_ascii """ ,
-""packet""
-// " ++ [27880; 37322]%N ++ runes_of_ascii "
-// `tick` ""quote"" 'q'
-, 255 ,
-    //
-    1 ,
-    255 ]  : matchKey
-, }//
-, char[/// triple
-10 ]Z9_ // trailing space 
-@calculatedFrom( """ ++ [128512]%N ++ runes_of_ascii """ )  `" ++ [28040; 24687; 31867; 22411]%N ++ runes_of_ascii "`,
-    }
-packet o{ match i64_
-    as crc
-{ ""CRC32"" : MetaDataX // trailing space 
-, }
-, a1 @lengthOf( Pad ) ,
-packetx @calculatedFrom(
-""" ++ [28040; 24687]%N ++ runes_of_ascii """
-    // " ++ [27880; 37322]%N ++ runes_of_ascii "
-    ) // a // b
-`{ , }`
-,
-a1 { Packet // trailing space 
-@lengthOf( T	) `two words`, metadata
-{ match crc
-as matchKey{
-[""CRC32"" ,
-""// no comment"", ""CRC32"" ,
-    65535 ]
-    :zchar 3: i64_ ,
-} , repeat
-stringy , }, x_y_z Pad// " ++ [128512]%N ++ runes_of_ascii " emoji
-,
-}
-,
-    zchar[	1
-    ] i64_ @calculatedFrom( ""// no comment""
-)
-    , @rightPad ( ' '// packet A { u8 x, }
-)
-//
-// " ++ [128512]%N ++ runes_of_ascii " emoji
-i8 float
-@lengthOf( //x
-tag )	,
-    @tag(  255  )
-    match rootA as
-    A { ""`tick`"" : asx,  } ,}")).
-Eval vm_compute in ("<<<M1311>>>" ++ check (runes_of_ascii "options { string_ = char[] ;
-}
-packet Z9_
-{
-// " ++ [27880; 37322]%N ++ runes_of_ascii "
-// a // b
-@tag( 1 ) matchKey matchKey
-    ,
-}	root packet
-    // `tick` ""quote"" 'q'
-    Z9_ {	@leftPad
-    ( '\x00' ) @rightPad // " ++ [27880; 37322]%N ++ runes_of_ascii "
-(
-'\x00'// packet A { u8 x, }
-)
-float64 chars `it's` , }")).
-Eval vm_compute in ("<<<M1343>>>" ++ check (runes_of_ascii " // " ++ [27880; 37322]%N)).
-Eval vm_compute in ("<<<T1343>>>" ++ terms [mkTok 44 (string_of_bytes [47; 47; 32; 230; 179; 168; 233; 135; 138]%N) 1 1 true; mkTok 0 "<EOF>" 1 6 false] (mkPacket (mkPtok 0 "<EOF>" 1 6 1) None [])).
-Eval vm_compute in ("<<<M1375>>>" ++ check (runes_of_ascii "  packet	Packet{ } root
-packet pack { @calculatedFrom( ""CRC32"")string
-pack`two words`
+@leftPad( )chars	, @calculatedFrom( ""1""  )
+@lengthOf( tag) @lengthOf( Foo ) match charz as chars
+    { 42 :
+    // packet A { u8 x, }
+    uint8x , """ ++ [28040; 24687]%N ++ runes_of_ascii """ :o , 0123456789:
+    lengthOf
+,[
+    ""a\\"" ,
+""CRC32""
+    , ""a	b"" ,""CRC32""	, 0
+,""CRC32"" , ""a\\"", """" ] : T ""it's"" :
+    tag } //x
+, i8 roots, @lengthOf( float)
+@tag(10)body { chars// trailing space 
+{repeat
+int8 body ,
+}  , repeat
+    Header {char[]
+leftPad , } , /// triple
+match Logon as
     // " ++ [128512]%N ++ runes_of_ascii " emoji
-    , @lengthOf(Pad
-    )
-@lengthOf(
-rootA ) i16 A`doc`, } options {asx =00;
-string_= 7 ;
-x_y_z= 0123456789; } packet uint8x { int32
-trueish @lengthOf( roots ) `say ""hi""` ,
-    @tag( 1 ) @lengthOf(	a1 )
-match
-f32a as
-MetaDataX {
-/// triple
+    zchar {
+    4294967296
+: len  , ""a\""b"" // trailing space 
+: A 00:x_y_z ,  }
+,//	t
+repeat i16 options1,} ,
+    }options { }
+")).
+Eval vm_compute in ("<<<M63>>>" ++ check (runes_of_ascii "
+MetaData trueish { len packetx
+`" ++ [28040; 24687; 31867; 22411]%N ++ runes_of_ascii "` , lengthOf len
+// a // b
 // trailing space 
-7 :	pack 65535 :
-//
-// `tick` ""quote"" 'q'
-calculatedFrom
-// a // b
-// " ++ [27880; 37322]%N ++ runes_of_ascii "
-, [
-    3,""// no comment""
-    ,  1 ,
-/// triple
-/// triple
-0123456789 ]:
-    // c
-    Z9_ ,4294967296
-: a1 ,007:int """ ++ [128512]%N ++ runes_of_ascii """ : o
-,
-}
-    ,	repeat calculatedFrom a1 `crlf
-line`
-, }
-")).
-Eval vm_compute in ("<<<M1407>>>" ++ check (runes_of_ascii "MetaData
-    Foo	{  }	packet x_y_z  {	a1
-    u8x, /// triple
-x
-`it's`
-    ,} packet
-    Foo
-{
-@lengthOf(
-    o) T @calculatedFrom( """ ++ [28040; 24687]%N ++ runes_of_ascii """ ) `two words`  ,
-@lengthOf( i8i8 ) repeat metadata{u
-{ repeat char[ 0
-]// trailing space 
-string_ ``, repeat
-body {
-    //
-    zchar[	0123456789	]
-Pad
-    ,
-    match
-Pad as matchKey{
-00
-:_x
-, [
-    65535 , 7 , 10 , 3// `tick` ""quote"" 'q'
-,// trailing space 
-""" ++ [128512]%N ++ runes_of_ascii """
-, 42
-, ""\" ++ [233]%N ++ runes_of_ascii """ ,""a	b""
-] : i8i8
-    , } ,	int8 charz , match packetx
-    as lengthOf	{
-    [
-    1/// triple
-, 4294967296
-, 1 ] :
-As
-},
-}
-    //
-    , repeat zchar[ 4294967296]_x
-, }, string o `` , }	, Header
-Header
-// @lengthOf(
-// c
-`u8 x,`
-,charz
-    i8i8 `crlf
-line` ,}")).
-Eval vm_compute in ("<<<M1439>>>" ++ check (runes_of_ascii "  root	packet falsey
-{  }
-root packet x { asx ,
-stringy { //x
-f64 roots
-, char[]// packet A { u8 x, }
-chars@lengthOf( uint8x )
-    // `tick` ""quote"" 'q'
-    `
-`
-, }  , @lengthOf(len ) i8	MetaDataX@calculatedFrom( ""packet""
-) , match MetaDataX
-    as _x
-{ 0
-: uint8x
-, }
-,
-// c
-//x
-@leftPad ( '\x00')uint16 // c
-roots @calculatedFrom(""abc""
-    // `tick` ""quote"" 'q'
-    ) ,  @rightPad
-    (
-' ') int32
-leftPad @calculatedFrom( ""packet"" /// triple
-) `" ++ [233]%N ++ runes_of_ascii "`, }  options { falsey = 7
-i64_
-=int16// packet A { u8 x, }
-len=
-false
-//x
-// @lengthOf(
-;	_x
-='0';asx = """ ++ [28040; 24687]%N ++ runes_of_ascii """
-    ; } options {
-packetx =uint64
-    ; len=
-    true ;
-} packet
-tag // `tick` ""quote"" 'q'
-{@leftPad ( )
-    @calculatedFrom(
-""abc"")
-    int16 Pad @lengthOf( BodyLength  ) , //x
-}
-")).
-Eval vm_compute in ("<<<M1471>>>" ++ check (runes_of_ascii "
-options { packetx = '\x00' o =
-    // `tick` ""quote"" 'q'
-    ""abc"" lengthOf // @lengthOf(
-=
-    255 zchar
-    =""" ++ [128512]%N ++ runes_of_ascii """
-Pad// packet A { u8 x, }
-= string
-;
-}
-root packet
-options1//x
-{ calculatedFrom
-    o  ,
-    x
-    @lengthOf( leftPad // " ++ [128512]%N ++ runes_of_ascii " emoji
-)
-    , match
-    _x as
-stringy { 3
-: i8i8 ,
-} ,
-    string T , }	root packet
-uint8x
-{ len
-/// triple
-// a // b
-``,} packet matchKey {match calculatedFrom
-as
-    // " ++ [27880; 37322]%N ++ runes_of_ascii "
-    Packet { [ """ ++ [28040; 24687]%N ++ runes_of_ascii """ , ""packet""//
-]:// packet A { u8 x, }
-rootA ,}	,	}options {
-    uint8x = false ; }
-")).
-Eval vm_compute in ("<<<M1503>>>" ++ check (runes_of_ascii "packet u8x {// trailing space 
-@tag(42 )
-    int16
-tag @lengthOf(
-charz )`two words`, } packet chars
-{
-    //
-    @leftPad ()uint16//x
-stringy ,  matchKey { Logon msg_type
-    //
-    `say ""hi""`
-    ,
-},
-match
-    As as repeatCount { [ 0123456789 ]
-:i64_ [
-    """", //
-65535 ] : len,0
-:
-len // packet A { u8 x, }
-""abc"":
-    f32a
-    ,00 : //	t
-tag } ,
-}
-root packet
-    matchKey
-    {repeat matchKey {
-repeat  As{ _x { int64 packetx@calculatedFrom(
-    ""packet"" ), i64 rootA `say ""hi""` // @lengthOf(
-, }
-,
-}
-, }	, }
-")).
-Eval vm_compute in ("<<<M1535>>>" ++ check (runes_of_ascii "root	packet Packet  { char[  42 ] packetx , @leftPad
-(
-    ) // " ++ [27880; 37322]%N ++ runes_of_ascii "
-@calculatedFrom( ""1""
-)
-@calculatedFrom(	""a	b""
-    )int8 lengthOf
-    //x
-    @calculatedFrom( ""\" ++ [233]%N ++ runes_of_ascii """	) `two words` // c
-, @rightPad ('\x00' ) @calculatedFrom( ""a\\"" )string msg_type , int64 packetx ,@rightPad( ' ' ) match stringy
-as chars
-{  00
-:
-chars
-, // c
-[ """" , """ ++ [28040; 24687]%N ++ runes_of_ascii """ ] :
-x , [	""{,}"" ]
-: asx,0:	uint8x ,
+,zchar[
 7
-:
-As}
-, //	t
-@tag(
-// `tick` ""quote"" 'q'
-// a // b
-00 ) repeat calculatedFrom { repeat float32 calculatedFrom `crlf
-line` , uint32
-    chars`two words`
-    ,	match len
-as u128
-// " ++ [27880; 37322]%N ++ runes_of_ascii "
-//
-{ """"
-//
-// c
-:
-    msg_type , ""it's"" : BodyLength [ ""packet"" ] :
-BodyLength ,
-    00 : i8i8},	uint8 matchKey@calculatedFrom( ""a\\""
-) , } , }
+    ]	T
+`{ , }` , string_ // packet A { u8 x, }
+f32a , len Z9_
+`` , f64 options1 ,}	options
+    {	u8x=
+    string// 50% %s
+;}")).
+Eval vm_compute in ("<<<M95>>>" ++ check (runes_of_ascii "MetaData	metadata	{}
 ")).
-Eval vm_compute in ("<<<M1567>>>" ++ check (runes_of_ascii "
-root	packet i8i8 { zchar[ 10] int // `tick` ""quote"" 'q'
-,
-}
-    packet roots {
-    tag , char[	7] _x @calculatedFrom(
-""packet""// trailing space 
-) `a\` , } root
-packet float{
-Pad
-    @lengthOf( Header) , @rightPad
-( ) match metadata as
-Logon { [ 0123456789
-    ,
-    7,
-0123456789
-    , ""CRC32"", ""\n"" ,  00 ,
-""1"", 00 ]:
-a1,}, int64 pack @calculatedFrom(
-""{,}"") ,
-} packet _x  {
-@leftPad  (' ')Z9_@lengthOf( Z9_ ) ,@rightPad
-    ()
-A len , }
-packet roots{char[1
-    ] msg_type `a\`,}
-")).
-Eval vm_compute in ("<<<T1567>>>" ++ terms [mkTok 34 "root" 2 0 false; mkTok 35 "packet" 2 5 false; mkTok 42 "i8i8" 2 12 false; mkTok 2 "{" 2 17 false; mkTok 14 "zchar[" 2 19 false; mkTok 30 "10" 2 26 false; mkTok 13 "]" 2 28 false; mkTok 42 "int" 2 30 false; mkTok 44 "// `tick` ""quote"" 'q'" 2 34 true; mkTok 40 "," 3 0 false; mkTok 3 "}" 4 0 false; mkTok 35 "packet" 5 4 false; mkTok 42 "roots" 5 11 false; mkTok 2 "{" 5 17 false; mkTok 42 "tag" 6 4 false; mkTok 40 "," 6 8 false; mkTok 12 "char[" 6 10 false; mkTok 30 "7" 6 16 false; mkTok 13 "]" 6 17 false; mkTok 42 "_x" 6 19 false; mkTok 5 "@calculatedFrom(" 6 22 false; mkTok 31 """packet""" 7 0 false; mkTok 44 "// trailing space " 7 8 true; mkTok 6 ")" 8 0 false; mkTok 43 "`a\`" 8 2 false; mkTok 40 "," 8 7 false; mkTok 3 "}" 8 9 false; mkTok 34 "root" 8 11 false; mkTok 35 "packet" 9 0 false; mkTok 42 "float" 9 7 false; mkTok 2 "{" 9 12 false; mkTok 42 "Pad" 10 0 false; mkTok 7 "@lengthOf(" 11 4 false; mkTok 42 "Header" 11 15 false; mkTok 6 ")" 11 21 false; mkTok 40 "," 11 23 false; mkTok 32 "@rightPad" 11 25 false; mkTok 8 "(" 12 0 false; mkTok 6 ")" 12 2 false; mkTok 38 "match" 12 4 false; mkTok 42 "metadata" 12 10 false; mkTok 17 "as" 12 19 false; mkTok 42 "Logon" 13 0 false; mkTok 2 "{" 13 6 false; mkTok 18 "[" 13 8 false; mkTok 30 "0123456789" 13 10 false; mkTok 40 "," 14 4 false; mkTok 30 "7" 15 4 false; mkTok 40 "," 15 5 false; mkTok 30 "0123456789" 16 0 false; mkTok 40 "," 17 4 false; mkTok 31 """CRC32""" 17 6 false; mkTok 40 "," 17 13 false; mkTok 31 """\n""" 17 15 false; mkTok 40 "," 17 20 false; mkTok 30 "00" 17 23 false; mkTok 40 "," 17 26 false; mkTok 31 """1""" 18 0 false; mkTok 40 "," 18 3 false; mkTok 30 "00" 18 5 false; mkTok 13 "]" 18 8 false; mkTok 39 ":" 18 9 false; mkTok 42 "a1" 19 0 false; mkTok 40 "," 19 2 false; mkTok 3 "}" 19 3 false; mkTok 40 "," 19 4 false; mkTok 27 "int64" 19 6 false; mkTok 42 "pack" 19 12 false; mkTok 5 "@calculatedFrom(" 19 17 false; mkTok 31 """{,}""" 20 0 false; mkTok 6 ")" 20 5 false; mkTok 40 "," 20 7 false; mkTok 3 "}" 21 0 false; mkTok 35 "packet" 21 2 false; mkTok 42 "_x" 21 9 false; mkTok 2 "{" 21 13 false; mkTok 32 "@leftPad" 22 0 false; mkTok 8 "(" 22 10 false; mkTok 33 "' '" 22 11 false; mkTok 6 ")" 22 14 false; mkTok 42 "Z9_" 22 15 false; mkTok 7 "@lengthOf(" 22 18 false; mkTok 42 "Z9_" 22 29 false; mkTok 6 ")" 22 33 false; mkTok 40 "," 22 35 false; mkTok 32 "@rightPad" 22 36 false; mkTok 8 "(" 23 4 false; mkTok 6 ")" 23 5 false; mkTok 42 "A" 24 0 false; mkTok 42 "len" 24 2 false; mkTok 40 "," 24 6 false; mkTok 3 "}" 24 8 false; mkTok 35 "packet" 25 0 false; mkTok 42 "roots" 25 7 false; mkTok 2 "{" 25 12 false; mkTok 12 "char[" 25 13 false; mkTok 30 "1" 25 18 false; mkTok 13 "]" 26 4 false; mkTok 42 "msg_type" 26 6 false; mkTok 43 "`a\`" 26 15 false; mkTok 40 "," 26 19 false; mkTok 3 "}" 26 20 false; mkTok 0 "<EOF>" 27 0 false] (mkPacket (mkPtok 34 "root" 2 0 0) (Some (mkPtok 3 "}" 26 20 101)) [(DPacket (mkPacketDef (mkSpan (mkPtok 34 "root" 2 0 0) (mkPtok 3 "}" 4 0 10)) (Some (mkPtok 34 "root" 2 0 0)) (mkPtok 35 "packet" 2 5 1) (mkPtok 42 "i8i8" 2 12 2) (mkPtok 2 "{" 2 17 3) [(mkFieldWithAttr (mkSpan (mkPtok 14 "zchar[" 2 19 4) (mkPtok 40 "," 3 0 9)) [] (MetaField (mkSpan (mkPtok 14 "zchar[" 2 19 4) (mkPtok 40 "," 3 0 9)) None (mkMetaDecl (mkSpan (mkPtok 14 "zchar[" 2 19 4) (mkPtok 40 "," 3 0 9)) (TyFixed (mkSpan (mkPtok 14 "zchar[" 2 19 4) (mkPtok 13 "]" 2 28 6)) (mkFixedString (mkSpan (mkPtok 14 "zchar[" 2 19 4) (mkPtok 13 "]" 2 28 6)) (mkPtok 14 "zchar[" 2 19 4) (mkPtok 30 "10" 2 26 5) (mkPtok 13 "]" 2 28 6))) (mkPtok 42 "int" 2 30 7) None (mkPtok 40 "," 3 0 9))))] (mkPtok 3 "}" 4 0 10))); (DPacket (mkPacketDef (mkSpan (mkPtok 35 "packet" 5 4 11) (mkPtok 3 "}" 8 9 26)) None (mkPtok 35 "packet" 5 4 11) (mkPtok 42 "roots" 5 11 12) (mkPtok 2 "{" 5 17 13) [(mkFieldWithAttr (mkSpan (mkPtok 42 "tag" 6 4 14) (mkPtok 40 "," 6 8 15)) [] (ObjectField (mkSpan (mkPtok 42 "tag" 6 4 14) (mkPtok 40 "," 6 8 15)) None (mkPtok 42 "tag" 6 4 14) None None (mkPtok 40 "," 6 8 15))); (mkFieldWithAttr (mkSpan (mkPtok 12 "char[" 6 10 16) (mkPtok 40 "," 8 7 25)) [] (CheckSumField (mkSpan (mkPtok 12 "char[" 6 10 16) (mkPtok 40 "," 8 7 25)) (mkChecksumFieldDecl (mkSpan (mkPtok 12 "char[" 6 10 16) (mkPtok 40 "," 8 7 25)) (Some (TyFixed (mkSpan (mkPtok 12 "char[" 6 10 16) (mkPtok 13 "]" 6 17 18)) (mkFixedString (mkSpan (mkPtok 12 "char[" 6 10 16) (mkPtok 13 "]" 6 17 18)) (mkPtok 12 "char[" 6 10 16) (mkPtok 30 "7" 6 16 17) (mkPtok 13 "]" 6 17 18)))) (mkPtok 42 "_x" 6 19 19) (mkCalculatedFrom (mkSpan (mkPtok 5 "@calculatedFrom(" 6 22 20) (mkPtok 6 ")" 8 0 23)) (mkPtok 5 "@calculatedFrom(" 6 22 20) (mkPtok 31 """packet""" 7 0 21) (mkPtok 6 ")" 8 0 23)) (Some (mkPtok 43 "`a\`" 8 2 24)) (mkPtok 40 "," 8 7 25))))] (mkPtok 3 "}" 8 9 26))); (DPacket (mkPacketDef (mkSpan (mkPtok 34 "root" 8 11 27) (mkPtok 3 "}" 21 0 72)) (Some (mkPtok 34 "root" 8 11 27)) (mkPtok 35 "packet" 9 0 28) (mkPtok 42 "float" 9 7 29) (mkPtok 2 "{" 9 12 30) [(mkFieldWithAttr (mkSpan (mkPtok 42 "Pad" 10 0 31) (mkPtok 40 "," 11 23 35)) [] (LengthField (mkSpan (mkPtok 42 "Pad" 10 0 31) (mkPtok 40 "," 11 23 35)) (mkLengthFieldDecl (mkSpan (mkPtok 42 "Pad" 10 0 31) (mkPtok 40 "," 11 23 35)) None (mkPtok 42 "Pad" 10 0 31) (mkLengthOf (mkSpan (mkPtok 7 "@lengthOf(" 11 4 32) (mkPtok 6 ")" 11 21 34)) (mkPtok 7 "@lengthOf(" 11 4 32) (mkPtok 42 "Header" 11 15 33) (mkPtok 6 ")" 11 21 34)) None (mkPtok 40 "," 11 23 35)))); (mkFieldWithAttr (mkSpan (mkPtok 32 "@rightPad" 11 25 36) (mkPtok 40 "," 19 4 65)) [(FAPadding (mkSpan (mkPtok 32 "@rightPad" 11 25 36) (mkPtok 6 ")" 12 2 38)) (mkPaddingAttr (mkSpan (mkPtok 32 "@rightPad" 11 25 36) (mkPtok 6 ")" 12 2 38)) (mkPtok 32 "@rightPad" 11 25 36) (mkPtok 8 "(" 12 0 37) None (mkPtok 6 ")" 12 2 38)))] (MatchField (mkSpan (mkPtok 38 "match" 12 4 39) (mkPtok 40 "," 19 4 65)) (mkMatchFieldDecl (mkSpan (mkPtok 38 "match" 12 4 39) (mkPtok 3 "}" 19 3 64)) (mkPtok 38 "match" 12 4 39) (mkPtok 42 "metadata" 12 10 40) (mkPtok 17 "as" 12 19 41) (mkPtok 42 "Logon" 13 0 42) (mkPtok 2 "{" 13 6 43) [(mkMatchPair (mkSpan (mkPtok 18 "[" 13 8 44) (mkPtok 40 "," 19 2 63)) (MKList (mkKeyList (mkSpan (mkPtok 18 "[" 13 8 44) (mkPtok 13 "]" 18 8 60)) (mkPtok 18 "[" 13 8 44) (mkPtok 30 "0123456789" 13 10 45) [((mkPtok 40 "," 14 4 46), (mkPtok 30 "7" 15 4 47)); ((mkPtok 40 "," 15 5 48), (mkPtok 30 "0123456789" 16 0 49)); ((mkPtok 40 "," 17 4 50), (mkPtok 31 """CRC32""" 17 6 51)); ((mkPtok 40 "," 17 13 52), (mkPtok 31 """\n""" 17 15 53)); ((mkPtok 40 "," 17 20 54), (mkPtok 30 "00" 17 23 55)); ((mkPtok 40 "," 17 26 56), (mkPtok 31 """1""" 18 0 57)); ((mkPtok 40 "," 18 3 58), (mkPtok 30 "00" 18 5 59))] (mkPtok 13 "]" 18 8 60))) (mkPtok 39 ":" 18 9 61) (mkPtok 42 "a1" 19 0 62) (Some (mkPtok 40 "," 19 2 63)))] (mkPtok 3 "}" 19 3 64)) (mkPtok 40 "," 19 4 65))); (mkFieldWithAttr (mkSpan (mkPtok 27 "int64" 19 6 66) (mkPtok 40 "," 20 7 71)) [] (CheckSumField (mkSpan (mkPtok 27 "int64" 19 6 66) (mkPtok 40 "," 20 7 71)) (mkChecksumFieldDecl (mkSpan (mkPtok 27 "int64" 19 6 66) (mkPtok 40 "," 20 7 71)) (Some (TyBasic (mkSpan (mkPtok 27 "int64" 19 6 66) (mkPtok 27 "int64" 19 6 66)) (mkBasicType (mkSpan (mkPtok 27 "int64" 19 6 66) (mkPtok 27 "int64" 19 6 66)) (mkPtok 27 "int64" 19 6 66)))) (mkPtok 42 "pack" 19 12 67) (mkCalculatedFrom (mkSpan (mkPtok 5 "@calculatedFrom(" 19 17 68) (mkPtok 6 ")" 20 5 70)) (mkPtok 5 "@calculatedFrom(" 19 17 68) (mkPtok 31 """{,}""" 20 0 69) (mkPtok 6 ")" 20 5 70)) None (mkPtok 40 "," 20 7 71))))] (mkPtok 3 "}" 21 0 72))); (DPacket (mkPacketDef (mkSpan (mkPtok 35 "packet" 21 2 73) (mkPtok 3 "}" 24 8 91)) None (mkPtok 35 "packet" 21 2 73) (mkPtok 42 "_x" 21 9 74) (mkPtok 2 "{" 21 13 75) [(mkFieldWithAttr (mkSpan (mkPtok 32 "@leftPad" 22 0 76) (mkPtok 40 "," 22 35 84)) [(FAPadding (mkSpan (mkPtok 32 "@leftPad" 22 0 76) (mkPtok 6 ")" 22 14 79)) (mkPaddingAttr (mkSpan (mkPtok 32 "@leftPad" 22 0 76) (mkPtok 6 ")" 22 14 79)) (mkPtok 32 "@leftPad" 22 0 76) (mkPtok 8 "(" 22 10 77) (Some (mkPtok 33 "' '" 22 11 78)) (mkPtok 6 ")" 22 14 79)))] (LengthField (mkSpan (mkPtok 42 "Z9_" 22 15 80) (mkPtok 40 "," 22 35 84)) (mkLengthFieldDecl (mkSpan (mkPtok 42 "Z9_" 22 15 80) (mkPtok 40 "," 22 35 84)) None (mkPtok 42 "Z9_" 22 15 80) (mkLengthOf (mkSpan (mkPtok 7 "@lengthOf(" 22 18 81) (mkPtok 6 ")" 22 33 83)) (mkPtok 7 "@lengthOf(" 22 18 81) (mkPtok 42 "Z9_" 22 29 82) (mkPtok 6 ")" 22 33 83)) None (mkPtok 40 "," 22 35 84)))); (mkFieldWithAttr (mkSpan (mkPtok 32 "@rightPad" 22 36 85) (mkPtok 40 "," 24 6 90)) [(FAPadding (mkSpan (mkPtok 32 "@rightPad" 22 36 85) (mkPtok 6 ")" 23 5 87)) (mkPaddingAttr (mkSpan (mkPtok 32 "@rightPad" 22 36 85) (mkPtok 6 ")" 23 5 87)) (mkPtok 32 "@rightPad" 22 36 85) (mkPtok 8 "(" 23 4 86) None (mkPtok 6 ")" 23 5 87)))] (ObjectField (mkSpan (mkPtok 42 "A" 24 0 88) (mkPtok 40 "," 24 6 90)) None (mkPtok 42 "A" 24 0 88) (Some (mkPtok 42 "len" 24 2 89)) None (mkPtok 40 "," 24 6 90)))] (mkPtok 3 "}" 24 8 91))); (DPacket (mkPacketDef (mkSpan (mkPtok 35 "packet" 25 0 92) (mkPtok 3 "}" 26 20 101)) None (mkPtok 35 "packet" 25 0 92) (mkPtok 42 "roots" 25 7 93) (mkPtok 2 "{" 25 12 94) [(mkFieldWithAttr (mkSpan (mkPtok 12 "char[" 25 13 95) (mkPtok 40 "," 26 19 100)) [] (MetaField (mkSpan (mkPtok 12 "char[" 25 13 95) (mkPtok 40 "," 26 19 100)) None (mkMetaDecl (mkSpan (mkPtok 12 "char[" 25 13 95) (mkPtok 40 "," 26 19 100)) (TyFixed (mkSpan (mkPtok 12 "char[" 25 13 95) (mkPtok 13 "]" 26 4 97)) (mkFixedString (mkSpan (mkPtok 12 "char[" 25 13 95) (mkPtok 13 "]" 26 4 97)) (mkPtok 12 "char[" 25 13 95) (mkPtok 30 "1" 25 18 96) (mkPtok 13 "]" 26 4 97))) (mkPtok 42 "msg_type" 26 6 98) (Some (mkPtok 43 "`a\`" 26 15 99)) (mkPtok 40 "," 26 19 100))))] (mkPtok 3 "}" 26 20 101)))])).
-Eval vm_compute in ("<<<M1599>>>" ++ check (runes_of_ascii "packet
-body { @tag( 3 )
-u64 len // a // b
-, } packet
-    msg_type{ }")).
-Eval vm_compute in ("<<<M1631>>>" ++ check (runes_of_ascii "options
+Eval vm_compute in ("<<<M127>>>" ++ check (runes_of_ascii "root packet u{ zchar[ 00] body , @lengthOf( o ) match
+u as u{
+    ""\" ++ [233]%N ++ runes_of_ascii """ : Z9_
     //x
-    {len =
-true ; a1 //	t
-= // @lengthOf(
-false ; a1 = 00 ;
-    // a // b
-    } MetaData u128 {	} root packet x_y_z  {  @tag( 1 )  i64_ @lengthOf( Pad)
-    ,	@lengthOf( _x
-) char[
-    4294967296 ]charz , //x
-u128 string_ `u8 x,`, @tag( 10) Pad @lengthOf(
-    // trailing space 
-    crc  )
-`line1
-line2`, repeat	string_ u128
-`
-` , }
-// " ++ [128512]%N ++ runes_of_ascii " emoji
-")).
-Eval vm_compute in ("<<<M1663>>>" ++ check (runes_of_ascii " /// triple")).
-Eval vm_compute in ("<<<M1695>>>" ++ check (runes_of_ascii "options { stringy =
-    true ; } MetaData repeatCount { char[] x_y_z ,char stringy , }")).
-Eval vm_compute in ("<<<M1727>>>" ++ check (runes_of_ascii "root packet Packet  { } MetaData u128 { uint8x BodyLength , char[ 65535 ]
-    i64_ `
-`, } packet trueish //
-{f64  u128 ,
-    //x
-    a1 uint8x ,@calculatedFrom( """")
-// " ++ [128512]%N ++ runes_of_ascii " emoji
-// a // b
-u64 Pad,rootA
-    {	repeatCount  {int /// triple
-@lengthOf( tag
-    ) ,} , }
-/// triple
-// c
-,
-    // " ++ [27880; 37322]%N ++ runes_of_ascii "
-    @calculatedFrom( ""`tick`""
-    ) repeat charz msg_type//x
-`" ++ [233]%N ++ runes_of_ascii "` , matchKey uint8x ,repeat u64 calculatedFrom  ,x_y_z matchKey ,	stringy @calculatedFrom(""a\""b""// trailing space 
-) , @rightPad// packet A { u8 x, }
-( '0' ) repeat
-o {
-match body as
-    A { ""abc"":Header	, } , } ,
-}
-// a // b
-")).
-Eval vm_compute in ("<<<M1759>>>" ++ check (runes_of_ascii "options
-    { a1 =
-char ; }
-// `tick` ""quote"" 'q'
-")).
-Eval vm_compute in ("<<<M1791>>>" ++ check (runes_of_ascii "root
-    packet u{ roots
-falsey , @calculatedFrom( ""1"")
-repeat i8 i64_`tab	here` , // " ++ [27880; 37322]%N ++ runes_of_ascii "
-@leftPad (
-    // packet A { u8 x, }
-    '\x00' ) body
-`doc` ,  @leftPad ( )@tag(00 )
-@lengthOf(repeatCount )match
-Packet	as	u128{
-//x
-//
-[ 4294967296, """ ++ [128512]%N ++ runes_of_ascii """ ,""\" ++ [233]%N ++ runes_of_ascii """
-    , """ ++ [233]%N ++ runes_of_ascii "t" ++ [233]%N ++ runes_of_ascii """ // a // b
-, // @lengthOf(
-1 ]	: crc , } ,
-    }
-")).
-Eval vm_compute in ("<<<T1791>>>" ++ terms [mkTok 34 "root" 1 0 false; mkTok 35 "packet" 2 4 false; mkTok 42 "u" 2 11 false; mkTok 2 "{" 2 12 false; mkTok 42 "roots" 2 14 false; mkTok 42 "falsey" 3 0 false; mkTok 40 "," 3 7 false; mkTok 5 "@calculatedFrom(" 3 9 false; mkTok 31 """1""" 3 26 false; mkTok 6 ")" 3 29 false; mkTok 36 "repeat" 4 0 false; mkTok 24 "i8" 4 7 false; mkTok 42 "i64_" 4 10 false; mkTok 43 (string_of_bytes [96; 116; 97; 98; 9; 104; 101; 114; 101; 96]%N) 4 14 false; mkTok 40 "," 4 25 false; mkTok 44 (string_of_bytes [47; 47; 32; 230; 179; 168; 233; 135; 138]%N) 4 27 true; mkTok 32 "@leftPad" 5 0 false; mkTok 8 "(" 5 9 false; mkTok 44 "// packet A { u8 x, }" 6 4 true; mkTok 33 "'\x00'" 7 4 false; mkTok 6 ")" 7 11 false; mkTok 42 "body" 7 13 false; mkTok 43 "`doc`" 8 0 false; mkTok 40 "," 8 6 false; mkTok 32 "@leftPad" 8 9 false; mkTok 8 "(" 8 18 false; mkTok 6 ")" 8 20 false; mkTok 9 "@tag(" 8 21 false; mkTok 30 "00" 8 26 false; mkTok 6 ")" 8 29 false; mkTok 7 "@lengthOf(" 9 0 false; mkTok 42 "repeatCount" 9 10 false; mkTok 6 ")" 9 22 false; mkTok 38 "match" 9 23 false; mkTok 42 "Packet" 10 0 false; mkTok 17 "as" 10 7 false; mkTok 42 "u128" 10 10 false; mkTok 2 "{" 10 14 false; mkTok 44 "//x" 11 0 true; mkTok 44 "//" 12 0 true; mkTok 18 "[" 13 0 false; mkTok 30 "4294967296" 13 2 false; mkTok 40 "," 13 12 false; mkTok 31 (string_of_bytes [34; 240; 159; 152; 128; 34]%N) 13 14 false; mkTok 40 "," 13 18 false; mkTok 31 (string_of_bytes [34; 92; 195; 169; 34]%N) 13 19 false; mkTok 40 "," 14 4 false; mkTok 31 (string_of_bytes [34; 195; 169; 116; 195; 169; 34]%N) 14 6 false; mkTok 44 "// a // b" 14 12 true; mkTok 40 "," 15 0 false; mkTok 44 "// @lengthOf(" 15 2 true; mkTok 30 "1" 16 0 false; mkTok 13 "]" 16 2 false; mkTok 39 ":" 16 4 false; mkTok 42 "crc" 16 6 false; mkTok 40 "," 16 10 false; mkTok 3 "}" 16 12 false; mkTok 40 "," 16 14 false; mkTok 3 "}" 17 4 false; mkTok 0 "<EOF>" 18 0 false] (mkPacket (mkPtok 34 "root" 1 0 0) (Some (mkPtok 3 "}" 17 4 58)) [(DPacket (mkPacketDef (mkSpan (mkPtok 34 "root" 1 0 0) (mkPtok 3 "}" 17 4 58)) (Some (mkPtok 34 "root" 1 0 0)) (mkPtok 35 "packet" 2 4 1) (mkPtok 42 "u" 2 11 2) (mkPtok 2 "{" 2 12 3) [(mkFieldWithAttr (mkSpan (mkPtok 42 "roots" 2 14 4) (mkPtok 40 "," 3 7 6)) [] (ObjectField (mkSpan (mkPtok 42 "roots" 2 14 4) (mkPtok 40 "," 3 7 6)) None (mkPtok 42 "roots" 2 14 4) (Some (mkPtok 42 "falsey" 3 0 5)) None (mkPtok 40 "," 3 7 6))); (mkFieldWithAttr (mkSpan (mkPtok 5 "@calculatedFrom(" 3 9 7) (mkPtok 40 "," 4 25 14)) [(FACalculatedFrom (mkSpan (mkPtok 5 "@calculatedFrom(" 3 9 7) (mkPtok 6 ")" 3 29 9)) (mkCalculatedFrom (mkSpan (mkPtok 5 "@calculatedFrom(" 3 9 7) (mkPtok 6 ")" 3 29 9)) (mkPtok 5 "@calculatedFrom(" 3 9 7) (mkPtok 31 """1""" 3 26 8) (mkPtok 6 ")" 3 29 9)))] (MetaField (mkSpan (mkPtok 36 "repeat" 4 0 10) (mkPtok 40 "," 4 25 14)) (Some (mkPtok 36 "repeat" 4 0 10)) (mkMetaDecl (mkSpan (mkPtok 24 "i8" 4 7 11) (mkPtok 40 "," 4 25 14)) (TyBasic (mkSpan (mkPtok 24 "i8" 4 7 11) (mkPtok 24 "i8" 4 7 11)) (mkBasicType (mkSpan (mkPtok 24 "i8" 4 7 11) (mkPtok 24 "i8" 4 7 11)) (mkPtok 24 "i8" 4 7 11))) (mkPtok 42 "i64_" 4 10 12) (Some (mkPtok 43 (string_of_bytes [96; 116; 97; 98; 9; 104; 101; 114; 101; 96]%N) 4 14 13)) (mkPtok 40 "," 4 25 14)))); (mkFieldWithAttr (mkSpan (mkPtok 32 "@leftPad" 5 0 16) (mkPtok 40 "," 8 6 23)) [(FAPadding (mkSpan (mkPtok 32 "@leftPad" 5 0 16) (mkPtok 6 ")" 7 11 20)) (mkPaddingAttr (mkSpan (mkPtok 32 "@leftPad" 5 0 16) (mkPtok 6 ")" 7 11 20)) (mkPtok 32 "@leftPad" 5 0 16) (mkPtok 8 "(" 5 9 17) (Some (mkPtok 33 "'\x00'" 7 4 19)) (mkPtok 6 ")" 7 11 20)))] (ObjectField (mkSpan (mkPtok 42 "body" 7 13 21) (mkPtok 40 "," 8 6 23)) None (mkPtok 42 "body" 7 13 21) None (Some (mkPtok 43 "`doc`" 8 0 22)) (mkPtok 40 "," 8 6 23))); (mkFieldWithAttr (mkSpan (mkPtok 32 "@leftPad" 8 9 24) (mkPtok 40 "," 16 14 57)) [(FAPadding (mkSpan (mkPtok 32 "@leftPad" 8 9 24) (mkPtok 6 ")" 8 20 26)) (mkPaddingAttr (mkSpan (mkPtok 32 "@leftPad" 8 9 24) (mkPtok 6 ")" 8 20 26)) (mkPtok 32 "@leftPad" 8 9 24) (mkPtok 8 "(" 8 18 25) None (mkPtok 6 ")" 8 20 26))); (FATag (mkSpan (mkPtok 9 "@tag(" 8 21 27) (mkPtok 6 ")" 8 29 29)) (mkTagAttr (mkSpan (mkPtok 9 "@tag(" 8 21 27) (mkPtok 6 ")" 8 29 29)) (mkPtok 9 "@tag(" 8 21 27) (mkPtok 30 "00" 8 26 28) (mkPtok 6 ")" 8 29 29))); (FALengthOf (mkSpan (mkPtok 7 "@lengthOf(" 9 0 30) (mkPtok 6 ")" 9 22 32)) (mkLengthOf (mkSpan (mkPtok 7 "@lengthOf(" 9 0 30) (mkPtok 6 ")" 9 22 32)) (mkPtok 7 "@lengthOf(" 9 0 30) (mkPtok 42 "repeatCount" 9 10 31) (mkPtok 6 ")" 9 22 32)))] (MatchField (mkSpan (mkPtok 38 "match" 9 23 33) (mkPtok 40 "," 16 14 57)) (mkMatchFieldDecl (mkSpan (mkPtok 38 "match" 9 23 33) (mkPtok 3 "}" 16 12 56)) (mkPtok 38 "match" 9 23 33) (mkPtok 42 "Packet" 10 0 34) (mkPtok 17 "as" 10 7 35) (mkPtok 42 "u128" 10 10 36) (mkPtok 2 "{" 10 14 37) [(mkMatchPair (mkSpan (mkPtok 18 "[" 13 0 40) (mkPtok 40 "," 16 10 55)) (MKList (mkKeyList (mkSpan (mkPtok 18 "[" 13 0 40) (mkPtok 13 "]" 16 2 52)) (mkPtok 18 "[" 13 0 40) (mkPtok 30 "4294967296" 13 2 41) [((mkPtok 40 "," 13 12 42), (mkPtok 31 (string_of_bytes [34; 240; 159; 152; 128; 34]%N) 13 14 43)); ((mkPtok 40 "," 13 18 44), (mkPtok 31 (string_of_bytes [34; 92; 195; 169; 34]%N) 13 19 45)); ((mkPtok 40 "," 14 4 46), (mkPtok 31 (string_of_bytes [34; 195; 169; 116; 195; 169; 34]%N) 14 6 47)); ((mkPtok 40 "," 15 0 49), (mkPtok 30 "1" 16 0 51))] (mkPtok 13 "]" 16 2 52))) (mkPtok 39 ":" 16 4 53) (mkPtok 42 "crc" 16 6 54) (Some (mkPtok 40 "," 16 10 55)))] (mkPtok 3 "}" 16 12 56)) (mkPtok 40 "," 16 14 57)))] (mkPtok 3 "}" 17 4 58)))])).
-Eval vm_compute in ("<<<M1823>>>" ++ check (runes_of_ascii "MetaData
-    BodyLength
-    //	t
-    { len	rootA
-,
-    //	t
-    } options	{ string_ =0 ; }
-// trailing space 
-")).
-Eval vm_compute in ("<<<M1855>>>" ++ check (runes_of_ascii "// `tick` ""quote"" 'q'
-packet T {	}
-")).
-Eval vm_compute in ("<<<M1887>>>" ++ check (runes_of_ascii "packet // packet A { u8 x, }
-u128	{	@tag(10 )
-string _x @calculatedFrom( """ ++ [233]%N ++ runes_of_ascii "t" ++ [233]%N ++ runes_of_ascii """ )
-,char[ 3 ]
-    // `tick` ""quote"" 'q'
-    x_y_z@calculatedFrom( // " ++ [128512]%N ++ runes_of_ascii " emoji
-""it's"" //
-) , } root packet  A {
-    match
-    // c
-    len
-as Packet
-{""" ++ [28040; 24687]%N ++ runes_of_ascii """ // a // b
-: i8i8 ,[
-    4294967296 ]
+    [/// triple
+65535 ,
+255 , ""x y"" ] // a // b
 :
-charz
-    ,// " ++ [128512]%N ++ runes_of_ascii " emoji
-}
-    ,
-    // " ++ [128512]%N ++ runes_of_ascii " emoji
-    }  root
-    packet trueish { i16 Packet @calculatedFrom( """ ++ [233]%N ++ runes_of_ascii "t" ++ [233]%N ++ runes_of_ascii """ //x
-) `a\`
-, @rightPad //	t
-('0'  )
-Logon { // packet A { u8 x, }
-match msg_type as Packet { [ ""abc""
-// trailing space 
-// packet A { u8 x, }
-]: MetaDataX ,
-[ ""a\\""  ,
-""a	b"" ] : x , 65535 ://
-f32a,
-    } ,zchar[  00 ]
-rootA
-@lengthOf( Foo)
-, repeat u8x // " ++ [128512]%N ++ runes_of_ascii " emoji
-,
-}
-//
-/// triple
-, @calculatedFrom(
+chars,
+0123456789:float , } , }packet x_y_z {
+zchar[ 3 ]u
+    , @tag(
+    10 ) zchar[ 4294967296 ]  body // @lengthOf(
+`tab	here` ,
+@lengthOf(Pad
 // a // b
 // @lengthOf(
-""a	b""
-)	match
-MetaDataX//
-as int	{ """ ++ [28040; 24687]%N ++ runes_of_ascii """ :
-int,  1:
-    T [""\n"" , ""packet""	,4294967296,4294967296
-    // packet A { u8 x, }
-    , """"
-    , ""abc"" ] :
-    Packet,[ ""\" ++ [233]%N ++ runes_of_ascii """	, 3, 007 ] : Logon , } , int@calculatedFrom( ""it's"" )  , }
-")).
-Eval vm_compute in ("<<<M1919>>>" ++ check (runes_of_ascii "// " ++ [128512]%N ++ runes_of_ascii " emoji
-options // " ++ [27880; 37322]%N ++ runes_of_ascii "
+) repeat i64_ crc ,
+repeat
+    u16
+    msg_type,	@rightPad
+// @lengthOf(
+//	t
+(
+) char[]
+/// triple
+// @lengthOf(
+float //	t
+, @rightPad
+( )@leftPad
+( )repeat char[ 4294967296
+]options1 , repeat f64 _x`` , u64 string_//
+,	} root packet packetx
+{int32 i8i8 @calculatedFrom( ""\" ++ [233]%N ++ runes_of_ascii """
+// a // b
+// trailing space 
+)
+    `100% of %d`
+// " ++ [128512]%N ++ runes_of_ascii " emoji
+// " ++ [128512]%N ++ runes_of_ascii " emoji
+, @tag( 1 ) @lengthOf( // " ++ [128512]%N ++ runes_of_ascii " emoji
+i64_ )
+    @calculatedFrom( ""x y""
+    )
+// `tick` ""quote"" 'q'
+//	t
+char[
+    0123456789
+    ]
+rootA @calculatedFrom(
+""// no comment"" )
+    `" ++ [28040; 24687; 31867; 22411]%N ++ runes_of_ascii "` ,u32
+T @lengthOf(x )
+    `it's`, char MetaDataX/// triple
+, } packet
+/// triple
+// `tick` ""quote"" 'q'
+Header {@calculatedFrom(
+""`tick`""  )
+    @tag( 3) x crc,
+    @calculatedFrom( ""it's"" )
+u16 Z9_
+`" ++ [28040; 24687; 31867; 22411]%N ++ runes_of_ascii "` ,	@calculatedFrom(
+""`tick`"")
+As , // c
+@leftPad //	t
+( )
+    // trailing space 
+    u128  @calculatedFrom(
+    """ ++ [28040; 24687]%N ++ runes_of_ascii """ ) , @calculatedFrom(""// no comment""// trailing space 
+)
+repeat
+As { body {
+repeat f32a
+{ match Z9_ as
+BodyLength
+    { ""it's"" : Logon }
+//x
+//
+,
+    char[ 65535 ] pack,
+Packet @calculatedFrom( // `tick` ""quote"" 'q'
+""a\\"") , char[] _x @calculatedFrom( """") , } , } ,} ,
+    @tag(
+65535
+    )
+@calculatedFrom(//
+""abc"" )@calculatedFrom( ""`tick`"" )
+    BodyLength {	crc matchKey,	asx ,
+    match /// triple
+repeatCount //	t
+as
+int{
+""1""
+:Logon
+,
+},
+asx
+    {repeat
+_x ,
+x Foo
+`" ++ [233]%N ++ runes_of_ascii "` ,
+repeat// c
+zchar[42 ]A
+    , u16
+lengthOf `100% of %d`
+, }
+    // `tick` ""quote"" 'q'
+    ,
+    // a // b
+    } ,
+@rightPad (' ' )
+    match  Z9_ as i64_ {
+    //	t
+    1 :
+// 50% %s
+// trailing space 
+Header ,	""\n"": lengthOf  , } , string_ {  repeat char[ 255 // c
+] Pad
+    , }  ,
+    float32
+    leftPad @calculatedFrom( ""a\\"" )  , }
+packet
+calculatedFrom // c
 {}
 ")).
-Eval vm_compute in ("<<<M1951>>>" ++ check (runes_of_ascii "root packet A {repeat u8 u, // " ++ [128512]%N ++ runes_of_ascii " emoji
-} root packet matchKey {char[] Pad @lengthOf( // " ++ [27880; 37322]%N ++ runes_of_ascii "
-a1 ) , }")).
-Eval vm_compute in ("<<<M1983>>>" ++ check (runes_of_ascii "root packet
-Header {@calculatedFrom(""a\\"" )
-match	calculatedFrom as  pack {00 : string_
-} , tag matchKey , }")).
-Eval vm_compute in ("<<<M2015>>>" ++ check (runes_of_ascii "options{ { i64_ = string ; trueish =
-    '\x00'
-    leftPad = ""a\\"" /// triple
-; crc
-    = 255; uint8x
-=
-""abc""
-    ;}")).
-Eval vm_compute in ("<<<M2047>>>" ++ check (runes_of_ascii "options{ i64_ = string ; trueish true
-    '\x00'
-    leftPad = ""a\\"" /// triple
-; crc
-    = 255; uint8x
-=
-""abc""
-    ;}")).
-Eval vm_compute in ("<<<M2079>>>" ++ check (runes_of_ascii "options{ i64_ = string ; trueish =
-    '\x00'
-    leftPad = ""a\\"" /// triple
-; crc
-     255; uint8x
-=
-""abc""
-    ;}")).
-Eval vm_compute in ("<<<M2111>>>" ++ check (runes_of_ascii "options{ i64_ = string ; trueish =
-    '\x00'
-    leftPad = ""a\\"" /// triple
-; crc
-    = 255; uint8x
-=
-""abc""
-    };")).
-Eval vm_compute in ("<<<M2143>>>" ++ check (runes_of_ascii "  '0'
-asx
-{
-/// triple
-// @lengthOf(
-u32 stringy
-`" ++ [28040; 24687; 31867; 22411]%N ++ runes_of_ascii "` ,} MetaData
-    A {string  _x, zchar Header `a\`
-// @lengthOf(
-// packet A { u8 x, }
-, char[] MetaDataX
-,zchar[ 1 ]
-    matchKey
-    , char[] //
-u,	char[0123456789 ]
-    matchKey
-    `{ , }`, }
+Eval vm_compute in ("<<<M159>>>" ++ check (runes_of_ascii "MetaData matchKey { calculatedFrom A `
+` ,  }
+    options { tag=
+""\" ++ [233]%N ++ runes_of_ascii """ ; Logon = ' '
+    Header
+= true ; } options { packetx = zchar[
+    // " ++ [128512]%N ++ runes_of_ascii " emoji
+    3  ]}
 ")).
-Eval vm_compute in ("<<<M2175>>>" ++ check (runes_of_ascii "  packet
-asx
-{
-/// triple
-// @lengthOf(
-u32 stringy
-`" ++ [28040; 24687; 31867; 22411]%N ++ runes_of_ascii "` , MetaData
-    A {string  _x, zchar Header `a\`
-// @lengthOf(
-// packet A { u8 x, }
-, char[] MetaDataX
-,zchar[ 1 ]
-    matchKey
-    , char[] //
-u,	char[0123456789 ]
-    matchKey
-    `{ , }`, }
-")).
-Eval vm_compute in ("<<<M2207>>>" ++ check (runes_of_ascii "  packet
-asx
-{
-/// triple
-// @lengthOf(
-u32 stringy
-`" ++ [28040; 24687; 31867; 22411]%N ++ runes_of_ascii "` ,} MetaData
-    A {string  _x zchar , Header `a\`
-// @lengthOf(
-// packet A { u8 x, }
-, char[] MetaDataX
-,zchar[ 1 ]
-    matchKey
-    , char[] //
-u,	char[0123456789 ]
-    matchKey
-    `{ , }`, }
-")).
-Eval vm_compute in ("<<<M2239>>>" ++ check (runes_of_ascii "  packet
-asx
-{
-/// triple
-// @lengthOf(
-u32 stringy
-`" ++ [28040; 24687; 31867; 22411]%N ++ runes_of_ascii "` ,} MetaData
-    A {string  _x, zchar Header `a\`
-// @lengthOf(
-// packet A { u8 x, }
-, char[]")).
-Eval vm_compute in ("<<<M2271>>>" ++ check (runes_of_ascii "  packet
-asx
-{
-/// triple
-// @lengthOf(
-u32 stringy
-`" ++ [28040; 24687; 31867; 22411]%N ++ runes_of_ascii "` ,} MetaData
-    A {string  _x, zchar Header `a\`
-// @lengthOf(
-// packet A { u8 x, }
-, char[] MetaDataX
-,zchar[ 1 ]
-    matchKey
-    , char[] char[] //
-u,	char[0123456789 ]
-    matchKey
-    `{ , }`, }
-")).
-Eval vm_compute in ("<<<M2303>>>" ++ check (runes_of_ascii "  packet
-asx
-{
-/// triple
-// @lengthOf(
-u32 stringy
-`" ++ [28040; 24687; 31867; 22411]%N ++ runes_of_ascii "` ,} MetaData
-    A {string  _x, zchar Header `a\`
-// @lengthOf(
-// packet A { u8 x, }
-, char[] MetaDataX
-,zchar[ 1 ]
-    matchKey
-    , char[] //
-u,	char[0123456789 ]
-    ]
-    `{ , }`, }
-")).
-Eval vm_compute in ("<<<M2335>>>" ++ check (runes_of_ascii "  packet
-asx
-{
-/// triple
-// @lengthOf(
-u32 stringy
-`" ++ [28040; 24687; 31867; 22411]%N ++ runes_of_ascii "` ,} MetaData
-    A {string  _x, zchar H" ++ [65279]%N ++ runes_of_ascii "eader `a\`
-// @lengthOf(
-// packet A { u8 x, }
-, char[] MetaDataX
-,zchar[ 1 ]
-    matchKey
-    , char[] //
-u,	char[0123456789 ]
-    matchKey
-    `{ , }`, }
-")).
-Eval vm_compute in ("<<<M2367>>>" ++ check (runes_of_ascii "root
-    packet
-Packet
-{ // trailing space 
-matchKey `tab	here` `tab	here` ,}")).
-Eval vm_compute in ("<<<M2399>>>" ++ check (runes_of_ascii "root
-    packet
-" ++ [252]%N ++ runes_of_ascii "ber
-{ // trailing space 
-matchKey `tab	here` ,}")).
-Eval vm_compute in ("<<<M2431>>>" ++ check (runes_of_ascii "options{ falsey // a // b
-=
-    '0'")).
-Eval vm_compute in ("<<<M2463>>>" ++ check (runes_of_ascii "options{ falsey // a // b
-=
-    '0' } options { repeatCount =
-true ; string_ string_// a // b
-=
-// c
+Eval vm_compute in ("<<<M191>>>" ++ check (runes_of_ascii "
+ // a // b")).
+Eval vm_compute in ("<<<M223>>>" ++ check (runes_of_ascii "MetaData
+float { uint8 Foo
+    , zchar[1 ] asx `{ , }`  ,a1 lengthOf , falsey pack `u8 x,` ,
 // " ++ [27880; 37322]%N ++ runes_of_ascii "
-int64
-// trailing space 
-/// triple
-; } // @lengthOf(")).
-Eval vm_compute in ("<<<M2495>>>" ++ check (runes_of_ascii "options{ falsey // a // b
-=
-    " ++ [127]%N ++ runes_of_ascii "'0' } options { repeatCount =
-true ; string_// a // b
-=
-// c
-// " ++ [27880; 37322]%N ++ runes_of_ascii "
-int64
-// trailing space 
-/// triple
-; } // @lengthOf(")).
-Eval vm_compute in ("<<<M2527>>>" ++ check (runes_of_ascii "options{}")).
-Eval vm_compute in ("<<<M2559>>>" ++ check (runes_of_ascii "options{}root packet
-metadata {
-@lengthOf(x ) float32 float32
-body ``, }
-    MetaData
-Z9_
-    {
-    string string_ , Logon x
+// packet A { u8 x, }
+metadata Packet ,falsey // packet A { u8 x, }
+pack ,
+    }")).
+Eval vm_compute in ("<<<T223>>>" ++ terms [mkTok 37 "MetaData" 1 0 false; mkTok 42 "float" 2 0 false; mkTok 2 "{" 2 6 false; mkTok 20 "uint8" 2 8 false; mkTok 42 "Foo" 2 14 false; mkTok 40 "," 3 4 false; mkTok 14 "zchar[" 3 6 false; mkTok 30 "1" 3 12 false; mkTok 13 "]" 3 14 false; mkTok 42 "asx" 3 16 false; mkTok 43 "`{ , }`" 3 20 false; mkTok 40 "," 3 29 false; mkTok 42 "a1" 3 30 false; mkTok 42 "lengthOf" 3 33 false; mkTok 40 "," 3 42 false; mkTok 42 "falsey" 3 44 false; mkTok 42 "pack" 3 51 false; mkTok 43 "`u8 x,`" 3 56 false; mkTok 40 "," 3 64 false; mkTok 44 (string_of_bytes [47; 47; 32; 230; 179; 168; 233; 135; 138]%N) 4 0 true; mkTok 44 "// packet A { u8 x, }" 5 0 true; mkTok 42 "metadata" 6 0 false; mkTok 42 "Packet" 6 9 false; mkTok 40 "," 6 16 false; mkTok 42 "falsey" 6 17 false; mkTok 44 "// packet A { u8 x, }" 6 24 true; mkTok 42 "pack" 7 0 false; mkTok 40 "," 7 5 false; mkTok 3 "}" 8 4 false; mkTok 0 "<EOF>" 8 5 false] (mkPacket (mkPtok 37 "MetaData" 1 0 0) (Some (mkPtok 3 "}" 8 4 28)) [(DMeta (mkMetaDef (mkSpan (mkPtok 37 "MetaData" 1 0 0) (mkPtok 3 "}" 8 4 28)) (mkPtok 37 "MetaData" 1 0 0) (mkPtok 42 "float" 2 0 1) (mkPtok 2 "{" 2 6 2) [(MIDecl (mkMetaDecl (mkSpan (mkPtok 20 "uint8" 2 8 3) (mkPtok 40 "," 3 4 5)) (TyBasic (mkSpan (mkPtok 20 "uint8" 2 8 3) (mkPtok 20 "uint8" 2 8 3)) (mkBasicType (mkSpan (mkPtok 20 "uint8" 2 8 3) (mkPtok 20 "uint8" 2 8 3)) (mkPtok 20 "uint8" 2 8 3))) (mkPtok 42 "Foo" 2 14 4) None (mkPtok 40 "," 3 4 5))); (MIDecl (mkMetaDecl (mkSpan (mkPtok 14 "zchar[" 3 6 6) (mkPtok 40 "," 3 29 11)) (TyFixed (mkSpan (mkPtok 14 "zchar[" 3 6 6) (mkPtok 13 "]" 3 14 8)) (mkFixedString (mkSpan (mkPtok 14 "zchar[" 3 6 6) (mkPtok 13 "]" 3 14 8)) (mkPtok 14 "zchar[" 3 6 6) (mkPtok 30 "1" 3 12 7) (mkPtok 13 "]" 3 14 8))) (mkPtok 42 "asx" 3 16 9) (Some (mkPtok 43 "`{ , }`" 3 20 10)) (mkPtok 40 "," 3 29 11))); (MIRef (mkRefMetaDecl (mkSpan (mkPtok 42 "a1" 3 30 12) (mkPtok 40 "," 3 42 14)) (mkPtok 42 "a1" 3 30 12) (mkPtok 42 "lengthOf" 3 33 13) None (mkPtok 40 "," 3 42 14))); (MIRef (mkRefMetaDecl (mkSpan (mkPtok 42 "falsey" 3 44 15) (mkPtok 40 "," 3 64 18)) (mkPtok 42 "falsey" 3 44 15) (mkPtok 42 "pack" 3 51 16) (Some (mkPtok 43 "`u8 x,`" 3 56 17)) (mkPtok 40 "," 3 64 18))); (MIRef (mkRefMetaDecl (mkSpan (mkPtok 42 "metadata" 6 0 21) (mkPtok 40 "," 6 16 23)) (mkPtok 42 "metadata" 6 0 21) (mkPtok 42 "Packet" 6 9 22) None (mkPtok 40 "," 6 16 23))); (MIRef (mkRefMetaDecl (mkSpan (mkPtok 42 "falsey" 6 17 24) (mkPtok 40 "," 7 5 27)) (mkPtok 42 "falsey" 6 17 24) (mkPtok 42 "pack" 7 0 26) None (mkPtok 40 "," 7 5 27)))] (mkPtok 3 "}" 8 4 28)))])).
+Eval vm_compute in ("<<<M255>>>" ++ check (runes_of_ascii "
+packet body { u32 BodyLength , i64 Pad	@calculatedFrom(//	t
+""// no comment"" ) , @tag( 00 )
+    @tag( 0123456789 ) @calculatedFrom(	""CRC32"" ) char i8i8 // trailing space 
+@calculatedFrom( ""// no comment"" )	,
+@tag( 3 ) @leftPad(
+    '\x00'
+)@rightPad
+( ) match
+string_ as MetaDataX//x
+{""packet"" :float , [
+    ""abc""
+, """", 3
 ,
-uint32
+// @lengthOf(
+/// triple
+65535
+    , ""a	b"" , 42 , 1 , ""packet"" ]:
+    i64_ // @lengthOf(
+, 7
     // packet A { u8 x, }
-    Z9_,asx
-_x
-    `tab	here` , }
+    :	lengthOf
+0
+    //x
+    : len
+    ,
+10// 50% %s
+: len , [0  ] :A, }
+, }
+// `tick` ""quote"" 'q'
 ")).
-Eval vm_compute in ("<<<M2591>>>" ++ check (runes_of_ascii "options{}root packet
-metadata {
-@lengthOf(x ) float32
-body ``, }
-    MetaData
+Eval vm_compute in ("<<<M287>>>" ++ check (runes_of_ascii "
+packet _x { }
+packet msg_type
+    {	@lengthOf( f32a ) u8x Z9_
+, } MetaData /// triple
+chars { string T
+, } //x")).
+Eval vm_compute in ("<<<M319>>>" ++ check (runes_of_ascii "
+root packet repeatCount { repeat
+    crc trueish , u8 matchKey `a\` ,
+repeat char[ 4294967296 ] len,  string x, } packet
+    // c
+    f32a  { uint64 metadata
+,  repeat matchKey {
+// c
+//	t
+char[]
+msg_type @calculatedFrom( ""\n"" ) , string
+chars @calculatedFrom( ""1"" ) `two words`// c
+, } ,
+stringy ,
+repeat _x,string a1`{ , }` ,
+char[] repeatCount @lengthOf( calculatedFrom )	, metadata
+    @calculatedFrom(""abc"")
+`" ++ [28040; 24687; 31867; 22411]%N ++ runes_of_ascii "`, }
+options { matchKey = true }packet// trailing space 
+stringy {	uint64
+msg_type `" ++ [28040; 24687; 31867; 22411]%N ++ runes_of_ascii "`
+,zchar[  4294967296 ]msg_type
+@calculatedFrom( ""abc"")
+, } /// triple")).
+Eval vm_compute in ("<<<M351>>>" ++ check (runes_of_ascii "MetaData Z9_
+    {//
+char[] u128/// triple
+`" ++ [28040; 24687; 31867; 22411]%N ++ runes_of_ascii "`// `tick` ""quote"" 'q'
+,	float64
+BodyLength ,roots MetaDataX `
+`,
+    packetx falsey ,
+// trailing space 
+// packet A { u8 x, }
+i16 body // `tick` ""quote"" 'q'
+,
+    f64 i64_ , } options {u8x =""x y"" ; packetx = 255
+    ; f32a	=""it's""	} packet u128{ T //	t
+@calculatedFrom(  ""a\\"" ) ,}")).
+Eval vm_compute in ("<<<M383>>>" ++ check (runes_of_ascii "root
+packet //x
+pack
+{ match matchKey //	t
+as
+int // @lengthOf(
+{ 00 : metadata
+    ,
+    ""a\\""
+    : o ,
+""// no comment"" :// `tick` ""quote"" 'q'
+x ,
+[
+""packet""] : A
+, [ ""\n"",0123456789 , 00 , ""// no comment"" ,007 ,
+255,
+1 ,// c
+0 ]
+    // a // b
+    : metadata ,[ 00] : Pad ,} , } // @lengthOf(
+MetaData tag
+{uint64 i64_`` ,
+    } packet BodyLength { repeat
+u32
+u128 , }
+")).
+Eval vm_compute in ("<<<M415>>>" ++ check (runes_of_ascii "MetaData lengthOf {len a1 `a\`
+    , As
+    x_y_z
+`" ++ [28040; 24687; 31867; 22411]%N ++ runes_of_ascii "`,
+    metadata x, calculatedFrom string_ `doc`	,} // trailing space ")).
+Eval vm_compute in ("<<<M447>>>" ++ check (runes_of_ascii "packet _x { char[ 4294967296
+] float
+    @calculatedFrom( ""it's"" )
+,// trailing space 
+@calculatedFrom(  ""\" ++ [233]%N ++ runes_of_ascii """//x
+)	match options1 as matchKey
+{ [	""\n""	,
+00,
+255 ,
+007 ,
+    0123456789
+    // " ++ [128512]%N ++ runes_of_ascii " emoji
+    , 4294967296 ]
+: MetaDataX // a // b
+, /// triple
+} // trailing space 
+, repeat
+    matchKey calculatedFrom `" ++ [233]%N ++ runes_of_ascii "` ,
+@calculatedFrom( ""a\""b"" )body `` ,
+}
+MetaData falsey{ A leftPad
+,
+MetaDataX tag , }  packet string_ {@calculatedFrom( ""a\""b""
+    ) @leftPad ('\x00' )  string options1 , @leftPad
+    ( '0'
+) @tag( 10 ) @leftPad( )a1 repeatCount `say ""hi""`
+    , }")).
+Eval vm_compute in ("<<<T447>>>" ++ terms [mkTok 35 "packet" 1 0 false; mkTok 42 "_x" 1 7 false; mkTok 2 "{" 1 10 false; mkTok 12 "char[" 1 12 false; mkTok 30 "4294967296" 1 18 false; mkTok 13 "]" 2 0 false; mkTok 42 "float" 2 2 false; mkTok 5 "@calculatedFrom(" 3 4 false; mkTok 31 """it's""" 3 21 false; mkTok 6 ")" 3 28 false; mkTok 40 "," 4 0 false; mkTok 44 "// trailing space " 4 1 true; mkTok 5 "@calculatedFrom(" 5 0 false; mkTok 31 (string_of_bytes [34; 92; 195; 169; 34]%N) 5 18 false; mkTok 44 "//x" 5 22 true; mkTok 6 ")" 6 0 false; mkTok 38 "match" 6 2 false; mkTok 42 "options1" 6 8 false; mkTok 17 "as" 6 17 false; mkTok 42 "matchKey" 6 20 false; mkTok 2 "{" 7 0 false; mkTok 18 "[" 7 2 false; mkTok 31 """\n""" 7 4 false; mkTok 40 "," 7 9 false; mkTok 30 "00" 8 0 false; mkTok 40 "," 8 2 false; mkTok 30 "255" 9 0 false; mkTok 40 "," 9 4 false; mkTok 30 "007" 10 0 false; mkTok 40 "," 10 4 false; mkTok 30 "0123456789" 11 4 false; mkTok 44 (string_of_bytes [47; 47; 32; 240; 159; 152; 128; 32; 101; 109; 111; 106; 105]%N) 12 4 true; mkTok 40 "," 13 4 false; mkTok 30 "4294967296" 13 6 false; mkTok 13 "]" 13 17 false; mkTok 39 ":" 14 0 false; mkTok 42 "MetaDataX" 14 2 false; mkTok 44 "// a // b" 14 12 true; mkTok 40 "," 15 0 false; mkTok 44 "/// triple" 15 2 true; mkTok 3 "}" 16 0 false; mkTok 44 "// trailing space " 16 2 true; mkTok 40 "," 17 0 false; mkTok 36 "repeat" 17 2 false; mkTok 42 "matchKey" 18 4 false; mkTok 42 "calculatedFrom" 18 13 false; mkTok 43 (string_of_bytes [96; 195; 169; 96]%N) 18 28 false; mkTok 40 "," 18 32 false; mkTok 5 "@calculatedFrom(" 19 0 false; mkTok 31 """a\""b""" 19 17 false; mkTok 6 ")" 19 24 false; mkTok 42 "body" 19 25 false; mkTok 43 "``" 19 30 false; mkTok 40 "," 19 33 false; mkTok 3 "}" 20 0 false; mkTok 37 "MetaData" 21 0 false; mkTok 42 "falsey" 21 9 false; mkTok 2 "{" 21 15 false; mkTok 42 "A" 21 17 false; mkTok 42 "leftPad" 21 19 false; mkTok 40 "," 22 0 false; mkTok 42 "MetaDataX" 23 0 false; mkTok 42 "tag" 23 10 false; mkTok 40 "," 23 14 false; mkTok 3 "}" 23 16 false; mkTok 35 "packet" 23 19 false; mkTok 42 "string_" 23 26 false; mkTok 2 "{" 23 34 false; mkTok 5 "@calculatedFrom(" 23 35 false; mkTok 31 """a\""b""" 23 52 false; mkTok 6 ")" 24 4 false; mkTok 32 "@leftPad" 24 6 false; mkTok 8 "(" 24 15 false; mkTok 33 "'\x00'" 24 16 false; mkTok 6 ")" 24 23 false; mkTok 15 "string" 24 26 false; mkTok 42 "options1" 24 33 false; mkTok 40 "," 24 42 false; mkTok 32 "@leftPad" 24 44 false; mkTok 8 "(" 25 4 false; mkTok 33 "'0'" 25 6 false; mkTok 6 ")" 26 0 false; mkTok 9 "@tag(" 26 2 false; mkTok 30 "10" 26 8 false; mkTok 6 ")" 26 11 false; mkTok 32 "@leftPad" 26 13 false; mkTok 8 "(" 26 21 false; mkTok 6 ")" 26 23 false; mkTok 42 "a1" 26 24 false; mkTok 42 "repeatCount" 26 27 false; mkTok 43 "`say ""hi""`" 26 39 false; mkTok 40 "," 27 4 false; mkTok 3 "}" 27 6 false; mkTok 0 "<EOF>" 27 7 false] (mkPacket (mkPtok 35 "packet" 1 0 0) (Some (mkPtok 3 "}" 27 6 92)) [(DPacket (mkPacketDef (mkSpan (mkPtok 35 "packet" 1 0 0) (mkPtok 3 "}" 20 0 54)) None (mkPtok 35 "packet" 1 0 0) (mkPtok 42 "_x" 1 7 1) (mkPtok 2 "{" 1 10 2) [(mkFieldWithAttr (mkSpan (mkPtok 12 "char[" 1 12 3) (mkPtok 40 "," 4 0 10)) [] (CheckSumField (mkSpan (mkPtok 12 "char[" 1 12 3) (mkPtok 40 "," 4 0 10)) (mkChecksumFieldDecl (mkSpan (mkPtok 12 "char[" 1 12 3) (mkPtok 40 "," 4 0 10)) (Some (TyFixed (mkSpan (mkPtok 12 "char[" 1 12 3) (mkPtok 13 "]" 2 0 5)) (mkFixedString (mkSpan (mkPtok 12 "char[" 1 12 3) (mkPtok 13 "]" 2 0 5)) (mkPtok 12 "char[" 1 12 3) (mkPtok 30 "4294967296" 1 18 4) (mkPtok 13 "]" 2 0 5)))) (mkPtok 42 "float" 2 2 6) (mkCalculatedFrom (mkSpan (mkPtok 5 "@calculatedFrom(" 3 4 7) (mkPtok 6 ")" 3 28 9)) (mkPtok 5 "@calculatedFrom(" 3 4 7) (mkPtok 31 """it's""" 3 21 8) (mkPtok 6 ")" 3 28 9)) None (mkPtok 40 "," 4 0 10)))); (mkFieldWithAttr (mkSpan (mkPtok 5 "@calculatedFrom(" 5 0 12) (mkPtok 40 "," 17 0 42)) [(FACalculatedFrom (mkSpan (mkPtok 5 "@calculatedFrom(" 5 0 12) (mkPtok 6 ")" 6 0 15)) (mkCalculatedFrom (mkSpan (mkPtok 5 "@calculatedFrom(" 5 0 12) (mkPtok 6 ")" 6 0 15)) (mkPtok 5 "@calculatedFrom(" 5 0 12) (mkPtok 31 (string_of_bytes [34; 92; 195; 169; 34]%N) 5 18 13) (mkPtok 6 ")" 6 0 15)))] (MatchField (mkSpan (mkPtok 38 "match" 6 2 16) (mkPtok 40 "," 17 0 42)) (mkMatchFieldDecl (mkSpan (mkPtok 38 "match" 6 2 16) (mkPtok 3 "}" 16 0 40)) (mkPtok 38 "match" 6 2 16) (mkPtok 42 "options1" 6 8 17) (mkPtok 17 "as" 6 17 18) (mkPtok 42 "matchKey" 6 20 19) (mkPtok 2 "{" 7 0 20) [(mkMatchPair (mkSpan (mkPtok 18 "[" 7 2 21) (mkPtok 40 "," 15 0 38)) (MKList (mkKeyList (mkSpan (mkPtok 18 "[" 7 2 21) (mkPtok 13 "]" 13 17 34)) (mkPtok 18 "[" 7 2 21) (mkPtok 31 """\n""" 7 4 22) [((mkPtok 40 "," 7 9 23), (mkPtok 30 "00" 8 0 24)); ((mkPtok 40 "," 8 2 25), (mkPtok 30 "255" 9 0 26)); ((mkPtok 40 "," 9 4 27), (mkPtok 30 "007" 10 0 28)); ((mkPtok 40 "," 10 4 29), (mkPtok 30 "0123456789" 11 4 30)); ((mkPtok 40 "," 13 4 32), (mkPtok 30 "4294967296" 13 6 33))] (mkPtok 13 "]" 13 17 34))) (mkPtok 39 ":" 14 0 35) (mkPtok 42 "MetaDataX" 14 2 36) (Some (mkPtok 40 "," 15 0 38)))] (mkPtok 3 "}" 16 0 40)) (mkPtok 40 "," 17 0 42))); (mkFieldWithAttr (mkSpan (mkPtok 36 "repeat" 17 2 43) (mkPtok 40 "," 18 32 47)) [] (ObjectField (mkSpan (mkPtok 36 "repeat" 17 2 43) (mkPtok 40 "," 18 32 47)) (Some (mkPtok 36 "repeat" 17 2 43)) (mkPtok 42 "matchKey" 18 4 44) (Some (mkPtok 42 "calculatedFrom" 18 13 45)) (Some (mkPtok 43 (string_of_bytes [96; 195; 169; 96]%N) 18 28 46)) (mkPtok 40 "," 18 32 47))); (mkFieldWithAttr (mkSpan (mkPtok 5 "@calculatedFrom(" 19 0 48) (mkPtok 40 "," 19 33 53)) [(FACalculatedFrom (mkSpan (mkPtok 5 "@calculatedFrom(" 19 0 48) (mkPtok 6 ")" 19 24 50)) (mkCalculatedFrom (mkSpan (mkPtok 5 "@calculatedFrom(" 19 0 48) (mkPtok 6 ")" 19 24 50)) (mkPtok 5 "@calculatedFrom(" 19 0 48) (mkPtok 31 """a\""b""" 19 17 49) (mkPtok 6 ")" 19 24 50)))] (ObjectField (mkSpan (mkPtok 42 "body" 19 25 51) (mkPtok 40 "," 19 33 53)) None (mkPtok 42 "body" 19 25 51) None (Some (mkPtok 43 "``" 19 30 52)) (mkPtok 40 "," 19 33 53)))] (mkPtok 3 "}" 20 0 54))); (DMeta (mkMetaDef (mkSpan (mkPtok 37 "MetaData" 21 0 55) (mkPtok 3 "}" 23 16 64)) (mkPtok 37 "MetaData" 21 0 55) (mkPtok 42 "falsey" 21 9 56) (mkPtok 2 "{" 21 15 57) [(MIRef (mkRefMetaDecl (mkSpan (mkPtok 42 "A" 21 17 58) (mkPtok 40 "," 22 0 60)) (mkPtok 42 "A" 21 17 58) (mkPtok 42 "leftPad" 21 19 59) None (mkPtok 40 "," 22 0 60))); (MIRef (mkRefMetaDecl (mkSpan (mkPtok 42 "MetaDataX" 23 0 61) (mkPtok 40 "," 23 14 63)) (mkPtok 42 "MetaDataX" 23 0 61) (mkPtok 42 "tag" 23 10 62) None (mkPtok 40 "," 23 14 63)))] (mkPtok 3 "}" 23 16 64))); (DPacket (mkPacketDef (mkSpan (mkPtok 35 "packet" 23 19 65) (mkPtok 3 "}" 27 6 92)) None (mkPtok 35 "packet" 23 19 65) (mkPtok 42 "string_" 23 26 66) (mkPtok 2 "{" 23 34 67) [(mkFieldWithAttr (mkSpan (mkPtok 5 "@calculatedFrom(" 23 35 68) (mkPtok 40 "," 24 42 77)) [(FACalculatedFrom (mkSpan (mkPtok 5 "@calculatedFrom(" 23 35 68) (mkPtok 6 ")" 24 4 70)) (mkCalculatedFrom (mkSpan (mkPtok 5 "@calculatedFrom(" 23 35 68) (mkPtok 6 ")" 24 4 70)) (mkPtok 5 "@calculatedFrom(" 23 35 68) (mkPtok 31 """a\""b""" 23 52 69) (mkPtok 6 ")" 24 4 70))); (FAPadding (mkSpan (mkPtok 32 "@leftPad" 24 6 71) (mkPtok 6 ")" 24 23 74)) (mkPaddingAttr (mkSpan (mkPtok 32 "@leftPad" 24 6 71) (mkPtok 6 ")" 24 23 74)) (mkPtok 32 "@leftPad" 24 6 71) (mkPtok 8 "(" 24 15 72) (Some (mkPtok 33 "'\x00'" 24 16 73)) (mkPtok 6 ")" 24 23 74)))] (MetaField (mkSpan (mkPtok 15 "string" 24 26 75) (mkPtok 40 "," 24 42 77)) None (mkMetaDecl (mkSpan (mkPtok 15 "string" 24 26 75) (mkPtok 40 "," 24 42 77)) (TyDynamic (mkSpan (mkPtok 15 "string" 24 26 75) (mkPtok 15 "string" 24 26 75)) (mkDynamicString (mkSpan (mkPtok 15 "string" 24 26 75) (mkPtok 15 "string" 24 26 75)) (mkPtok 15 "string" 24 26 75))) (mkPtok 42 "options1" 24 33 76) None (mkPtok 40 "," 24 42 77)))); (mkFieldWithAttr (mkSpan (mkPtok 32 "@leftPad" 24 44 78) (mkPtok 40 "," 27 4 91)) [(FAPadding (mkSpan (mkPtok 32 "@leftPad" 24 44 78) (mkPtok 6 ")" 26 0 81)) (mkPaddingAttr (mkSpan (mkPtok 32 "@leftPad" 24 44 78) (mkPtok 6 ")" 26 0 81)) (mkPtok 32 "@leftPad" 24 44 78) (mkPtok 8 "(" 25 4 79) (Some (mkPtok 33 "'0'" 25 6 80)) (mkPtok 6 ")" 26 0 81))); (FATag (mkSpan (mkPtok 9 "@tag(" 26 2 82) (mkPtok 6 ")" 26 11 84)) (mkTagAttr (mkSpan (mkPtok 9 "@tag(" 26 2 82) (mkPtok 6 ")" 26 11 84)) (mkPtok 9 "@tag(" 26 2 82) (mkPtok 30 "10" 26 8 83) (mkPtok 6 ")" 26 11 84))); (FAPadding (mkSpan (mkPtok 32 "@leftPad" 26 13 85) (mkPtok 6 ")" 26 23 87)) (mkPaddingAttr (mkSpan (mkPtok 32 "@leftPad" 26 13 85) (mkPtok 6 ")" 26 23 87)) (mkPtok 32 "@leftPad" 26 13 85) (mkPtok 8 "(" 26 21 86) None (mkPtok 6 ")" 26 23 87)))] (ObjectField (mkSpan (mkPtok 42 "a1" 26 24 88) (mkPtok 40 "," 27 4 91)) None (mkPtok 42 "a1" 26 24 88) (Some (mkPtok 42 "repeatCount" 26 27 89)) (Some (mkPtok 43 "`say ""hi""`" 26 39 90)) (mkPtok 40 "," 27 4 91)))] (mkPtok 3 "}" 27 6 92)))])).
+Eval vm_compute in ("<<<M479>>>" ++ check (runes_of_ascii "root packet float {@calculatedFrom( """ ++ [128512]%N ++ runes_of_ascii """ )float32  T , match T as
+    // " ++ [27880; 37322]%N ++ runes_of_ascii "
+    msg_type { 65535 :
+body ""\" ++ [233]%N ++ runes_of_ascii """: body
+    1
+: u128 7:x, [ ""// no comment""]	: BodyLength
+} , zchar[7 ]
+As
+@lengthOf( body ) `" ++ [28040; 24687; 31867; 22411]%N ++ runes_of_ascii "` // 50% %s
+,match
+u128 as // c
+body  { 255 : stringy
+,//	t
+} , match rootA as// a // b
+_x {
+    // " ++ [128512]%N ++ runes_of_ascii " emoji
+    ""{,}"" : crc, 42 // trailing space 
+:
+    // trailing space 
+    T	,	} , body
+    A
+    `two words`,string matchKey  `{ , }`  , options1 Foo,repeat
+    f32 o , string
+rootA`" ++ [28040; 24687; 31867; 22411]%N ++ runes_of_ascii "`
+,
+    } options //x
+{ u8x =
+    string; //
+Pad = true ; asx= ""a\""b""} root packet zchar { repeat//	t
+options1{ char[ 42 ]trueish
+@calculatedFrom( ""a\""b""
 )
+    ,	char[00
+    ]  A@calculatedFrom( ""it's""
+// a // b
+// " ++ [128512]%N ++ runes_of_ascii " emoji
+)
+    , match
+    falsey as
+calculatedFrom
+    // @lengthOf(
     {
-    string string_ , Logon x
-,
-uint32
-    // packet A { u8 x, }
-    Z9_,asx
-_x
-    `tab	here` , }
+    ""{,}""  :
+    As[ ""// no comment"" ] : Pad , [
+00 , ""1""
+    // c
+    ,
+""packet"" , 00 , ""abc"" ]:chars	}, repeat  msg_type `
+`
+    ,
+    // 50% %s
+    } // packet A { u8 x, }
+,@calculatedFrom( ""CRC32""	) repeat u64	u8x `line1
+line2` ,
+    @tag( 42 ) char[ 7 ] _x  `" ++ [233]%N ++ runes_of_ascii "`
+, }options{
+Foo
+//	t
+// packet A { u8 x, }
+= false ;
+} MetaData A
+    {	zchar _x // 50% %s
+, // `tick` ""quote"" 'q'
+}
 ")).
-Eval vm_compute in ("<<<M2623>>>" ++ check (runes_of_ascii "options{}root packet
-metadata {
-@lengthOf(x ) float32
-body ``, }
-    MetaData
-Z9_
+Eval vm_compute in ("<<<M511>>>" ++ check (runes_of_ascii "packet chars { // " ++ [27880; 37322]%N ++ runes_of_ascii "
+@tag( 1 )crc,repeat
+    T
+{ lengthOf
+@lengthOf(	chars)
+`{ , }` , repeat zchar[0123456789 ]
+int , } , repeat // " ++ [27880; 37322]%N ++ runes_of_ascii "
+zchar[ 42] x
+`two words` ,	zchar[ 65535 ]
+asx
+    // @lengthOf(
+    , calculatedFrom , _x
+leftPad
+    // trailing space 
+    ,//x
+Pad
+    { int16 x `tab	here` ,
+    } , i64 charz @calculatedFrom(""abc""  ) , }options {a1
+= 42 Packet
+    =true ; // packet A { u8 x, }
+Foo
+= '0'
+    As = true
+; /// triple
+Foo	= zchar[ 3
+    ]
+; }
+packet
+    a1{@calculatedFrom(
+""abc"" //x
+)metadata , @rightPad ( '0' ) Z9_
+    ,
+@lengthOf(packetx ) o @lengthOf( Header  ) `it's`
+    , char[]
+int
+    @lengthOf( msg_type )
+    ,
+}")).
+Eval vm_compute in ("<<<M543>>>" ++ check (runes_of_ascii "MetaData u	{ float32	u8x `{ , }`, char[ 007]
+//x
+// 50% %s
+matchKey `tab	here`
+, char[
+7 ] float ,
+    }
+")).
+Eval vm_compute in ("<<<M575>>>" ++ check (@nil rune)).
+Eval vm_compute in ("<<<M607>>>" ++ check (runes_of_ascii "packet  u8x { @rightPad ( )match
+a1 as
+int
+{007 :matchKey ,""a	b"" :pack 3 :
+Z9_""x y""
+    : asx , } ,} packet
+// 50% %s
+//x
+metadata {string crc
+    // @lengthOf(
+    ,}")).
+Eval vm_compute in ("<<<M639>>>" ++ check (runes_of_ascii "packet
+x_y_z  { @calculatedFrom(
+// packet A { u8 x, }
+// @lengthOf(
+""" ++ [128512]%N ++ runes_of_ascii """ )
+    //
+    match a1 as MetaDataX {
+""" ++ [128512]%N ++ runes_of_ascii """: u8x , [ """ ++ [28040; 24687]%N ++ runes_of_ascii """ ]:
+    asx  255  : falsey,
+    [ 007 ]: stringy	10
+    : chars , } , string_  { char[ 4294967296 ] //x
+packetx
+    // packet A { u8 x, }
+    , } ,
+    } root packet u128
+    { calculatedFrom /// triple
+MetaDataX
+    `it's`//
+, repeat leftPad
+// c
+// a // b
+x_y_z
+//x
+// " ++ [27880; 37322]%N ++ runes_of_ascii "
+, }packet BodyLength {char
+    // c
+    Pad
+    @lengthOf(
+// c
+// `tick` ""quote"" 'q'
+uint8x  )`line1
+line2` , uint16
+charz ,
+// " ++ [128512]%N ++ runes_of_ascii " emoji
+// c
+@leftPad // @lengthOf(
+( '\x00'  )	repeat A { repeat float32 Z9_
+    , u16 A @calculatedFrom( ""1"" )``  , Pad{ Packet {repeat uint8 trueish, stringy @lengthOf( u ) `doc`
+    , // c
+charz Foo`
+`,
+uint16 falsey `100% of %d` ,} ,}, f32
+roots ,
+},
+    // c
+    }
+")).
+Eval vm_compute in ("<<<M671>>>" ++ check (runes_of_ascii "root
+    // " ++ [27880; 37322]%N ++ runes_of_ascii "
+    packet string_
+    { repeat uint16
+    Logon
+`
+` , @calculatedFrom(""" ++ [233]%N ++ runes_of_ascii "t" ++ [233]%N ++ runes_of_ascii """ ) char[255 ]Logon , u64 pack
+@calculatedFrom( ""a\\"") ,@rightPad// 50% %s
+( // `tick` ""quote"" 'q'
+'0' )T
+{ zchar[
+    3
+    ]
+u8x@calculatedFrom( ""CRC32"" )
+    `crlf
+line`
+    ,o
+    { _x
+{	float32
+    calculatedFrom/// triple
+, } ,  repeat int64 u128 ,	float32  string_
+    @lengthOf(	msg_type )
+`" ++ [233]%N ++ runes_of_ascii "`,	}
+, }
+, i16 charz `line1
+line2`
+,  repeat int64 a1  ,@lengthOf( // 50% %s
+lengthOf)
+    // " ++ [27880; 37322]%N ++ runes_of_ascii "
+    @tag(
+00 ) Header body	`" ++ [28040; 24687; 31867; 22411]%N ++ runes_of_ascii "`,@tag( // a // b
+65535 )  match pack as
+_x{ ""abc""  : charz
+    , 255 // c
+: T
+,
+[	""1"" ,007 ]
+    :
+rootA ,00	:
+    i64_ } , char[] a1
+`" ++ [233]%N ++ runes_of_ascii "`, matchKey { zchar[ 3
+]  Pad //
+`// not a comment`  ,
+    }, }
+options{packetx =' 'A =
+0123456789;
+string_
+    = '\x00'
+    ; float=""a\""b""  ; tag =
+65535
+    } root packet matchKey	{  @calculatedFrom( ""\n"" /// triple
+) zchar crc
+`100% of %d`
+, repeat	x{char[] options1`two words` ,repeat
+    // packet A { u8 x, }
+    metadata {  options1 @calculatedFrom( ""CRC32"" ) , }, uint64 matchKey `" ++ [28040; 24687; 31867; 22411]%N ++ runes_of_ascii "` , leftPad,} , repeat i64  _x
+`{ , }` ,@tag( 1 ) char[ 255] len  ,
+}  root
+packet charz	{ float64 body@lengthOf( falsey ) , zchar
+    repeatCount , } root packet asx  {
+//x
+// 50% %s
+}")).
+Eval vm_compute in ("<<<T671>>>" ++ terms [mkTok 34 "root" 1 0 false; mkTok 44 (string_of_bytes [47; 47; 32; 230; 179; 168; 233; 135; 138]%N) 2 4 true; mkTok 35 "packet" 3 4 false; mkTok 42 "string_" 3 11 false; mkTok 2 "{" 4 4 false; mkTok 36 "repeat" 4 6 false; mkTok 21 "uint16" 4 13 false; mkTok 42 "Logon" 5 4 false; mkTok 43 (string_of_bytes [96; 10; 96]%N) 6 0 false; mkTok 40 "," 7 2 false; mkTok 5 "@calculatedFrom(" 7 4 false; mkTok 31 (string_of_bytes [34; 195; 169; 116; 195; 169; 34]%N) 7 20 false; mkTok 6 ")" 7 26 false; mkTok 12 "char[" 7 28 false; mkTok 30 "255" 7 33 false; mkTok 13 "]" 7 37 false; mkTok 42 "Logon" 7 38 false; mkTok 40 "," 7 44 false; mkTok 23 "u64" 7 46 false; mkTok 42 "pack" 7 50 false; mkTok 5 "@calculatedFrom(" 8 0 false; mkTok 31 """a\\""" 8 17 false; mkTok 6 ")" 8 22 false; mkTok 40 "," 8 24 false; mkTok 32 "@rightPad" 8 25 false; mkTok 44 "// 50% %s" 8 34 true; mkTok 8 "(" 9 0 false; mkTok 44 "// `tick` ""quote"" 'q'" 9 2 true; mkTok 33 "'0'" 10 0 false; mkTok 6 ")" 10 4 false; mkTok 42 "T" 10 5 false; mkTok 2 "{" 11 0 false; mkTok 14 "zchar[" 11 2 false; mkTok 30 "3" 12 4 false; mkTok 13 "]" 13 4 false; mkTok 42 "u8x" 14 0 false; mkTok 5 "@calculatedFrom(" 14 3 false; mkTok 31 """CRC32""" 14 20 false; mkTok 6 ")" 14 28 false; mkTok 43 (string_of_bytes [96; 99; 114; 108; 102; 13; 10; 108; 105; 110; 101; 96]%N) 15 4 false; mkTok 40 "," 17 4 false; mkTok 42 "o" 17 5 false; mkTok 2 "{" 18 4 false; mkTok 42 "_x" 18 6 false; mkTok 2 "{" 19 0 false; mkTok 28 "float32" 19 2 false; mkTok 42 "calculatedFrom" 20 4 false; mkTok 44 "/// triple" 20 18 true; mkTok 40 "," 21 0 false; mkTok 3 "}" 21 2 false; mkTok 40 "," 21 4 false; mkTok 36 "repeat" 21 7 false; mkTok 27 "int64" 21 14 false; mkTok 42 "u128" 21 20 false; mkTok 40 "," 21 25 false; mkTok 28 "float32" 21 27 false; mkTok 42 "string_" 21 36 false; mkTok 7 "@lengthOf(" 22 4 false; mkTok 42 "msg_type" 22 15 false; mkTok 6 ")" 22 24 false; mkTok 43 (string_of_bytes [96; 195; 169; 96]%N) 23 0 false; mkTok 40 "," 23 3 false; mkTok 3 "}" 23 5 false; mkTok 40 "," 24 0 false; mkTok 3 "}" 24 2 false; mkTok 40 "," 25 0 false; mkTok 25 "i16" 25 2 false; mkTok 42 "charz" 25 6 false; mkTok 43 (string_of_bytes [96; 108; 105; 110; 101; 49; 10; 108; 105; 110; 101; 50; 96]%N) 25 12 false; mkTok 40 "," 27 0 false; mkTok 36 "repeat" 27 3 false; mkTok 27 "int64" 27 10 false; mkTok 42 "a1" 27 16 false; mkTok 40 "," 27 20 false; mkTok 7 "@lengthOf(" 27 21 false; mkTok 44 "// 50% %s" 27 32 true; mkTok 42 "lengthOf" 28 0 false; mkTok 6 ")" 28 8 false; mkTok 44 (string_of_bytes [47; 47; 32; 230; 179; 168; 233; 135; 138]%N) 29 4 true; mkTok 9 "@tag(" 30 4 false; mkTok 30 "00" 31 0 false; mkTok 6 ")" 31 3 false; mkTok 42 "Header" 31 5 false; mkTok 42 "body" 31 12 false; mkTok 43 (string_of_bytes [96; 230; 182; 136; 230; 129; 175; 231; 177; 187; 229; 158; 139; 96]%N) 31 17 false; mkTok 40 "," 31 23 false; mkTok 9 "@tag(" 31 24 false; mkTok 44 "// a // b" 31 30 true; mkTok 30 "65535" 32 0 false; mkTok 6 ")" 32 6 false; mkTok 38 "match" 32 9 false; mkTok 42 "pack" 32 15 false; mkTok 17 "as" 32 20 false; mkTok 42 "_x" 33 0 false; mkTok 2 "{" 33 2 false; mkTok 31 """abc""" 33 4 false; mkTok 39 ":" 33 11 false; mkTok 42 "charz" 33 13 false; mkTok 40 "," 34 4 false; mkTok 30 "255" 34 6 false; mkTok 44 "// c" 34 10 true; mkTok 39 ":" 35 0 false; mkTok 42 "T" 35 2 false; mkTok 40 "," 36 0 false; mkTok 18 "[" 37 0 false; mkTok 31 """1""" 37 2 false; mkTok 40 "," 37 6 false; mkTok 30 "007" 37 7 false; mkTok 13 "]" 37 11 false; mkTok 39 ":" 38 4 false; mkTok 42 "rootA" 39 0 false; mkTok 40 "," 39 6 false; mkTok 30 "00" 39 7 false; mkTok 39 ":" 39 10 false; mkTok 42 "i64_" 40 4 false; mkTok 3 "}" 40 9 false; mkTok 40 "," 40 11 false; mkTok 16 "char[]" 40 13 false; mkTok 42 "a1" 40 20 false; mkTok 43 (string_of_bytes [96; 195; 169; 96]%N) 41 0 false; mkTok 40 "," 41 3 false; mkTok 42 "matchKey" 41 5 false; mkTok 2 "{" 41 14 false; mkTok 14 "zchar[" 41 16 false; mkTok 30 "3" 41 23 false; mkTok 13 "]" 42 0 false; mkTok 42 "Pad" 42 3 false; mkTok 44 "//" 42 7 true; mkTok 43 "`// not a comment`" 43 0 false; mkTok 40 "," 43 20 false; mkTok 3 "}" 44 4 false; mkTok 40 "," 44 5 false; mkTok 3 "}" 44 7 false; mkTok 1 "options" 45 0 false; mkTok 2 "{" 45 7 false; mkTok 42 "packetx" 45 8 false; mkTok 4 "=" 45 16 false; mkTok 33 "' '" 45 17 false; mkTok 42 "A" 45 20 false; mkTok 4 "=" 45 22 false; mkTok 30 "0123456789" 46 0 false; mkTok 41 ";" 46 10 false; mkTok 42 "string_" 47 0 false; mkTok 4 "=" 48 4 false; mkTok 33 "'\x00'" 48 6 false; mkTok 41 ";" 49 4 false; mkTok 42 "float" 49 6 false; mkTok 4 "=" 49 11 false; mkTok 31 """a\""b""" 49 12 false; mkTok 41 ";" 49 20 false; mkTok 42 "tag" 49 22 false; mkTok 4 "=" 49 26 false; mkTok 30 "65535" 50 0 false; mkTok 3 "}" 51 4 false; mkTok 34 "root" 51 6 false; mkTok 35 "packet" 51 11 false; mkTok 42 "matchKey" 51 18 false; mkTok 2 "{" 51 27 false; mkTok 5 "@calculatedFrom(" 51 30 false; mkTok 31 """\n""" 51 47 false; mkTok 44 "/// triple" 51 52 true; mkTok 6 ")" 52 0 false; mkTok 42 "zchar" 52 2 false; mkTok 42 "crc" 52 8 false; mkTok 43 "`100% of %d`" 53 0 false; mkTok 40 "," 54 0 false; mkTok 36 "repeat" 54 2 false; mkTok 42 "x" 54 9 false; mkTok 2 "{" 54 10 false; mkTok 16 "char[]" 54 11 false; mkTok 42 "options1" 54 18 false; mkTok 43 "`two words`" 54 26 false; mkTok 40 "," 54 38 false; mkTok 36 "repeat" 54 39 false; mkTok 44 "// packet A { u8 x, }" 55 4 true; mkTok 42 "metadata" 56 4 false; mkTok 2 "{" 56 13 false; mkTok 42 "options1" 56 16 false; mkTok 5 "@calculatedFrom(" 56 25 false; mkTok 31 """CRC32""" 56 42 false; mkTok 6 ")" 56 50 false; mkTok 40 "," 56 52 false; mkTok 3 "}" 56 54 false; mkTok 40 "," 56 55 false; mkTok 23 "uint64" 56 57 false; mkTok 42 "matchKey" 56 64 false; mkTok 43 (string_of_bytes [96; 230; 182; 136; 230; 129; 175; 231; 177; 187; 229; 158; 139; 96]%N) 56 73 false; mkTok 40 "," 56 80 false; mkTok 42 "leftPad" 56 82 false; mkTok 40 "," 56 89 false; mkTok 3 "}" 56 90 false; mkTok 40 "," 56 92 false; mkTok 36 "repeat" 56 94 false; mkTok 27 "i64" 56 101 false; mkTok 42 "_x" 56 106 false; mkTok 43 "`{ , }`" 57 0 false; mkTok 40 "," 57 8 false; mkTok 9 "@tag(" 57 9 false; mkTok 30 "1" 57 15 false; mkTok 6 ")" 57 17 false; mkTok 12 "char[" 57 19 false; mkTok 30 "255" 57 25 false; mkTok 13 "]" 57 28 false; mkTok 42 "len" 57 30 false; mkTok 40 "," 57 35 false; mkTok 3 "}" 58 0 false; mkTok 34 "root" 58 3 false; mkTok 35 "packet" 59 0 false; mkTok 42 "charz" 59 7 false; mkTok 2 "{" 59 13 false; mkTok 29 "float64" 59 15 false; mkTok 42 "body" 59 23 false; mkTok 7 "@lengthOf(" 59 27 false; mkTok 42 "falsey" 59 38 false; mkTok 6 ")" 59 45 false; mkTok 40 "," 59 47 false; mkTok 42 "zchar" 59 49 false; mkTok 42 "repeatCount" 60 4 false; mkTok 40 "," 60 16 false; mkTok 3 "}" 60 18 false; mkTok 34 "root" 60 20 false; mkTok 35 "packet" 60 25 false; mkTok 42 "asx" 60 32 false; mkTok 2 "{" 60 37 false; mkTok 44 "//x" 61 0 true; mkTok 44 "// 50% %s" 62 0 true; mkTok 3 "}" 63 0 false; mkTok 0 "<EOF>" 63 1 false] (mkPacket (mkPtok 34 "root" 1 0 0) (Some (mkPtok 3 "}" 63 0 226)) [(DPacket (mkPacketDef (mkSpan (mkPtok 34 "root" 1 0 0) (mkPtok 3 "}" 44 7 132)) (Some (mkPtok 34 "root" 1 0 0)) (mkPtok 35 "packet" 3 4 2) (mkPtok 42 "string_" 3 11 3) (mkPtok 2 "{" 4 4 4) [(mkFieldWithAttr (mkSpan (mkPtok 36 "repeat" 4 6 5) (mkPtok 40 "," 7 2 9)) [] (MetaField (mkSpan (mkPtok 36 "repeat" 4 6 5) (mkPtok 40 "," 7 2 9)) (Some (mkPtok 36 "repeat" 4 6 5)) (mkMetaDecl (mkSpan (mkPtok 21 "uint16" 4 13 6) (mkPtok 40 "," 7 2 9)) (TyBasic (mkSpan (mkPtok 21 "uint16" 4 13 6) (mkPtok 21 "uint16" 4 13 6)) (mkBasicType (mkSpan (mkPtok 21 "uint16" 4 13 6) (mkPtok 21 "uint16" 4 13 6)) (mkPtok 21 "uint16" 4 13 6))) (mkPtok 42 "Logon" 5 4 7) (Some (mkPtok 43 (string_of_bytes [96; 10; 96]%N) 6 0 8)) (mkPtok 40 "," 7 2 9)))); (mkFieldWithAttr (mkSpan (mkPtok 5 "@calculatedFrom(" 7 4 10) (mkPtok 40 "," 7 44 17)) [(FACalculatedFrom (mkSpan (mkPtok 5 "@calculatedFrom(" 7 4 10) (mkPtok 6 ")" 7 26 12)) (mkCalculatedFrom (mkSpan (mkPtok 5 "@calculatedFrom(" 7 4 10) (mkPtok 6 ")" 7 26 12)) (mkPtok 5 "@calculatedFrom(" 7 4 10) (mkPtok 31 (string_of_bytes [34; 195; 169; 116; 195; 169; 34]%N) 7 20 11) (mkPtok 6 ")" 7 26 12)))] (MetaField (mkSpan (mkPtok 12 "char[" 7 28 13) (mkPtok 40 "," 7 44 17)) None (mkMetaDecl (mkSpan (mkPtok 12 "char[" 7 28 13) (mkPtok 40 "," 7 44 17)) (TyFixed (mkSpan (mkPtok 12 "char[" 7 28 13) (mkPtok 13 "]" 7 37 15)) (mkFixedString (mkSpan (mkPtok 12 "char[" 7 28 13) (mkPtok 13 "]" 7 37 15)) (mkPtok 12 "char[" 7 28 13) (mkPtok 30 "255" 7 33 14) (mkPtok 13 "]" 7 37 15))) (mkPtok 42 "Logon" 7 38 16) None (mkPtok 40 "," 7 44 17)))); (mkFieldWithAttr (mkSpan (mkPtok 23 "u64" 7 46 18) (mkPtok 40 "," 8 24 23)) [] (CheckSumField (mkSpan (mkPtok 23 "u64" 7 46 18) (mkPtok 40 "," 8 24 23)) (mkChecksumFieldDecl (mkSpan (mkPtok 23 "u64" 7 46 18) (mkPtok 40 "," 8 24 23)) (Some (TyBasic (mkSpan (mkPtok 23 "u64" 7 46 18) (mkPtok 23 "u64" 7 46 18)) (mkBasicType (mkSpan (mkPtok 23 "u64" 7 46 18) (mkPtok 23 "u64" 7 46 18)) (mkPtok 23 "u64" 7 46 18)))) (mkPtok 42 "pack" 7 50 19) (mkCalculatedFrom (mkSpan (mkPtok 5 "@calculatedFrom(" 8 0 20) (mkPtok 6 ")" 8 22 22)) (mkPtok 5 "@calculatedFrom(" 8 0 20) (mkPtok 31 """a\\""" 8 17 21) (mkPtok 6 ")" 8 22 22)) None (mkPtok 40 "," 8 24 23)))); (mkFieldWithAttr (mkSpan (mkPtok 32 "@rightPad" 8 25 24) (mkPtok 40 "," 25 0 65)) [(FAPadding (mkSpan (mkPtok 32 "@rightPad" 8 25 24) (mkPtok 6 ")" 10 4 29)) (mkPaddingAttr (mkSpan (mkPtok 32 "@rightPad" 8 25 24) (mkPtok 6 ")" 10 4 29)) (mkPtok 32 "@rightPad" 8 25 24) (mkPtok 8 "(" 9 0 26) (Some (mkPtok 33 "'0'" 10 0 28)) (mkPtok 6 ")" 10 4 29)))] (InerObjectField (mkSpan (mkPtok 42 "T" 10 5 30) (mkPtok 40 "," 25 0 65)) None (InerObjectDecl (mkSpan (mkPtok 42 "T" 10 5 30) (mkPtok 3 "}" 24 2 64)) (mkPtok 42 "T" 10 5 30) (mkPtok 2 "{" 11 0 31) [(CheckSumField (mkSpan (mkPtok 14 "zchar[" 11 2 32) (mkPtok 40 "," 17 4 40)) (mkChecksumFieldDecl (mkSpan (mkPtok 14 "zchar[" 11 2 32) (mkPtok 40 "," 17 4 40)) (Some (TyFixed (mkSpan (mkPtok 14 "zchar[" 11 2 32) (mkPtok 13 "]" 13 4 34)) (mkFixedString (mkSpan (mkPtok 14 "zchar[" 11 2 32) (mkPtok 13 "]" 13 4 34)) (mkPtok 14 "zchar[" 11 2 32) (mkPtok 30 "3" 12 4 33) (mkPtok 13 "]" 13 4 34)))) (mkPtok 42 "u8x" 14 0 35) (mkCalculatedFrom (mkSpan (mkPtok 5 "@calculatedFrom(" 14 3 36) (mkPtok 6 ")" 14 28 38)) (mkPtok 5 "@calculatedFrom(" 14 3 36) (mkPtok 31 """CRC32""" 14 20 37) (mkPtok 6 ")" 14 28 38)) (Some (mkPtok 43 (string_of_bytes [96; 99; 114; 108; 102; 13; 10; 108; 105; 110; 101; 96]%N) 15 4 39)) (mkPtok 40 "," 17 4 40))); (InerObjectField (mkSpan (mkPtok 42 "o" 17 5 41) (mkPtok 40 "," 24 0 63)) None (InerObjectDecl (mkSpan (mkPtok 42 "o" 17 5 41) (mkPtok 3 "}" 23 5 62)) (mkPtok 42 "o" 17 5 41) (mkPtok 2 "{" 18 4 42) [(InerObjectField (mkSpan (mkPtok 42 "_x" 18 6 43) (mkPtok 40 "," 21 4 50)) None (InerObjectDecl (mkSpan (mkPtok 42 "_x" 18 6 43) (mkPtok 3 "}" 21 2 49)) (mkPtok 42 "_x" 18 6 43) (mkPtok 2 "{" 19 0 44) [(MetaField (mkSpan (mkPtok 28 "float32" 19 2 45) (mkPtok 40 "," 21 0 48)) None (mkMetaDecl (mkSpan (mkPtok 28 "float32" 19 2 45) (mkPtok 40 "," 21 0 48)) (TyBasic (mkSpan (mkPtok 28 "float32" 19 2 45) (mkPtok 28 "float32" 19 2 45)) (mkBasicType (mkSpan (mkPtok 28 "float32" 19 2 45) (mkPtok 28 "float32" 19 2 45)) (mkPtok 28 "float32" 19 2 45))) (mkPtok 42 "calculatedFrom" 20 4 46) None (mkPtok 40 "," 21 0 48)))] (mkPtok 3 "}" 21 2 49)) (mkPtok 40 "," 21 4 50)); (MetaField (mkSpan (mkPtok 36 "repeat" 21 7 51) (mkPtok 40 "," 21 25 54)) (Some (mkPtok 36 "repeat" 21 7 51)) (mkMetaDecl (mkSpan (mkPtok 27 "int64" 21 14 52) (mkPtok 40 "," 21 25 54)) (TyBasic (mkSpan (mkPtok 27 "int64" 21 14 52) (mkPtok 27 "int64" 21 14 52)) (mkBasicType (mkSpan (mkPtok 27 "int64" 21 14 52) (mkPtok 27 "int64" 21 14 52)) (mkPtok 27 "int64" 21 14 52))) (mkPtok 42 "u128" 21 20 53) None (mkPtok 40 "," 21 25 54))); (LengthField (mkSpan (mkPtok 28 "float32" 21 27 55) (mkPtok 40 "," 23 3 61)) (mkLengthFieldDecl (mkSpan (mkPtok 28 "float32" 21 27 55) (mkPtok 40 "," 23 3 61)) (Some (TyBasic (mkSpan (mkPtok 28 "float32" 21 27 55) (mkPtok 28 "float32" 21 27 55)) (mkBasicType (mkSpan (mkPtok 28 "float32" 21 27 55) (mkPtok 28 "float32" 21 27 55)) (mkPtok 28 "float32" 21 27 55)))) (mkPtok 42 "string_" 21 36 56) (mkLengthOf (mkSpan (mkPtok 7 "@lengthOf(" 22 4 57) (mkPtok 6 ")" 22 24 59)) (mkPtok 7 "@lengthOf(" 22 4 57) (mkPtok 42 "msg_type" 22 15 58) (mkPtok 6 ")" 22 24 59)) (Some (mkPtok 43 (string_of_bytes [96; 195; 169; 96]%N) 23 0 60)) (mkPtok 40 "," 23 3 61)))] (mkPtok 3 "}" 23 5 62)) (mkPtok 40 "," 24 0 63))] (mkPtok 3 "}" 24 2 64)) (mkPtok 40 "," 25 0 65))); (mkFieldWithAttr (mkSpan (mkPtok 25 "i16" 25 2 66) (mkPtok 40 "," 27 0 69)) [] (MetaField (mkSpan (mkPtok 25 "i16" 25 2 66) (mkPtok 40 "," 27 0 69)) None (mkMetaDecl (mkSpan (mkPtok 25 "i16" 25 2 66) (mkPtok 40 "," 27 0 69)) (TyBasic (mkSpan (mkPtok 25 "i16" 25 2 66) (mkPtok 25 "i16" 25 2 66)) (mkBasicType (mkSpan (mkPtok 25 "i16" 25 2 66) (mkPtok 25 "i16" 25 2 66)) (mkPtok 25 "i16" 25 2 66))) (mkPtok 42 "charz" 25 6 67) (Some (mkPtok 43 (string_of_bytes [96; 108; 105; 110; 101; 49; 10; 108; 105; 110; 101; 50; 96]%N) 25 12 68)) (mkPtok 40 "," 27 0 69)))); (mkFieldWithAttr (mkSpan (mkPtok 36 "repeat" 27 3 70) (mkPtok 40 "," 27 20 73)) [] (MetaField (mkSpan (mkPtok 36 "repeat" 27 3 70) (mkPtok 40 "," 27 20 73)) (Some (mkPtok 36 "repeat" 27 3 70)) (mkMetaDecl (mkSpan (mkPtok 27 "int64" 27 10 71) (mkPtok 40 "," 27 20 73)) (TyBasic (mkSpan (mkPtok 27 "int64" 27 10 71) (mkPtok 27 "int64" 27 10 71)) (mkBasicType (mkSpan (mkPtok 27 "int64" 27 10 71) (mkPtok 27 "int64" 27 10 71)) (mkPtok 27 "int64" 27 10 71))) (mkPtok 42 "a1" 27 16 72) None (mkPtok 40 "," 27 20 73)))); (mkFieldWithAttr (mkSpan (mkPtok 7 "@lengthOf(" 27 21 74) (mkPtok 40 "," 31 23 85)) [(FALengthOf (mkSpan (mkPtok 7 "@lengthOf(" 27 21 74) (mkPtok 6 ")" 28 8 77)) (mkLengthOf (mkSpan (mkPtok 7 "@lengthOf(" 27 21 74) (mkPtok 6 ")" 28 8 77)) (mkPtok 7 "@lengthOf(" 27 21 74) (mkPtok 42 "lengthOf" 28 0 76) (mkPtok 6 ")" 28 8 77))); (FATag (mkSpan (mkPtok 9 "@tag(" 30 4 79) (mkPtok 6 ")" 31 3 81)) (mkTagAttr (mkSpan (mkPtok 9 "@tag(" 30 4 79) (mkPtok 6 ")" 31 3 81)) (mkPtok 9 "@tag(" 30 4 79) (mkPtok 30 "00" 31 0 80) (mkPtok 6 ")" 31 3 81)))] (ObjectField (mkSpan (mkPtok 42 "Header" 31 5 82) (mkPtok 40 "," 31 23 85)) None (mkPtok 42 "Header" 31 5 82) (Some (mkPtok 42 "body" 31 12 83)) (Some (mkPtok 43 (string_of_bytes [96; 230; 182; 136; 230; 129; 175; 231; 177; 187; 229; 158; 139; 96]%N) 31 17 84)) (mkPtok 40 "," 31 23 85))); (mkFieldWithAttr (mkSpan (mkPtok 9 "@tag(" 31 24 86) (mkPtok 40 "," 40 11 116)) [(FATag (mkSpan (mkPtok 9 "@tag(" 31 24 86) (mkPtok 6 ")" 32 6 89)) (mkTagAttr (mkSpan (mkPtok 9 "@tag(" 31 24 86) (mkPtok 6 ")" 32 6 89)) (mkPtok 9 "@tag(" 31 24 86) (mkPtok 30 "65535" 32 0 88) (mkPtok 6 ")" 32 6 89)))] (MatchField (mkSpan (mkPtok 38 "match" 32 9 90) (mkPtok 40 "," 40 11 116)) (mkMatchFieldDecl (mkSpan (mkPtok 38 "match" 32 9 90) (mkPtok 3 "}" 40 9 115)) (mkPtok 38 "match" 32 9 90) (mkPtok 42 "pack" 32 15 91) (mkPtok 17 "as" 32 20 92) (mkPtok 42 "_x" 33 0 93) (mkPtok 2 "{" 33 2 94) [(mkMatchPair (mkSpan (mkPtok 31 """abc""" 33 4 95) (mkPtok 40 "," 34 4 98)) (MKString (mkPtok 31 """abc""" 33 4 95)) (mkPtok 39 ":" 33 11 96) (mkPtok 42 "charz" 33 13 97) (Some (mkPtok 40 "," 34 4 98))); (mkMatchPair (mkSpan (mkPtok 30 "255" 34 6 99) (mkPtok 40 "," 36 0 103)) (MKDigits (mkPtok 30 "255" 34 6 99)) (mkPtok 39 ":" 35 0 101) (mkPtok 42 "T" 35 2 102) (Some (mkPtok 40 "," 36 0 103))); (mkMatchPair (mkSpan (mkPtok 18 "[" 37 0 104) (mkPtok 40 "," 39 6 111)) (MKList (mkKeyList (mkSpan (mkPtok 18 "[" 37 0 104) (mkPtok 13 "]" 37 11 108)) (mkPtok 18 "[" 37 0 104) (mkPtok 31 """1""" 37 2 105) [((mkPtok 40 "," 37 6 106), (mkPtok 30 "007" 37 7 107))] (mkPtok 13 "]" 37 11 108))) (mkPtok 39 ":" 38 4 109) (mkPtok 42 "rootA" 39 0 110) (Some (mkPtok 40 "," 39 6 111))); (mkMatchPair (mkSpan (mkPtok 30 "00" 39 7 112) (mkPtok 42 "i64_" 40 4 114)) (MKDigits (mkPtok 30 "00" 39 7 112)) (mkPtok 39 ":" 39 10 113) (mkPtok 42 "i64_" 40 4 114) None)] (mkPtok 3 "}" 40 9 115)) (mkPtok 40 "," 40 11 116))); (mkFieldWithAttr (mkSpan (mkPtok 16 "char[]" 40 13 117) (mkPtok 40 "," 41 3 120)) [] (MetaField (mkSpan (mkPtok 16 "char[]" 40 13 117) (mkPtok 40 "," 41 3 120)) None (mkMetaDecl (mkSpan (mkPtok 16 "char[]" 40 13 117) (mkPtok 40 "," 41 3 120)) (TyDynamic (mkSpan (mkPtok 16 "char[]" 40 13 117) (mkPtok 16 "char[]" 40 13 117)) (mkDynamicString (mkSpan (mkPtok 16 "char[]" 40 13 117) (mkPtok 16 "char[]" 40 13 117)) (mkPtok 16 "char[]" 40 13 117))) (mkPtok 42 "a1" 40 20 118) (Some (mkPtok 43 (string_of_bytes [96; 195; 169; 96]%N) 41 0 119)) (mkPtok 40 "," 41 3 120)))); (mkFieldWithAttr (mkSpan (mkPtok 42 "matchKey" 41 5 121) (mkPtok 40 "," 44 5 131)) [] (InerObjectField (mkSpan (mkPtok 42 "matchKey" 41 5 121) (mkPtok 40 "," 44 5 131)) None (InerObjectDecl (mkSpan (mkPtok 42 "matchKey" 41 5 121) (mkPtok 3 "}" 44 4 130)) (mkPtok 42 "matchKey" 41 5 121) (mkPtok 2 "{" 41 14 122) [(MetaField (mkSpan (mkPtok 14 "zchar[" 41 16 123) (mkPtok 40 "," 43 20 129)) None (mkMetaDecl (mkSpan (mkPtok 14 "zchar[" 41 16 123) (mkPtok 40 "," 43 20 129)) (TyFixed (mkSpan (mkPtok 14 "zchar[" 41 16 123) (mkPtok 13 "]" 42 0 125)) (mkFixedString (mkSpan (mkPtok 14 "zchar[" 41 16 123) (mkPtok 13 "]" 42 0 125)) (mkPtok 14 "zchar[" 41 16 123) (mkPtok 30 "3" 41 23 124) (mkPtok 13 "]" 42 0 125))) (mkPtok 42 "Pad" 42 3 126) (Some (mkPtok 43 "`// not a comment`" 43 0 128)) (mkPtok 40 "," 43 20 129)))] (mkPtok 3 "}" 44 4 130)) (mkPtok 40 "," 44 5 131)))] (mkPtok 3 "}" 44 7 132))); (DOption (mkOptionDef (mkSpan (mkPtok 1 "options" 45 0 133) (mkPtok 3 "}" 51 4 153)) (mkPtok 1 "options" 45 0 133) (mkPtok 2 "{" 45 7 134) [(mkOptionDecl (mkSpan (mkPtok 42 "packetx" 45 8 135) (mkPtok 33 "' '" 45 17 137)) (mkPtok 42 "packetx" 45 8 135) (mkPtok 4 "=" 45 16 136) (VPaddingChar (mkSpan (mkPtok 33 "' '" 45 17 137) (mkPtok 33 "' '" 45 17 137)) (mkPtok 33 "' '" 45 17 137)) None); (mkOptionDecl (mkSpan (mkPtok 42 "A" 45 20 138) (mkPtok 41 ";" 46 10 141)) (mkPtok 42 "A" 45 20 138) (mkPtok 4 "=" 45 22 139) (VDigits (mkSpan (mkPtok 30 "0123456789" 46 0 140) (mkPtok 30 "0123456789" 46 0 140)) (mkPtok 30 "0123456789" 46 0 140)) (Some (mkPtok 41 ";" 46 10 141))); (mkOptionDecl (mkSpan (mkPtok 42 "string_" 47 0 142) (mkPtok 41 ";" 49 4 145)) (mkPtok 42 "string_" 47 0 142) (mkPtok 4 "=" 48 4 143) (VPaddingChar (mkSpan (mkPtok 33 "'\x00'" 48 6 144) (mkPtok 33 "'\x00'" 48 6 144)) (mkPtok 33 "'\x00'" 48 6 144)) (Some (mkPtok 41 ";" 49 4 145))); (mkOptionDecl (mkSpan (mkPtok 42 "float" 49 6 146) (mkPtok 41 ";" 49 20 149)) (mkPtok 42 "float" 49 6 146) (mkPtok 4 "=" 49 11 147) (VString (mkSpan (mkPtok 31 """a\""b""" 49 12 148) (mkPtok 31 """a\""b""" 49 12 148)) (mkPtok 31 """a\""b""" 49 12 148)) (Some (mkPtok 41 ";" 49 20 149))); (mkOptionDecl (mkSpan (mkPtok 42 "tag" 49 22 150) (mkPtok 30 "65535" 50 0 152)) (mkPtok 42 "tag" 49 22 150) (mkPtok 4 "=" 49 26 151) (VDigits (mkSpan (mkPtok 30 "65535" 50 0 152) (mkPtok 30 "65535" 50 0 152)) (mkPtok 30 "65535" 50 0 152)) None)] (mkPtok 3 "}" 51 4 153))); (DPacket (mkPacketDef (mkSpan (mkPtok 34 "root" 51 6 154) (mkPtok 3 "}" 58 0 205)) (Some (mkPtok 34 "root" 51 6 154)) (mkPtok 35 "packet" 51 11 155) (mkPtok 42 "matchKey" 51 18 156) (mkPtok 2 "{" 51 27 157) [(mkFieldWithAttr (mkSpan (mkPtok 5 "@calculatedFrom(" 51 30 158) (mkPtok 40 "," 54 0 165)) [(FACalculatedFrom (mkSpan (mkPtok 5 "@calculatedFrom(" 51 30 158) (mkPtok 6 ")" 52 0 161)) (mkCalculatedFrom (mkSpan (mkPtok 5 "@calculatedFrom(" 51 30 158) (mkPtok 6 ")" 52 0 161)) (mkPtok 5 "@calculatedFrom(" 51 30 158) (mkPtok 31 """\n""" 51 47 159) (mkPtok 6 ")" 52 0 161)))] (ObjectField (mkSpan (mkPtok 42 "zchar" 52 2 162) (mkPtok 40 "," 54 0 165)) None (mkPtok 42 "zchar" 52 2 162) (Some (mkPtok 42 "crc" 52 8 163)) (Some (mkPtok 43 "`100% of %d`" 53 0 164)) (mkPtok 40 "," 54 0 165))); (mkFieldWithAttr (mkSpan (mkPtok 36 "repeat" 54 2 166) (mkPtok 40 "," 56 92 191)) [] (InerObjectField (mkSpan (mkPtok 36 "repeat" 54 2 166) (mkPtok 40 "," 56 92 191)) (Some (mkPtok 36 "repeat" 54 2 166)) (InerObjectDecl (mkSpan (mkPtok 42 "x" 54 9 167) (mkPtok 3 "}" 56 90 190)) (mkPtok 42 "x" 54 9 167) (mkPtok 2 "{" 54 10 168) [(MetaField (mkSpan (mkPtok 16 "char[]" 54 11 169) (mkPtok 40 "," 54 38 172)) None (mkMetaDecl (mkSpan (mkPtok 16 "char[]" 54 11 169) (mkPtok 40 "," 54 38 172)) (TyDynamic (mkSpan (mkPtok 16 "char[]" 54 11 169) (mkPtok 16 "char[]" 54 11 169)) (mkDynamicString (mkSpan (mkPtok 16 "char[]" 54 11 169) (mkPtok 16 "char[]" 54 11 169)) (mkPtok 16 "char[]" 54 11 169))) (mkPtok 42 "options1" 54 18 170) (Some (mkPtok 43 "`two words`" 54 26 171)) (mkPtok 40 "," 54 38 172))); (InerObjectField (mkSpan (mkPtok 36 "repeat" 54 39 173) (mkPtok 40 "," 56 55 183)) (Some (mkPtok 36 "repeat" 54 39 173)) (InerObjectDecl (mkSpan (mkPtok 42 "metadata" 56 4 175) (mkPtok 3 "}" 56 54 182)) (mkPtok 42 "metadata" 56 4 175) (mkPtok 2 "{" 56 13 176) [(CheckSumField (mkSpan (mkPtok 42 "options1" 56 16 177) (mkPtok 40 "," 56 52 181)) (mkChecksumFieldDecl (mkSpan (mkPtok 42 "options1" 56 16 177) (mkPtok 40 "," 56 52 181)) None (mkPtok 42 "options1" 56 16 177) (mkCalculatedFrom (mkSpan (mkPtok 5 "@calculatedFrom(" 56 25 178) (mkPtok 6 ")" 56 50 180)) (mkPtok 5 "@calculatedFrom(" 56 25 178) (mkPtok 31 """CRC32""" 56 42 179) (mkPtok 6 ")" 56 50 180)) None (mkPtok 40 "," 56 52 181)))] (mkPtok 3 "}" 56 54 182)) (mkPtok 40 "," 56 55 183)); (MetaField (mkSpan (mkPtok 23 "uint64" 56 57 184) (mkPtok 40 "," 56 80 187)) None (mkMetaDecl (mkSpan (mkPtok 23 "uint64" 56 57 184) (mkPtok 40 "," 56 80 187)) (TyBasic (mkSpan (mkPtok 23 "uint64" 56 57 184) (mkPtok 23 "uint64" 56 57 184)) (mkBasicType (mkSpan (mkPtok 23 "uint64" 56 57 184) (mkPtok 23 "uint64" 56 57 184)) (mkPtok 23 "uint64" 56 57 184))) (mkPtok 42 "matchKey" 56 64 185) (Some (mkPtok 43 (string_of_bytes [96; 230; 182; 136; 230; 129; 175; 231; 177; 187; 229; 158; 139; 96]%N) 56 73 186)) (mkPtok 40 "," 56 80 187))); (ObjectField (mkSpan (mkPtok 42 "leftPad" 56 82 188) (mkPtok 40 "," 56 89 189)) None (mkPtok 42 "leftPad" 56 82 188) None None (mkPtok 40 "," 56 89 189))] (mkPtok 3 "}" 56 90 190)) (mkPtok 40 "," 56 92 191))); (mkFieldWithAttr (mkSpan (mkPtok 36 "repeat" 56 94 192) (mkPtok 40 "," 57 8 196)) [] (MetaField (mkSpan (mkPtok 36 "repeat" 56 94 192) (mkPtok 40 "," 57 8 196)) (Some (mkPtok 36 "repeat" 56 94 192)) (mkMetaDecl (mkSpan (mkPtok 27 "i64" 56 101 193) (mkPtok 40 "," 57 8 196)) (TyBasic (mkSpan (mkPtok 27 "i64" 56 101 193) (mkPtok 27 "i64" 56 101 193)) (mkBasicType (mkSpan (mkPtok 27 "i64" 56 101 193) (mkPtok 27 "i64" 56 101 193)) (mkPtok 27 "i64" 56 101 193))) (mkPtok 42 "_x" 56 106 194) (Some (mkPtok 43 "`{ , }`" 57 0 195)) (mkPtok 40 "," 57 8 196)))); (mkFieldWithAttr (mkSpan (mkPtok 9 "@tag(" 57 9 197) (mkPtok 40 "," 57 35 204)) [(FATag (mkSpan (mkPtok 9 "@tag(" 57 9 197) (mkPtok 6 ")" 57 17 199)) (mkTagAttr (mkSpan (mkPtok 9 "@tag(" 57 9 197) (mkPtok 6 ")" 57 17 199)) (mkPtok 9 "@tag(" 57 9 197) (mkPtok 30 "1" 57 15 198) (mkPtok 6 ")" 57 17 199)))] (MetaField (mkSpan (mkPtok 12 "char[" 57 19 200) (mkPtok 40 "," 57 35 204)) None (mkMetaDecl (mkSpan (mkPtok 12 "char[" 57 19 200) (mkPtok 40 "," 57 35 204)) (TyFixed (mkSpan (mkPtok 12 "char[" 57 19 200) (mkPtok 13 "]" 57 28 202)) (mkFixedString (mkSpan (mkPtok 12 "char[" 57 19 200) (mkPtok 13 "]" 57 28 202)) (mkPtok 12 "char[" 57 19 200) (mkPtok 30 "255" 57 25 201) (mkPtok 13 "]" 57 28 202))) (mkPtok 42 "len" 57 30 203) None (mkPtok 40 "," 57 35 204))))] (mkPtok 3 "}" 58 0 205))); (DPacket (mkPacketDef (mkSpan (mkPtok 34 "root" 58 3 206) (mkPtok 3 "}" 60 18 219)) (Some (mkPtok 34 "root" 58 3 206)) (mkPtok 35 "packet" 59 0 207) (mkPtok 42 "charz" 59 7 208) (mkPtok 2 "{" 59 13 209) [(mkFieldWithAttr (mkSpan (mkPtok 29 "float64" 59 15 210) (mkPtok 40 "," 59 47 215)) [] (LengthField (mkSpan (mkPtok 29 "float64" 59 15 210) (mkPtok 40 "," 59 47 215)) (mkLengthFieldDecl (mkSpan (mkPtok 29 "float64" 59 15 210) (mkPtok 40 "," 59 47 215)) (Some (TyBasic (mkSpan (mkPtok 29 "float64" 59 15 210) (mkPtok 29 "float64" 59 15 210)) (mkBasicType (mkSpan (mkPtok 29 "float64" 59 15 210) (mkPtok 29 "float64" 59 15 210)) (mkPtok 29 "float64" 59 15 210)))) (mkPtok 42 "body" 59 23 211) (mkLengthOf (mkSpan (mkPtok 7 "@lengthOf(" 59 27 212) (mkPtok 6 ")" 59 45 214)) (mkPtok 7 "@lengthOf(" 59 27 212) (mkPtok 42 "falsey" 59 38 213) (mkPtok 6 ")" 59 45 214)) None (mkPtok 40 "," 59 47 215)))); (mkFieldWithAttr (mkSpan (mkPtok 42 "zchar" 59 49 216) (mkPtok 40 "," 60 16 218)) [] (ObjectField (mkSpan (mkPtok 42 "zchar" 59 49 216) (mkPtok 40 "," 60 16 218)) None (mkPtok 42 "zchar" 59 49 216) (Some (mkPtok 42 "repeatCount" 60 4 217)) None (mkPtok 40 "," 60 16 218)))] (mkPtok 3 "}" 60 18 219))); (DPacket (mkPacketDef (mkSpan (mkPtok 34 "root" 60 20 220) (mkPtok 3 "}" 63 0 226)) (Some (mkPtok 34 "root" 60 20 220)) (mkPtok 35 "packet" 60 25 221) (mkPtok 42 "asx" 60 32 222) (mkPtok 2 "{" 60 37 223) [] (mkPtok 3 "}" 63 0 226)))])).
+Eval vm_compute in ("<<<M703>>>" ++ check (runes_of_ascii "
+packet
+x_y_z { body { // " ++ [128512]%N ++ runes_of_ascii " emoji
+_x BodyLength
+,} , }")).
+Eval vm_compute in ("<<<M735>>>" ++ check (runes_of_ascii "root
+    packet o{ @tag(	65535 )
+repeat zchar[ 0 ] Foo
+    `100% of %d` , @rightPad
+( '0'
+) stringy // a // b
+{ Pad  { stringy falsey , int32 metadata @lengthOf(
+    x_y_z )
+    ,
+} ,
+    }	,@rightPad (
+) @tag(10 )
+    // a // b
+    BodyLength
+`a\`
+    , msg_type rootA, } packet i8i8 { @rightPad
+    (
+' '
+)repeat A`a\`, char[4294967296] // a // b
+x  @calculatedFrom(
+""" ++ [28040; 24687]%N ++ runes_of_ascii """ )
+    // " ++ [128512]%N ++ runes_of_ascii " emoji
+    `" ++ [233]%N ++ runes_of_ascii "`
+,
+    repeat//x
+string i8i8, MetaDataX{
+// trailing space 
+// a // b
+float64 Z9_
+@calculatedFrom(""" ++ [233]%N ++ runes_of_ascii "t" ++ [233]%N ++ runes_of_ascii """ )
+    ,
+} , }
+")).
+Eval vm_compute in ("<<<M767>>>" ++ check (runes_of_ascii "
+packet u { }
+")).
+Eval vm_compute in ("<<<M799>>>" ++ check (runes_of_ascii "packet trueish
+{
+@tag( 65535	)
+    float @lengthOf( As ) `" ++ [233]%N ++ runes_of_ascii "` ,i32 lengthOf	, repeat
+float64
+    stringy
+`" ++ [28040; 24687; 31867; 22411]%N ++ runes_of_ascii "` , @lengthOf(
+    A
+) //	t
+@calculatedFrom(
+""a\\"" // 50% %s
+) // @lengthOf(
+@leftPad ('\x00' ) repeat
+    u32 crc , chars
+    /// triple
+    , repeat string
+    lengthOf
+`two words`
+, } // @lengthOf(
+packet metadata {
+@leftPad  ( '0' ) A {
+    // `tick` ""quote"" 'q'
+    asx // trailing space 
+{ metadata
+`crlf
+line` ,a1@lengthOf(
+zchar ) ,
+    // " ++ [27880; 37322]%N ++ runes_of_ascii "
+    i32
+    _x
+, T
+{	match repeatCount as
+/// triple
+//	t
+charz
+{ // c
+0123456789 : metadata } ,	float64 rootA`" ++ [28040; 24687; 31867; 22411]%N ++ runes_of_ascii "` ,
+/// triple
+// " ++ [128512]%N ++ runes_of_ascii " emoji
+} ,  } , roots@lengthOf( falsey
+) `doc`  ,
+//x
+// a // b
+} , int32 x , float32 calculatedFrom , //
+@lengthOf( charz ) @calculatedFrom(
+""x y"")
+@lengthOf( rootA ) char[ 00]
+    f32a  @calculatedFrom( ""a\\"")`crlf
+line`
+    , zchar[ 10
+] metadata
+    ,
+    zchar[
+007 ] leftPad,
+    repeat i8i8 rootA
+// @lengthOf(
+//
+,uint64 calculatedFrom // " ++ [128512]%N ++ runes_of_ascii " emoji
+@calculatedFrom(
+""x y""
+    )
+`tab	here` , }")).
+Eval vm_compute in ("<<<M831>>>" ++ check (runes_of_ascii "MetaData	pack
+{ // trailing space 
+}")).
+Eval vm_compute in ("<<<M863>>>" ++ check (runes_of_ascii "
+packet
+    zchar { Logon a1 ,	u128
+`
+` , @lengthOf( charz ) i64 u8x
+    @lengthOf(
+    msg_type
+    ) `// not a comment`  ,
+repeat roots a1
+, asx msg_type`crlf
+line`
+,@tag(42 )
+    /// triple
+    u64 metadata `{ , }`  , }")).
+Eval vm_compute in ("<<<M895>>>" ++ check (runes_of_ascii "  options { a1 =""it's""As=true	Z9_ = 4294967296 // trailing space 
+roots = char[]
+    // packet A { u8 x, }
+    T
+= true} MetaData
+f32a {	uint8 MetaDataX //	t
+, a1 pack ,}
+")).
+Eval vm_compute in ("<<<T895>>>" ++ terms [mkTok 1 "options" 1 2 false; mkTok 2 "{" 1 10 false; mkTok 42 "a1" 1 12 false; mkTok 4 "=" 1 15 false; mkTok 31 """it's""" 1 16 false; mkTok 42 "As" 1 22 false; mkTok 4 "=" 1 24 false; mkTok 10 "true" 1 25 false; mkTok 42 "Z9_" 1 30 false; mkTok 4 "=" 1 34 false; mkTok 30 "4294967296" 1 36 false; mkTok 44 "// trailing space " 1 47 true; mkTok 42 "roots" 2 0 false; mkTok 4 "=" 2 6 false; mkTok 16 "char[]" 2 8 false; mkTok 44 "// packet A { u8 x, }" 3 4 true; mkTok 42 "T" 4 4 false; mkTok 4 "=" 5 0 false; mkTok 10 "true" 5 2 false; mkTok 3 "}" 5 6 false; mkTok 37 "MetaData" 5 8 false; mkTok 42 "f32a" 6 0 false; mkTok 2 "{" 6 5 false; mkTok 20 "uint8" 6 7 false; mkTok 42 "MetaDataX" 6 13 false; mkTok 44 (string_of_bytes [47; 47; 9; 116]%N) 6 23 true; mkTok 40 "," 7 0 false; mkTok 42 "a1" 7 2 false; mkTok 42 "pack" 7 5 false; mkTok 40 "," 7 10 false; mkTok 3 "}" 7 11 false; mkTok 0 "<EOF>" 8 0 false] (mkPacket (mkPtok 1 "options" 1 2 0) (Some (mkPtok 3 "}" 7 11 30)) [(DOption (mkOptionDef (mkSpan (mkPtok 1 "options" 1 2 0) (mkPtok 3 "}" 5 6 19)) (mkPtok 1 "options" 1 2 0) (mkPtok 2 "{" 1 10 1) [(mkOptionDecl (mkSpan (mkPtok 42 "a1" 1 12 2) (mkPtok 31 """it's""" 1 16 4)) (mkPtok 42 "a1" 1 12 2) (mkPtok 4 "=" 1 15 3) (VString (mkSpan (mkPtok 31 """it's""" 1 16 4) (mkPtok 31 """it's""" 1 16 4)) (mkPtok 31 """it's""" 1 16 4)) None); (mkOptionDecl (mkSpan (mkPtok 42 "As" 1 22 5) (mkPtok 10 "true" 1 25 7)) (mkPtok 42 "As" 1 22 5) (mkPtok 4 "=" 1 24 6) (VTrue (mkSpan (mkPtok 10 "true" 1 25 7) (mkPtok 10 "true" 1 25 7)) (mkPtok 10 "true" 1 25 7)) None); (mkOptionDecl (mkSpan (mkPtok 42 "Z9_" 1 30 8) (mkPtok 30 "4294967296" 1 36 10)) (mkPtok 42 "Z9_" 1 30 8) (mkPtok 4 "=" 1 34 9) (VDigits (mkSpan (mkPtok 30 "4294967296" 1 36 10) (mkPtok 30 "4294967296" 1 36 10)) (mkPtok 30 "4294967296" 1 36 10)) None); (mkOptionDecl (mkSpan (mkPtok 42 "roots" 2 0 12) (mkPtok 16 "char[]" 2 8 14)) (mkPtok 42 "roots" 2 0 12) (mkPtok 4 "=" 2 6 13) (VType (mkSpan (mkPtok 16 "char[]" 2 8 14) (mkPtok 16 "char[]" 2 8 14)) (TyDynamic (mkSpan (mkPtok 16 "char[]" 2 8 14) (mkPtok 16 "char[]" 2 8 14)) (mkDynamicString (mkSpan (mkPtok 16 "char[]" 2 8 14) (mkPtok 16 "char[]" 2 8 14)) (mkPtok 16 "char[]" 2 8 14)))) None); (mkOptionDecl (mkSpan (mkPtok 42 "T" 4 4 16) (mkPtok 10 "true" 5 2 18)) (mkPtok 42 "T" 4 4 16) (mkPtok 4 "=" 5 0 17) (VTrue (mkSpan (mkPtok 10 "true" 5 2 18) (mkPtok 10 "true" 5 2 18)) (mkPtok 10 "true" 5 2 18)) None)] (mkPtok 3 "}" 5 6 19))); (DMeta (mkMetaDef (mkSpan (mkPtok 37 "MetaData" 5 8 20) (mkPtok 3 "}" 7 11 30)) (mkPtok 37 "MetaData" 5 8 20) (mkPtok 42 "f32a" 6 0 21) (mkPtok 2 "{" 6 5 22) [(MIDecl (mkMetaDecl (mkSpan (mkPtok 20 "uint8" 6 7 23) (mkPtok 40 "," 7 0 26)) (TyBasic (mkSpan (mkPtok 20 "uint8" 6 7 23) (mkPtok 20 "uint8" 6 7 23)) (mkBasicType (mkSpan (mkPtok 20 "uint8" 6 7 23) (mkPtok 20 "uint8" 6 7 23)) (mkPtok 20 "uint8" 6 7 23))) (mkPtok 42 "MetaDataX" 6 13 24) None (mkPtok 40 "," 7 0 26))); (MIRef (mkRefMetaDecl (mkSpan (mkPtok 42 "a1" 7 2 27) (mkPtok 40 "," 7 10 29)) (mkPtok 42 "a1" 7 2 27) (mkPtok 42 "pack" 7 5 28) None (mkPtok 40 "," 7 10 29)))] (mkPtok 3 "}" 7 11 30)))])).
+Eval vm_compute in ("<<<M927>>>" ++ check (runes_of_ascii "
+options { }")).
+Eval vm_compute in ("<<<M959>>>" ++ check (runes_of_ascii "options {
+    rootA
+    =/// triple
+float32
+; u8x//
+= true ;Z9_=
+// a // b
+// trailing space 
+'0' // a // b
+; } // @lengthOf(")).
+Eval vm_compute in ("<<<M991>>>" ++ check (runes_of_ascii "root packet
+    string_ {// trailing space 
+@tag(
+    0 )
+    char[]
+    // trailing space 
+    MetaDataX`it's`	, // @lengthOf(
+trueish { pack f32a, } , // 50% %s
+}")).
+Eval vm_compute in ("<<<M1023>>>" ++ check (runes_of_ascii "root packet
+calculatedFrom{ }
+")).
+Eval vm_compute in ("<<<M1055>>>" ++ check (runes_of_ascii "
+options {a1 = true ; }
+")).
+Eval vm_compute in ("<<<M1087>>>" ++ check (runes_of_ascii "MetaData float { string Packet,} options
+    //	t
     {
-    string string_ , Logon x
+asx //	t
+=
+""\n""
+    } options { repeatCount= """"; _x =
+    zchar[ 007 // packet A { u8 x, }
+] ;uint8x =
+    u64 }
+packet options1{i8 Pad , uint32 roots @calculatedFrom( ""// no comment"") `doc`, char[] rootA , match crc
+as
+//
+// c
+u { 0 :chars
+    , 42 :
+    packetx
+,
+// @lengthOf(
+// trailing space 
+} ,
+@tag(	0
+) int8 u128,
+string
+    pack`u8 x,`, Header @calculatedFrom(
+""1"" ) ,  @tag( 10
+)
+u
+, i16
+u128
+    ,
+    // trailing space 
+    @calculatedFrom( ""\n"" ) //	t
+@rightPad ( '0' ) repeat zchar  msg_type	`{ , }` ,
+}MetaData
+    i8i8// @lengthOf(
+{u8
+    leftPad `crlf
+line`
+// packet A { u8 x, }
+//	t
+, } 	 ")).
+Eval vm_compute in ("<<<M1119>>>" ++ check (runes_of_ascii "packet
+// a // b
+// a // b
+A {
+@tag(	00 ) f32a @lengthOf( Pad ), // a // b
+@rightPad
+    ( ' '
+    // c
+    )
+uint16 o,	repeat Pad{ trueish@calculatedFrom(	""// no comment"" ) // c
+, asx // a // b
+calculatedFrom
+`` ,//	t
+zchar @lengthOf( int	) ,repeat packetx{ MetaDataX , } , } , repeat Packet matchKey  , //
+} MetaData matchKey { u8 charz`" ++ [28040; 24687; 31867; 22411]%N ++ runes_of_ascii "`
+, i8i8
+    T , zchar[ 0 ] trueish,	char[
+4294967296 ]
+    //x
+    float `a\`
+, options1 Pad`" ++ [28040; 24687; 31867; 22411]%N ++ runes_of_ascii "`
+    /// triple
+    ,
+    char[]
+    stringy , }
+")).
+Eval vm_compute in ("<<<T1119>>>" ++ terms [mkTok 35 "packet" 1 0 false; mkTok 44 "// a // b" 2 0 true; mkTok 44 "// a // b" 3 0 true; mkTok 42 "A" 4 0 false; mkTok 2 "{" 4 2 false; mkTok 9 "@tag(" 5 0 false; mkTok 30 "00" 5 6 false; mkTok 6 ")" 5 9 false; mkTok 42 "f32a" 5 11 false; mkTok 7 "@lengthOf(" 5 16 false; mkTok 42 "Pad" 5 27 false; mkTok 6 ")" 5 31 false; mkTok 40 "," 5 32 false; mkTok 44 "// a // b" 5 34 true; mkTok 32 "@rightPad" 6 0 false; mkTok 8 "(" 7 4 false; mkTok 33 "' '" 7 6 false; mkTok 44 "// c" 8 4 true; mkTok 6 ")" 9 4 false; mkTok 21 "uint16" 10 0 false; mkTok 42 "o" 10 7 false; mkTok 40 "," 10 8 false; mkTok 36 "repeat" 10 10 false; mkTok 42 "Pad" 10 17 false; mkTok 2 "{" 10 20 false; mkTok 42 "trueish" 10 22 false; mkTok 5 "@calculatedFrom(" 10 29 false; mkTok 31 """// no comment""" 10 46 false; mkTok 6 ")" 10 62 false; mkTok 44 "// c" 10 64 true; mkTok 40 "," 11 0 false; mkTok 42 "asx" 11 2 false; mkTok 44 "// a // b" 11 6 true; mkTok 42 "calculatedFrom" 12 0 false; mkTok 43 "``" 13 0 false; mkTok 40 "," 13 3 false; mkTok 44 (string_of_bytes [47; 47; 9; 116]%N) 13 4 true; mkTok 42 "zchar" 14 0 false; mkTok 7 "@lengthOf(" 14 6 false; mkTok 42 "int" 14 17 false; mkTok 6 ")" 14 21 false; mkTok 40 "," 14 23 false; mkTok 36 "repeat" 14 24 false; mkTok 42 "packetx" 14 31 false; mkTok 2 "{" 14 38 false; mkTok 42 "MetaDataX" 14 40 false; mkTok 40 "," 14 50 false; mkTok 3 "}" 14 52 false; mkTok 40 "," 14 54 false; mkTok 3 "}" 14 56 false; mkTok 40 "," 14 58 false; mkTok 36 "repeat" 14 60 false; mkTok 42 "Packet" 14 67 false; mkTok 42 "matchKey" 14 74 false; mkTok 40 "," 14 84 false; mkTok 44 "//" 14 86 true; mkTok 3 "}" 15 0 false; mkTok 37 "MetaData" 15 2 false; mkTok 42 "matchKey" 15 11 false; mkTok 2 "{" 15 20 false; mkTok 20 "u8" 15 22 false; mkTok 42 "charz" 15 25 false; mkTok 43 (string_of_bytes [96; 230; 182; 136; 230; 129; 175; 231; 177; 187; 229; 158; 139; 96]%N) 15 30 false; mkTok 40 "," 16 0 false; mkTok 42 "i8i8" 16 2 false; mkTok 42 "T" 17 4 false; mkTok 40 "," 17 6 false; mkTok 14 "zchar[" 17 8 false; mkTok 30 "0" 17 15 false; mkTok 13 "]" 17 17 false; mkTok 42 "trueish" 17 19 false; mkTok 40 "," 17 26 false; mkTok 12 "char[" 17 28 false; mkTok 30 "4294967296" 18 0 false; mkTok 13 "]" 18 11 false; mkTok 44 "//x" 19 4 true; mkTok 42 "float" 20 4 false; mkTok 43 "`a\`" 20 10 false; mkTok 40 "," 21 0 false; mkTok 42 "options1" 21 2 false; mkTok 42 "Pad" 21 11 false; mkTok 43 (string_of_bytes [96; 230; 182; 136; 230; 129; 175; 231; 177; 187; 229; 158; 139; 96]%N) 21 14 false; mkTok 44 "/// triple" 22 4 true; mkTok 40 "," 23 4 false; mkTok 16 "char[]" 24 4 false; mkTok 42 "stringy" 25 4 false; mkTok 40 "," 25 12 false; mkTok 3 "}" 25 14 false; mkTok 0 "<EOF>" 26 0 false] (mkPacket (mkPtok 35 "packet" 1 0 0) (Some (mkPtok 3 "}" 25 14 87)) [(DPacket (mkPacketDef (mkSpan (mkPtok 35 "packet" 1 0 0) (mkPtok 3 "}" 15 0 56)) None (mkPtok 35 "packet" 1 0 0) (mkPtok 42 "A" 4 0 3) (mkPtok 2 "{" 4 2 4) [(mkFieldWithAttr (mkSpan (mkPtok 9 "@tag(" 5 0 5) (mkPtok 40 "," 5 32 12)) [(FATag (mkSpan (mkPtok 9 "@tag(" 5 0 5) (mkPtok 6 ")" 5 9 7)) (mkTagAttr (mkSpan (mkPtok 9 "@tag(" 5 0 5) (mkPtok 6 ")" 5 9 7)) (mkPtok 9 "@tag(" 5 0 5) (mkPtok 30 "00" 5 6 6) (mkPtok 6 ")" 5 9 7)))] (LengthField (mkSpan (mkPtok 42 "f32a" 5 11 8) (mkPtok 40 "," 5 32 12)) (mkLengthFieldDecl (mkSpan (mkPtok 42 "f32a" 5 11 8) (mkPtok 40 "," 5 32 12)) None (mkPtok 42 "f32a" 5 11 8) (mkLengthOf (mkSpan (mkPtok 7 "@lengthOf(" 5 16 9) (mkPtok 6 ")" 5 31 11)) (mkPtok 7 "@lengthOf(" 5 16 9) (mkPtok 42 "Pad" 5 27 10) (mkPtok 6 ")" 5 31 11)) None (mkPtok 40 "," 5 32 12)))); (mkFieldWithAttr (mkSpan (mkPtok 32 "@rightPad" 6 0 14) (mkPtok 40 "," 10 8 21)) [(FAPadding (mkSpan (mkPtok 32 "@rightPad" 6 0 14) (mkPtok 6 ")" 9 4 18)) (mkPaddingAttr (mkSpan (mkPtok 32 "@rightPad" 6 0 14) (mkPtok 6 ")" 9 4 18)) (mkPtok 32 "@rightPad" 6 0 14) (mkPtok 8 "(" 7 4 15) (Some (mkPtok 33 "' '" 7 6 16)) (mkPtok 6 ")" 9 4 18)))] (MetaField (mkSpan (mkPtok 21 "uint16" 10 0 19) (mkPtok 40 "," 10 8 21)) None (mkMetaDecl (mkSpan (mkPtok 21 "uint16" 10 0 19) (mkPtok 40 "," 10 8 21)) (TyBasic (mkSpan (mkPtok 21 "uint16" 10 0 19) (mkPtok 21 "uint16" 10 0 19)) (mkBasicType (mkSpan (mkPtok 21 "uint16" 10 0 19) (mkPtok 21 "uint16" 10 0 19)) (mkPtok 21 "uint16" 10 0 19))) (mkPtok 42 "o" 10 7 20) None (mkPtok 40 "," 10 8 21)))); (mkFieldWithAttr (mkSpan (mkPtok 36 "repeat" 10 10 22) (mkPtok 40 "," 14 58 50)) [] (InerObjectField (mkSpan (mkPtok 36 "repeat" 10 10 22) (mkPtok 40 "," 14 58 50)) (Some (mkPtok 36 "repeat" 10 10 22)) (InerObjectDecl (mkSpan (mkPtok 42 "Pad" 10 17 23) (mkPtok 3 "}" 14 56 49)) (mkPtok 42 "Pad" 10 17 23) (mkPtok 2 "{" 10 20 24) [(CheckSumField (mkSpan (mkPtok 42 "trueish" 10 22 25) (mkPtok 40 "," 11 0 30)) (mkChecksumFieldDecl (mkSpan (mkPtok 42 "trueish" 10 22 25) (mkPtok 40 "," 11 0 30)) None (mkPtok 42 "trueish" 10 22 25) (mkCalculatedFrom (mkSpan (mkPtok 5 "@calculatedFrom(" 10 29 26) (mkPtok 6 ")" 10 62 28)) (mkPtok 5 "@calculatedFrom(" 10 29 26) (mkPtok 31 """// no comment""" 10 46 27) (mkPtok 6 ")" 10 62 28)) None (mkPtok 40 "," 11 0 30))); (ObjectField (mkSpan (mkPtok 42 "asx" 11 2 31) (mkPtok 40 "," 13 3 35)) None (mkPtok 42 "asx" 11 2 31) (Some (mkPtok 42 "calculatedFrom" 12 0 33)) (Some (mkPtok 43 "``" 13 0 34)) (mkPtok 40 "," 13 3 35)); (LengthField (mkSpan (mkPtok 42 "zchar" 14 0 37) (mkPtok 40 "," 14 23 41)) (mkLengthFieldDecl (mkSpan (mkPtok 42 "zchar" 14 0 37) (mkPtok 40 "," 14 23 41)) None (mkPtok 42 "zchar" 14 0 37) (mkLengthOf (mkSpan (mkPtok 7 "@lengthOf(" 14 6 38) (mkPtok 6 ")" 14 21 40)) (mkPtok 7 "@lengthOf(" 14 6 38) (mkPtok 42 "int" 14 17 39) (mkPtok 6 ")" 14 21 40)) None (mkPtok 40 "," 14 23 41))); (InerObjectField (mkSpan (mkPtok 36 "repeat" 14 24 42) (mkPtok 40 "," 14 54 48)) (Some (mkPtok 36 "repeat" 14 24 42)) (InerObjectDecl (mkSpan (mkPtok 42 "packetx" 14 31 43) (mkPtok 3 "}" 14 52 47)) (mkPtok 42 "packetx" 14 31 43) (mkPtok 2 "{" 14 38 44) [(ObjectField (mkSpan (mkPtok 42 "MetaDataX" 14 40 45) (mkPtok 40 "," 14 50 46)) None (mkPtok 42 "MetaDataX" 14 40 45) None None (mkPtok 40 "," 14 50 46))] (mkPtok 3 "}" 14 52 47)) (mkPtok 40 "," 14 54 48))] (mkPtok 3 "}" 14 56 49)) (mkPtok 40 "," 14 58 50))); (mkFieldWithAttr (mkSpan (mkPtok 36 "repeat" 14 60 51) (mkPtok 40 "," 14 84 54)) [] (ObjectField (mkSpan (mkPtok 36 "repeat" 14 60 51) (mkPtok 40 "," 14 84 54)) (Some (mkPtok 36 "repeat" 14 60 51)) (mkPtok 42 "Packet" 14 67 52) (Some (mkPtok 42 "matchKey" 14 74 53)) None (mkPtok 40 "," 14 84 54)))] (mkPtok 3 "}" 15 0 56))); (DMeta (mkMetaDef (mkSpan (mkPtok 37 "MetaData" 15 2 57) (mkPtok 3 "}" 25 14 87)) (mkPtok 37 "MetaData" 15 2 57) (mkPtok 42 "matchKey" 15 11 58) (mkPtok 2 "{" 15 20 59) [(MIDecl (mkMetaDecl (mkSpan (mkPtok 20 "u8" 15 22 60) (mkPtok 40 "," 16 0 63)) (TyBasic (mkSpan (mkPtok 20 "u8" 15 22 60) (mkPtok 20 "u8" 15 22 60)) (mkBasicType (mkSpan (mkPtok 20 "u8" 15 22 60) (mkPtok 20 "u8" 15 22 60)) (mkPtok 20 "u8" 15 22 60))) (mkPtok 42 "charz" 15 25 61) (Some (mkPtok 43 (string_of_bytes [96; 230; 182; 136; 230; 129; 175; 231; 177; 187; 229; 158; 139; 96]%N) 15 30 62)) (mkPtok 40 "," 16 0 63))); (MIRef (mkRefMetaDecl (mkSpan (mkPtok 42 "i8i8" 16 2 64) (mkPtok 40 "," 17 6 66)) (mkPtok 42 "i8i8" 16 2 64) (mkPtok 42 "T" 17 4 65) None (mkPtok 40 "," 17 6 66))); (MIDecl (mkMetaDecl (mkSpan (mkPtok 14 "zchar[" 17 8 67) (mkPtok 40 "," 17 26 71)) (TyFixed (mkSpan (mkPtok 14 "zchar[" 17 8 67) (mkPtok 13 "]" 17 17 69)) (mkFixedString (mkSpan (mkPtok 14 "zchar[" 17 8 67) (mkPtok 13 "]" 17 17 69)) (mkPtok 14 "zchar[" 17 8 67) (mkPtok 30 "0" 17 15 68) (mkPtok 13 "]" 17 17 69))) (mkPtok 42 "trueish" 17 19 70) None (mkPtok 40 "," 17 26 71))); (MIDecl (mkMetaDecl (mkSpan (mkPtok 12 "char[" 17 28 72) (mkPtok 40 "," 21 0 78)) (TyFixed (mkSpan (mkPtok 12 "char[" 17 28 72) (mkPtok 13 "]" 18 11 74)) (mkFixedString (mkSpan (mkPtok 12 "char[" 17 28 72) (mkPtok 13 "]" 18 11 74)) (mkPtok 12 "char[" 17 28 72) (mkPtok 30 "4294967296" 18 0 73) (mkPtok 13 "]" 18 11 74))) (mkPtok 42 "float" 20 4 76) (Some (mkPtok 43 "`a\`" 20 10 77)) (mkPtok 40 "," 21 0 78))); (MIRef (mkRefMetaDecl (mkSpan (mkPtok 42 "options1" 21 2 79) (mkPtok 40 "," 23 4 83)) (mkPtok 42 "options1" 21 2 79) (mkPtok 42 "Pad" 21 11 80) (Some (mkPtok 43 (string_of_bytes [96; 230; 182; 136; 230; 129; 175; 231; 177; 187; 229; 158; 139; 96]%N) 21 14 81)) (mkPtok 40 "," 23 4 83))); (MIDecl (mkMetaDecl (mkSpan (mkPtok 16 "char[]" 24 4 84) (mkPtok 40 "," 25 12 86)) (TyDynamic (mkSpan (mkPtok 16 "char[]" 24 4 84) (mkPtok 16 "char[]" 24 4 84)) (mkDynamicString (mkSpan (mkPtok 16 "char[]" 24 4 84) (mkPtok 16 "char[]" 24 4 84)) (mkPtok 16 "char[]" 24 4 84))) (mkPtok 42 "stringy" 25 4 85) None (mkPtok 40 "," 25 12 86)))] (mkPtok 3 "}" 25 14 87)))])).
+Eval vm_compute in ("<<<M1151>>>" ++ check (runes_of_ascii "MetaData Z9_ { } options	{ repeatCount  = '0'
+crc
+// " ++ [27880; 37322]%N ++ runes_of_ascii "
+// " ++ [27880; 37322]%N ++ runes_of_ascii "
+= 007
+; rootA
+=int8 ;_x	= 0 ;
+}packet falsey{ }")).
+Eval vm_compute in ("<<<M1183>>>" ++ check (runes_of_ascii "packet x_y_z
+    //	t
+    {
+// packet A { u8 x, }
+/// triple
+_x , repeat float , @tag(
+1) match Foo
+    as rootA
+{	[
+255 ]
+    : options1
+    ,
+    [ ""a\\"" ]	:
+    /// triple
+    leftPad , } ,@lengthOf( len) match
+    o as  Z9_ {
+    7: As ,
+    ""x y"" : matchKey // `tick` ""quote"" 'q'
+""// no comment"" : u128 , [
+// @lengthOf(
+// `tick` ""quote"" 'q'
+0 , 255]:	len , ""CRC32"" :	metadata 3 : chars ,
+} ,u64
+roots `say ""hi""`
+    ,
+    @tag(
+42
+)
+string int@lengthOf( Header ), @tag( 1 )@lengthOf(
+float
+    )
+    // packet A { u8 x, }
+    rootA Z9_, match	msg_type as metadata{
+[ 7 , 0123456789 ] :uint8x
+//x
+// a // b
+, [255 ] : int
+,
+    // packet A { u8 x, }
+    255 :lengthOf , ""a\\""	: u128 /// triple
+, ""1""	: u128 , },}
+// `tick` ""quote"" 'q'
+")).
+Eval vm_compute in ("<<<M1215>>>" ++ check (@nil rune)).
+Eval vm_compute in ("<<<M1247>>>" ++ check (runes_of_ascii "root packet MetaDataX  { }")).
+Eval vm_compute in ("<<<M1279>>>" ++ check (runes_of_ascii "packet len
+{  @tag(42	)
+repeat asx
+    {
+    repeat _x u128`100% of %d` ,}	, int64 falsey
+@lengthOf( packetx ) `` , x @calculatedFrom( // trailing space 
+""CRC32"" ) ,match
+Pad as uint8x	{ 65535/// triple
+:
+//x
+//x
+rootA ,
+    } ,
+    @rightPad
+    ( )
+@calculatedFrom(	""{,}""
+) repeat zchar//	t
+`doc`
+,//	t
+repeat msg_type
+// @lengthOf(
+//
+`doc` , char[
+    65535 ] i8i8 `// not a comment`, int32	Z9_
+    `100% of %d`, @calculatedFrom(	""a\\"" )@tag( 1 //	t
+) @calculatedFrom(
+//x
+// @lengthOf(
+""CRC32""	) char[]	Z9_ ,BodyLength  ,}
+    packet T{ }
+    packet chars{
+    repeat uint32
+    repeatCount //
+`line1
+line2` ,
+@lengthOf( i8i8 // a // b
+) repeat u128 chars // a // b
+`100% of %d` ,repeat options1
+    {
+_x{
+repeat falsey
+    `a\` ,	match x_y_z as
+    Packet { """ ++ [28040; 24687]%N ++ runes_of_ascii """ : u8x , }
+, zchar @calculatedFrom( """ ++ [233]%N ++ runes_of_ascii "t" ++ [233]%N ++ runes_of_ascii """ ) ,  }, stringy //x
+,repeat uint16 asx , } ,@tag(
+    0
+    )@leftPad
+( '\x00' )i64 repeatCount, @lengthOf( lengthOf )  repeat float32 Logon
+    ,}
+    packet Logon { @tag( 0 )char[] chars ,  }
+MetaData //	t
+roots { char[] f32a ,
+zchar[ 42 ] A`{ , }` , float32 zchar , } 	 ")).
+Eval vm_compute in ("<<<M1311>>>" ++ check (runes_of_ascii "options { lengthOf = ""`tick`"";repeatCount = 3 ;
+    metadata  =
+    255	;	i64_	= ' '
+    // packet A { u8 x, }
+    }
+")).
+Eval vm_compute in ("<<<M1343>>>" ++ check (runes_of_ascii "packet string_
+    { @lengthOf( metadata ) zchar[ 0123456789 ] A
+// @lengthOf(
+// `tick` ""quote"" 'q'
+, rootA zchar// packet A { u8 x, }
+, u32 A
+    /// triple
+    @calculatedFrom(	""abc"" )
+,	@calculatedFrom(""" ++ [28040; 24687]%N ++ runes_of_ascii """ )
+    match chars as body // a // b
+{ ""// no comment""
+:
+float, 1 :
+    stringy
+, [ 1
+, 42	]
+    :roots
+    , """ ++ [28040; 24687]%N ++ runes_of_ascii """ :
+    a1, ""packet"" : repeatCount ,7
+    :
+    int , } // packet A { u8 x, }
+,}
+")).
+Eval vm_compute in ("<<<T1343>>>" ++ terms [mkTok 35 "packet" 1 0 false; mkTok 42 "string_" 1 7 false; mkTok 2 "{" 2 4 false; mkTok 7 "@lengthOf(" 2 6 false; mkTok 42 "metadata" 2 17 false; mkTok 6 ")" 2 26 false; mkTok 14 "zchar[" 2 28 false; mkTok 30 "0123456789" 2 35 false; mkTok 13 "]" 2 46 false; mkTok 42 "A" 2 48 false; mkTok 44 "// @lengthOf(" 3 0 true; mkTok 44 "// `tick` ""quote"" 'q'" 4 0 true; mkTok 40 "," 5 0 false; mkTok 42 "rootA" 5 2 false; mkTok 42 "zchar" 5 8 false; mkTok 44 "// packet A { u8 x, }" 5 13 true; mkTok 40 "," 6 0 false; mkTok 22 "u32" 6 2 false; mkTok 42 "A" 6 6 false; mkTok 44 "/// triple" 7 4 true; mkTok 5 "@calculatedFrom(" 8 4 false; mkTok 31 """abc""" 8 21 false; mkTok 6 ")" 8 27 false; mkTok 40 "," 9 0 false; mkTok 5 "@calculatedFrom(" 9 2 false; mkTok 31 (string_of_bytes [34; 230; 182; 136; 230; 129; 175; 34]%N) 9 18 false; mkTok 6 ")" 9 23 false; mkTok 38 "match" 10 4 false; mkTok 42 "chars" 10 10 false; mkTok 17 "as" 10 16 false; mkTok 42 "body" 10 19 false; mkTok 44 "// a // b" 10 24 true; mkTok 2 "{" 11 0 false; mkTok 31 """// no comment""" 11 2 false; mkTok 39 ":" 12 0 false; mkTok 42 "float" 13 0 false; mkTok 40 "," 13 5 false; mkTok 30 "1" 13 7 false; mkTok 39 ":" 13 9 false; mkTok 42 "stringy" 14 4 false; mkTok 40 "," 15 0 false; mkTok 18 "[" 15 2 false; mkTok 30 "1" 15 4 false; mkTok 40 "," 16 0 false; mkTok 30 "42" 16 2 false; mkTok 13 "]" 16 5 false; mkTok 39 ":" 17 4 false; mkTok 42 "roots" 17 5 false; mkTok 40 "," 18 4 false; mkTok 31 (string_of_bytes [34; 230; 182; 136; 230; 129; 175; 34]%N) 18 6 false; mkTok 39 ":" 18 11 false; mkTok 42 "a1" 19 4 false; mkTok 40 "," 19 6 false; mkTok 31 """packet""" 19 8 false; mkTok 39 ":" 19 17 false; mkTok 42 "repeatCount" 19 19 false; mkTok 40 "," 19 31 false; mkTok 30 "7" 19 32 false; mkTok 39 ":" 20 4 false; mkTok 42 "int" 21 4 false; mkTok 40 "," 21 8 false; mkTok 3 "}" 21 10 false; mkTok 44 "// packet A { u8 x, }" 21 12 true; mkTok 40 "," 22 0 false; mkTok 3 "}" 22 1 false; mkTok 0 "<EOF>" 23 0 false] (mkPacket (mkPtok 35 "packet" 1 0 0) (Some (mkPtok 3 "}" 22 1 64)) [(DPacket (mkPacketDef (mkSpan (mkPtok 35 "packet" 1 0 0) (mkPtok 3 "}" 22 1 64)) None (mkPtok 35 "packet" 1 0 0) (mkPtok 42 "string_" 1 7 1) (mkPtok 2 "{" 2 4 2) [(mkFieldWithAttr (mkSpan (mkPtok 7 "@lengthOf(" 2 6 3) (mkPtok 40 "," 5 0 12)) [(FALengthOf (mkSpan (mkPtok 7 "@lengthOf(" 2 6 3) (mkPtok 6 ")" 2 26 5)) (mkLengthOf (mkSpan (mkPtok 7 "@lengthOf(" 2 6 3) (mkPtok 6 ")" 2 26 5)) (mkPtok 7 "@lengthOf(" 2 6 3) (mkPtok 42 "metadata" 2 17 4) (mkPtok 6 ")" 2 26 5)))] (MetaField (mkSpan (mkPtok 14 "zchar[" 2 28 6) (mkPtok 40 "," 5 0 12)) None (mkMetaDecl (mkSpan (mkPtok 14 "zchar[" 2 28 6) (mkPtok 40 "," 5 0 12)) (TyFixed (mkSpan (mkPtok 14 "zchar[" 2 28 6) (mkPtok 13 "]" 2 46 8)) (mkFixedString (mkSpan (mkPtok 14 "zchar[" 2 28 6) (mkPtok 13 "]" 2 46 8)) (mkPtok 14 "zchar[" 2 28 6) (mkPtok 30 "0123456789" 2 35 7) (mkPtok 13 "]" 2 46 8))) (mkPtok 42 "A" 2 48 9) None (mkPtok 40 "," 5 0 12)))); (mkFieldWithAttr (mkSpan (mkPtok 42 "rootA" 5 2 13) (mkPtok 40 "," 6 0 16)) [] (ObjectField (mkSpan (mkPtok 42 "rootA" 5 2 13) (mkPtok 40 "," 6 0 16)) None (mkPtok 42 "rootA" 5 2 13) (Some (mkPtok 42 "zchar" 5 8 14)) None (mkPtok 40 "," 6 0 16))); (mkFieldWithAttr (mkSpan (mkPtok 22 "u32" 6 2 17) (mkPtok 40 "," 9 0 23)) [] (CheckSumField (mkSpan (mkPtok 22 "u32" 6 2 17) (mkPtok 40 "," 9 0 23)) (mkChecksumFieldDecl (mkSpan (mkPtok 22 "u32" 6 2 17) (mkPtok 40 "," 9 0 23)) (Some (TyBasic (mkSpan (mkPtok 22 "u32" 6 2 17) (mkPtok 22 "u32" 6 2 17)) (mkBasicType (mkSpan (mkPtok 22 "u32" 6 2 17) (mkPtok 22 "u32" 6 2 17)) (mkPtok 22 "u32" 6 2 17)))) (mkPtok 42 "A" 6 6 18) (mkCalculatedFrom (mkSpan (mkPtok 5 "@calculatedFrom(" 8 4 20) (mkPtok 6 ")" 8 27 22)) (mkPtok 5 "@calculatedFrom(" 8 4 20) (mkPtok 31 """abc""" 8 21 21) (mkPtok 6 ")" 8 27 22)) None (mkPtok 40 "," 9 0 23)))); (mkFieldWithAttr (mkSpan (mkPtok 5 "@calculatedFrom(" 9 2 24) (mkPtok 40 "," 22 0 63)) [(FACalculatedFrom (mkSpan (mkPtok 5 "@calculatedFrom(" 9 2 24) (mkPtok 6 ")" 9 23 26)) (mkCalculatedFrom (mkSpan (mkPtok 5 "@calculatedFrom(" 9 2 24) (mkPtok 6 ")" 9 23 26)) (mkPtok 5 "@calculatedFrom(" 9 2 24) (mkPtok 31 (string_of_bytes [34; 230; 182; 136; 230; 129; 175; 34]%N) 9 18 25) (mkPtok 6 ")" 9 23 26)))] (MatchField (mkSpan (mkPtok 38 "match" 10 4 27) (mkPtok 40 "," 22 0 63)) (mkMatchFieldDecl (mkSpan (mkPtok 38 "match" 10 4 27) (mkPtok 3 "}" 21 10 61)) (mkPtok 38 "match" 10 4 27) (mkPtok 42 "chars" 10 10 28) (mkPtok 17 "as" 10 16 29) (mkPtok 42 "body" 10 19 30) (mkPtok 2 "{" 11 0 32) [(mkMatchPair (mkSpan (mkPtok 31 """// no comment""" 11 2 33) (mkPtok 40 "," 13 5 36)) (MKString (mkPtok 31 """// no comment""" 11 2 33)) (mkPtok 39 ":" 12 0 34) (mkPtok 42 "float" 13 0 35) (Some (mkPtok 40 "," 13 5 36))); (mkMatchPair (mkSpan (mkPtok 30 "1" 13 7 37) (mkPtok 40 "," 15 0 40)) (MKDigits (mkPtok 30 "1" 13 7 37)) (mkPtok 39 ":" 13 9 38) (mkPtok 42 "stringy" 14 4 39) (Some (mkPtok 40 "," 15 0 40))); (mkMatchPair (mkSpan (mkPtok 18 "[" 15 2 41) (mkPtok 40 "," 18 4 48)) (MKList (mkKeyList (mkSpan (mkPtok 18 "[" 15 2 41) (mkPtok 13 "]" 16 5 45)) (mkPtok 18 "[" 15 2 41) (mkPtok 30 "1" 15 4 42) [((mkPtok 40 "," 16 0 43), (mkPtok 30 "42" 16 2 44))] (mkPtok 13 "]" 16 5 45))) (mkPtok 39 ":" 17 4 46) (mkPtok 42 "roots" 17 5 47) (Some (mkPtok 40 "," 18 4 48))); (mkMatchPair (mkSpan (mkPtok 31 (string_of_bytes [34; 230; 182; 136; 230; 129; 175; 34]%N) 18 6 49) (mkPtok 40 "," 19 6 52)) (MKString (mkPtok 31 (string_of_bytes [34; 230; 182; 136; 230; 129; 175; 34]%N) 18 6 49)) (mkPtok 39 ":" 18 11 50) (mkPtok 42 "a1" 19 4 51) (Some (mkPtok 40 "," 19 6 52))); (mkMatchPair (mkSpan (mkPtok 31 """packet""" 19 8 53) (mkPtok 40 "," 19 31 56)) (MKString (mkPtok 31 """packet""" 19 8 53)) (mkPtok 39 ":" 19 17 54) (mkPtok 42 "repeatCount" 19 19 55) (Some (mkPtok 40 "," 19 31 56))); (mkMatchPair (mkSpan (mkPtok 30 "7" 19 32 57) (mkPtok 40 "," 21 8 60)) (MKDigits (mkPtok 30 "7" 19 32 57)) (mkPtok 39 ":" 20 4 58) (mkPtok 42 "int" 21 4 59) (Some (mkPtok 40 "," 21 8 60)))] (mkPtok 3 "}" 21 10 61)) (mkPtok 40 "," 22 0 63)))] (mkPtok 3 "}" 22 1 64)))])).
+Eval vm_compute in ("<<<M1375>>>" ++ check (runes_of_ascii "options {
+trueish =42 int =
+// trailing space 
+// " ++ [27880; 37322]%N ++ runes_of_ascii "
+' '
+Packet
+    = 007 ;
+asx = string
+    ; }	root packet u8x{}MetaData
+//x
+// packet A { u8 x, }
+int
+{ string charz, // `tick` ""quote"" 'q'
+}")).
+Eval vm_compute in ("<<<M1407>>>" ++ check (runes_of_ascii "  packet T
+{ @tag( 42) match MetaDataX
+as repeatCount { [42 ,00 , """"
+,
+""1"" , 00 ] :
+    Z9_ , 0: packetx
+    ,
+    3 :
+    float , 42 :  u8x
+, ""1"": i8i8
+} // " ++ [128512]%N ++ runes_of_ascii " emoji
+, repeat options1 `" ++ [233]%N ++ runes_of_ascii "`,
+    @lengthOf( int
+    ) chars{
+msg_type
+,} , }	options
+{
+    _x = // @lengthOf(
+""// no comment""
+    }
+    // " ++ [128512]%N ++ runes_of_ascii " emoji
+    packet
+    int { }
 
-uint32
-    // packet A { u8 x, }
-    Z9_,asx
-_x
-    `tab	here` , }
 ")).
-Eval vm_compute in ("<<<M2655>>>" ++ check (runes_of_ascii "options{}root packet
-metadata {
-@lengthOf(x ) float32
-body ``, }
-    MetaData
+Eval vm_compute in ("<<<M1439>>>" ++ check (runes_of_ascii "packet
+Logon
+{	} // a // b")).
+Eval vm_compute in ("<<<M1471>>>" ++ check (runes_of_ascii "options  {
+x = zchar[ 00 ]matchKey
+    = //	t
+i8
+; o = char[] } packet	u {
+    // c
+    metadata @lengthOf(
+zchar ), char[0123456789 //
+] crc @calculatedFrom( ""a\""b"" ),
+packetx charz, }packet  trueish { } options {
+    Z9_=
+// @lengthOf(
+// `tick` ""quote"" 'q'
+""" ++ [128512]%N ++ runes_of_ascii """
+    // trailing space 
+    ; // " ++ [27880; 37322]%N ++ runes_of_ascii "
+roots
+=' ';
+    Header
+=
+4294967296 ;
+falsey =  f64 } options
+{ MetaDataX=
+false}
+")).
+Eval vm_compute in ("<<<M1503>>>" ++ check (runes_of_ascii "MetaData//
+zchar{}
+
+")).
+Eval vm_compute in ("<<<M1535>>>" ++ check (runes_of_ascii " // 50% %s")).
+Eval vm_compute in ("<<<M1567>>>" ++ check (runes_of_ascii "packet
+    zchar{  } root packet rootA {
+    _x
+    @lengthOf( A ), @lengthOf( i64_ )
+i64 pack@lengthOf( Header
+// @lengthOf(
+// trailing space 
+)
+, repeat
+char[] x	,
+    u128// " ++ [27880; 37322]%N ++ runes_of_ascii "
+@calculatedFrom(
+""\" ++ [233]%N ++ runes_of_ascii """ )
+,
+    Z9_
+// @lengthOf(
+// 50% %s
+u128 , } // 50% %s
+packet u8x{
+@tag(
+    42 ) char[] u@calculatedFrom( ""a	b"" ) , stringy body  `
+` ,
+char[  10 ] x_y_z `" ++ [233]%N ++ runes_of_ascii "`
+    ,
+@lengthOf( u8x )// packet A { u8 x, }
+chars o // 50% %s
+`" ++ [233]%N ++ runes_of_ascii "`
+// a // b
+// @lengthOf(
+,
+    @lengthOf(i64_ ) @calculatedFrom(""\n""
+    )
+Z9_ u8x `{ , }`
+, }
+")).
+Eval vm_compute in ("<<<T1567>>>" ++ terms [mkTok 35 "packet" 1 0 false; mkTok 42 "zchar" 2 4 false; mkTok 2 "{" 2 9 false; mkTok 3 "}" 2 12 false; mkTok 34 "root" 2 14 false; mkTok 35 "packet" 2 19 false; mkTok 42 "rootA" 2 26 false; mkTok 2 "{" 2 32 false; mkTok 42 "_x" 3 4 false; mkTok 7 "@lengthOf(" 4 4 false; mkTok 42 "A" 4 15 false; mkTok 6 ")" 4 17 false; mkTok 40 "," 4 18 false; mkTok 7 "@lengthOf(" 4 20 false; mkTok 42 "i64_" 4 31 false; mkTok 6 ")" 4 36 false; mkTok 27 "i64" 5 0 false; mkTok 42 "pack" 5 4 false; mkTok 7 "@lengthOf(" 5 8 false; mkTok 42 "Header" 5 19 false; mkTok 44 "// @lengthOf(" 6 0 true; mkTok 44 "// trailing space " 7 0 true; mkTok 6 ")" 8 0 false; mkTok 40 "," 9 0 false; mkTok 36 "repeat" 9 2 false; mkTok 16 "char[]" 10 0 false; mkTok 42 "x" 10 7 false; mkTok 40 "," 10 9 false; mkTok 42 "u128" 11 4 false; mkTok 44 (string_of_bytes [47; 47; 32; 230; 179; 168; 233; 135; 138]%N) 11 8 true; mkTok 5 "@calculatedFrom(" 12 0 false; mkTok 31 (string_of_bytes [34; 92; 195; 169; 34]%N) 13 0 false; mkTok 6 ")" 13 5 false; mkTok 40 "," 14 0 false; mkTok 42 "Z9_" 15 4 false; mkTok 44 "// @lengthOf(" 16 0 true; mkTok 44 "// 50% %s" 17 0 true; mkTok 42 "u128" 18 0 false; mkTok 40 "," 18 5 false; mkTok 3 "}" 18 7 false; mkTok 44 "// 50% %s" 18 9 true; mkTok 35 "packet" 19 0 false; mkTok 42 "u8x" 19 7 false; mkTok 2 "{" 19 10 false; mkTok 9 "@tag(" 20 0 false; mkTok 30 "42" 21 4 false; mkTok 6 ")" 21 7 false; mkTok 16 "char[]" 21 9 false; mkTok 42 "u" 21 16 false; mkTok 5 "@calculatedFrom(" 21 17 false; mkTok 31 (string_of_bytes [34; 97; 9; 98; 34]%N) 21 34 false; mkTok 6 ")" 21 40 false; mkTok 40 "," 21 42 false; mkTok 42 "stringy" 21 44 false; mkTok 42 "body" 21 52 false; mkTok 43 (string_of_bytes [96; 10; 96]%N) 21 58 false; mkTok 40 "," 22 2 false; mkTok 12 "char[" 23 0 false; mkTok 30 "10" 23 7 false; mkTok 13 "]" 23 10 false; mkTok 42 "x_y_z" 23 12 false; mkTok 43 (string_of_bytes [96; 195; 169; 96]%N) 23 18 false; mkTok 40 "," 24 4 false; mkTok 7 "@lengthOf(" 25 0 false; mkTok 42 "u8x" 25 11 false; mkTok 6 ")" 25 15 false; mkTok 44 "// packet A { u8 x, }" 25 16 true; mkTok 42 "chars" 26 0 false; mkTok 42 "o" 26 6 false; mkTok 44 "// 50% %s" 26 8 true; mkTok 43 (string_of_bytes [96; 195; 169; 96]%N) 27 0 false; mkTok 44 "// a // b" 28 0 true; mkTok 44 "// @lengthOf(" 29 0 true; mkTok 40 "," 30 0 false; mkTok 7 "@lengthOf(" 31 4 false; mkTok 42 "i64_" 31 14 false; mkTok 6 ")" 31 19 false; mkTok 5 "@calculatedFrom(" 31 21 false; mkTok 31 """\n""" 31 37 false; mkTok 6 ")" 32 4 false; mkTok 42 "Z9_" 33 0 false; mkTok 42 "u8x" 33 4 false; mkTok 43 "`{ , }`" 33 8 false; mkTok 40 "," 34 0 false; mkTok 3 "}" 34 2 false; mkTok 0 "<EOF>" 35 0 false] (mkPacket (mkPtok 35 "packet" 1 0 0) (Some (mkPtok 3 "}" 34 2 84)) [(DPacket (mkPacketDef (mkSpan (mkPtok 35 "packet" 1 0 0) (mkPtok 3 "}" 2 12 3)) None (mkPtok 35 "packet" 1 0 0) (mkPtok 42 "zchar" 2 4 1) (mkPtok 2 "{" 2 9 2) [] (mkPtok 3 "}" 2 12 3))); (DPacket (mkPacketDef (mkSpan (mkPtok 34 "root" 2 14 4) (mkPtok 3 "}" 18 7 39)) (Some (mkPtok 34 "root" 2 14 4)) (mkPtok 35 "packet" 2 19 5) (mkPtok 42 "rootA" 2 26 6) (mkPtok 2 "{" 2 32 7) [(mkFieldWithAttr (mkSpan (mkPtok 42 "_x" 3 4 8) (mkPtok 40 "," 4 18 12)) [] (LengthField (mkSpan (mkPtok 42 "_x" 3 4 8) (mkPtok 40 "," 4 18 12)) (mkLengthFieldDecl (mkSpan (mkPtok 42 "_x" 3 4 8) (mkPtok 40 "," 4 18 12)) None (mkPtok 42 "_x" 3 4 8) (mkLengthOf (mkSpan (mkPtok 7 "@lengthOf(" 4 4 9) (mkPtok 6 ")" 4 17 11)) (mkPtok 7 "@lengthOf(" 4 4 9) (mkPtok 42 "A" 4 15 10) (mkPtok 6 ")" 4 17 11)) None (mkPtok 40 "," 4 18 12)))); (mkFieldWithAttr (mkSpan (mkPtok 7 "@lengthOf(" 4 20 13) (mkPtok 40 "," 9 0 23)) [(FALengthOf (mkSpan (mkPtok 7 "@lengthOf(" 4 20 13) (mkPtok 6 ")" 4 36 15)) (mkLengthOf (mkSpan (mkPtok 7 "@lengthOf(" 4 20 13) (mkPtok 6 ")" 4 36 15)) (mkPtok 7 "@lengthOf(" 4 20 13) (mkPtok 42 "i64_" 4 31 14) (mkPtok 6 ")" 4 36 15)))] (LengthField (mkSpan (mkPtok 27 "i64" 5 0 16) (mkPtok 40 "," 9 0 23)) (mkLengthFieldDecl (mkSpan (mkPtok 27 "i64" 5 0 16) (mkPtok 40 "," 9 0 23)) (Some (TyBasic (mkSpan (mkPtok 27 "i64" 5 0 16) (mkPtok 27 "i64" 5 0 16)) (mkBasicType (mkSpan (mkPtok 27 "i64" 5 0 16) (mkPtok 27 "i64" 5 0 16)) (mkPtok 27 "i64" 5 0 16)))) (mkPtok 42 "pack" 5 4 17) (mkLengthOf (mkSpan (mkPtok 7 "@lengthOf(" 5 8 18) (mkPtok 6 ")" 8 0 22)) (mkPtok 7 "@lengthOf(" 5 8 18) (mkPtok 42 "Header" 5 19 19) (mkPtok 6 ")" 8 0 22)) None (mkPtok 40 "," 9 0 23)))); (mkFieldWithAttr (mkSpan (mkPtok 36 "repeat" 9 2 24) (mkPtok 40 "," 10 9 27)) [] (MetaField (mkSpan (mkPtok 36 "repeat" 9 2 24) (mkPtok 40 "," 10 9 27)) (Some (mkPtok 36 "repeat" 9 2 24)) (mkMetaDecl (mkSpan (mkPtok 16 "char[]" 10 0 25) (mkPtok 40 "," 10 9 27)) (TyDynamic (mkSpan (mkPtok 16 "char[]" 10 0 25) (mkPtok 16 "char[]" 10 0 25)) (mkDynamicString (mkSpan (mkPtok 16 "char[]" 10 0 25) (mkPtok 16 "char[]" 10 0 25)) (mkPtok 16 "char[]" 10 0 25))) (mkPtok 42 "x" 10 7 26) None (mkPtok 40 "," 10 9 27)))); (mkFieldWithAttr (mkSpan (mkPtok 42 "u128" 11 4 28) (mkPtok 40 "," 14 0 33)) [] (CheckSumField (mkSpan (mkPtok 42 "u128" 11 4 28) (mkPtok 40 "," 14 0 33)) (mkChecksumFieldDecl (mkSpan (mkPtok 42 "u128" 11 4 28) (mkPtok 40 "," 14 0 33)) None (mkPtok 42 "u128" 11 4 28) (mkCalculatedFrom (mkSpan (mkPtok 5 "@calculatedFrom(" 12 0 30) (mkPtok 6 ")" 13 5 32)) (mkPtok 5 "@calculatedFrom(" 12 0 30) (mkPtok 31 (string_of_bytes [34; 92; 195; 169; 34]%N) 13 0 31) (mkPtok 6 ")" 13 5 32)) None (mkPtok 40 "," 14 0 33)))); (mkFieldWithAttr (mkSpan (mkPtok 42 "Z9_" 15 4 34) (mkPtok 40 "," 18 5 38)) [] (ObjectField (mkSpan (mkPtok 42 "Z9_" 15 4 34) (mkPtok 40 "," 18 5 38)) None (mkPtok 42 "Z9_" 15 4 34) (Some (mkPtok 42 "u128" 18 0 37)) None (mkPtok 40 "," 18 5 38)))] (mkPtok 3 "}" 18 7 39))); (DPacket (mkPacketDef (mkSpan (mkPtok 35 "packet" 19 0 41) (mkPtok 3 "}" 34 2 84)) None (mkPtok 35 "packet" 19 0 41) (mkPtok 42 "u8x" 19 7 42) (mkPtok 2 "{" 19 10 43) [(mkFieldWithAttr (mkSpan (mkPtok 9 "@tag(" 20 0 44) (mkPtok 40 "," 21 42 52)) [(FATag (mkSpan (mkPtok 9 "@tag(" 20 0 44) (mkPtok 6 ")" 21 7 46)) (mkTagAttr (mkSpan (mkPtok 9 "@tag(" 20 0 44) (mkPtok 6 ")" 21 7 46)) (mkPtok 9 "@tag(" 20 0 44) (mkPtok 30 "42" 21 4 45) (mkPtok 6 ")" 21 7 46)))] (CheckSumField (mkSpan (mkPtok 16 "char[]" 21 9 47) (mkPtok 40 "," 21 42 52)) (mkChecksumFieldDecl (mkSpan (mkPtok 16 "char[]" 21 9 47) (mkPtok 40 "," 21 42 52)) (Some (TyDynamic (mkSpan (mkPtok 16 "char[]" 21 9 47) (mkPtok 16 "char[]" 21 9 47)) (mkDynamicString (mkSpan (mkPtok 16 "char[]" 21 9 47) (mkPtok 16 "char[]" 21 9 47)) (mkPtok 16 "char[]" 21 9 47)))) (mkPtok 42 "u" 21 16 48) (mkCalculatedFrom (mkSpan (mkPtok 5 "@calculatedFrom(" 21 17 49) (mkPtok 6 ")" 21 40 51)) (mkPtok 5 "@calculatedFrom(" 21 17 49) (mkPtok 31 (string_of_bytes [34; 97; 9; 98; 34]%N) 21 34 50) (mkPtok 6 ")" 21 40 51)) None (mkPtok 40 "," 21 42 52)))); (mkFieldWithAttr (mkSpan (mkPtok 42 "stringy" 21 44 53) (mkPtok 40 "," 22 2 56)) [] (ObjectField (mkSpan (mkPtok 42 "stringy" 21 44 53) (mkPtok 40 "," 22 2 56)) None (mkPtok 42 "stringy" 21 44 53) (Some (mkPtok 42 "body" 21 52 54)) (Some (mkPtok 43 (string_of_bytes [96; 10; 96]%N) 21 58 55)) (mkPtok 40 "," 22 2 56))); (mkFieldWithAttr (mkSpan (mkPtok 12 "char[" 23 0 57) (mkPtok 40 "," 24 4 62)) [] (MetaField (mkSpan (mkPtok 12 "char[" 23 0 57) (mkPtok 40 "," 24 4 62)) None (mkMetaDecl (mkSpan (mkPtok 12 "char[" 23 0 57) (mkPtok 40 "," 24 4 62)) (TyFixed (mkSpan (mkPtok 12 "char[" 23 0 57) (mkPtok 13 "]" 23 10 59)) (mkFixedString (mkSpan (mkPtok 12 "char[" 23 0 57) (mkPtok 13 "]" 23 10 59)) (mkPtok 12 "char[" 23 0 57) (mkPtok 30 "10" 23 7 58) (mkPtok 13 "]" 23 10 59))) (mkPtok 42 "x_y_z" 23 12 60) (Some (mkPtok 43 (string_of_bytes [96; 195; 169; 96]%N) 23 18 61)) (mkPtok 40 "," 24 4 62)))); (mkFieldWithAttr (mkSpan (mkPtok 7 "@lengthOf(" 25 0 63) (mkPtok 40 "," 30 0 73)) [(FALengthOf (mkSpan (mkPtok 7 "@lengthOf(" 25 0 63) (mkPtok 6 ")" 25 15 65)) (mkLengthOf (mkSpan (mkPtok 7 "@lengthOf(" 25 0 63) (mkPtok 6 ")" 25 15 65)) (mkPtok 7 "@lengthOf(" 25 0 63) (mkPtok 42 "u8x" 25 11 64) (mkPtok 6 ")" 25 15 65)))] (ObjectField (mkSpan (mkPtok 42 "chars" 26 0 67) (mkPtok 40 "," 30 0 73)) None (mkPtok 42 "chars" 26 0 67) (Some (mkPtok 42 "o" 26 6 68)) (Some (mkPtok 43 (string_of_bytes [96; 195; 169; 96]%N) 27 0 70)) (mkPtok 40 "," 30 0 73))); (mkFieldWithAttr (mkSpan (mkPtok 7 "@lengthOf(" 31 4 74) (mkPtok 40 "," 34 0 83)) [(FALengthOf (mkSpan (mkPtok 7 "@lengthOf(" 31 4 74) (mkPtok 6 ")" 31 19 76)) (mkLengthOf (mkSpan (mkPtok 7 "@lengthOf(" 31 4 74) (mkPtok 6 ")" 31 19 76)) (mkPtok 7 "@lengthOf(" 31 4 74) (mkPtok 42 "i64_" 31 14 75) (mkPtok 6 ")" 31 19 76))); (FACalculatedFrom (mkSpan (mkPtok 5 "@calculatedFrom(" 31 21 77) (mkPtok 6 ")" 32 4 79)) (mkCalculatedFrom (mkSpan (mkPtok 5 "@calculatedFrom(" 31 21 77) (mkPtok 6 ")" 32 4 79)) (mkPtok 5 "@calculatedFrom(" 31 21 77) (mkPtok 31 """\n""" 31 37 78) (mkPtok 6 ")" 32 4 79)))] (ObjectField (mkSpan (mkPtok 42 "Z9_" 33 0 80) (mkPtok 40 "," 34 0 83)) None (mkPtok 42 "Z9_" 33 0 80) (Some (mkPtok 42 "u8x" 33 4 81)) (Some (mkPtok 43 "`{ , }`" 33 8 82)) (mkPtok 40 "," 34 0 83)))] (mkPtok 3 "}" 34 2 84)))])).
+Eval vm_compute in ("<<<M1599>>>" ++ check (runes_of_ascii "// `tick` ""quote"" 'q'
+options { } root packet crc { @calculatedFrom( ""x y""
+)
+zchar[ 42
+    ] _x `tab	here` , }
+")).
+Eval vm_compute in ("<<<M1631>>>" ++ check (runes_of_ascii "packet
+T
+// `tick` ""quote"" 'q'
+// " ++ [128512]%N ++ runes_of_ascii " emoji
+{ i64_{ matchKey Header//
+,
+repeat int Logon ,	}, repeat x_y_z{
+    float32
+    Pad @calculatedFrom( ""{,}"")  `line1
+line2` , int8 Z9_ @lengthOf(	lengthOf )`` , }	,
+@leftPad
+( ' ' )  float @calculatedFrom(""" ++ [128512]%N ++ runes_of_ascii """ ), } MetaData _x	{
+    string	zchar ,	crc uint8x
+`two words` ,  } packet crc// `tick` ""quote"" 'q'
+{match o as tag{10 : stringy, }
+    // c
+    , match	lengthOf as _x {
+[""\" ++ [233]%N ++ runes_of_ascii """
+    , ""a\\""  ,
+    """"	, 3 ,
+// " ++ [128512]%N ++ runes_of_ascii " emoji
+// a // b
+""" ++ [128512]%N ++ runes_of_ascii """ ,0123456789 ,255 ] : float /// triple
+1
+    : Logon 65535:crc } , @lengthOf(
+    roots )match	zchar as packetx
+{ [
+    """ ++ [233]%N ++ runes_of_ascii "t" ++ [233]%N ++ runes_of_ascii """
+] : x_y_z, 007
+    : crc // @lengthOf(
+, 00 :float } , @lengthOf(matchKey ) u32
+    o `it's`,// `tick` ""quote"" 'q'
+a1 @lengthOf(
+int ) , match Z9_// a // b
+as metadata // trailing space 
+{	[
+4294967296 ,
+    ""a\\""
+    ]
+    :u8x ,
+3
+    // 50% %s
+    : string_ ,} ,
+@tag( 0123456789 )match	metadata// packet A { u8 x, }
+as// trailing space 
+lengthOf// 50% %s
+{ """ ++ [233]%N ++ runes_of_ascii "t" ++ [233]%N ++ runes_of_ascii """
+    : T
+,
+0 :u128
+,1:	Logon , [	""a	b"" ,
+""abc""
+    /// triple
+    ]
+    :packetx //	t
+,
+    ""abc"" :
+// `tick` ""quote"" 'q'
+// @lengthOf(
+len ,} , }
+    options { leftPad=
+    ""it's"" ; Z9_ = true ; } root packet
+u128 {	u128@calculatedFrom( ""x y"" ) , }
+")).
+Eval vm_compute in ("<<<M1663>>>" ++ check (runes_of_ascii "// c
+options { tag  = true ; }
+MetaData tag
+    {// a // b
+uint64 chars ,} packet// " ++ [128512]%N ++ runes_of_ascii " emoji
+MetaDataX{i16 trueish @lengthOf(
+    asx ) `line1
+line2` , @calculatedFrom(""CRC32""
+    )
+    uint64 crc , }
+packet metadata {
+metadata @calculatedFrom(
+    ""1""
+)`" ++ [233]%N ++ runes_of_ascii "` , } packet Foo {
+i32
+Packet @calculatedFrom(
+    ""\" ++ [233]%N ++ runes_of_ascii """ //	t
+) `line1
+line2`	, repeat rootA Logon ,
+    @rightPad ( '0'
+)
+    // `tick` ""quote"" 'q'
+    repeat
+zchar[3 ] matchKey , @calculatedFrom( ""\n"" )
+    // a // b
+    string body
+@calculatedFrom( """ ++ [233]%N ++ runes_of_ascii "t" ++ [233]%N ++ runes_of_ascii """ )	,
+    // a // b
+    match
+    roots
+/// triple
+//
+as rootA { [ 4294967296
+    // `tick` ""quote"" 'q'
+    , ""// no comment"" , ""a\""b"", 42 ,
+42 ] :
+metadata ,
+    ""1""
+//
+/// triple
+: T //x
+, 3 :
+    msg_type ,	65535 :pack
+, }	,
+i8
+    f32a `line1
+line2`,trueish a1 `line1
+line2`
+,match u128  as //
+repeatCount
+{ 007: x_y_z
+,//	t
+0 ://	t
+u  ,	[// c
+4294967296 , // " ++ [27880; 37322]%N ++ runes_of_ascii "
+00 ,""1""
+, 7 , ""\n"",
+00 ]:crc,
+    ""x y"" :tag , [ """ ++ [128512]%N ++ runes_of_ascii """// `tick` ""quote"" 'q'
+,
+""{,}"" , //x
+3 ,
+42 ,""`tick`""]//x
+: x """ ++ [233]%N ++ runes_of_ascii "t" ++ [233]%N ++ runes_of_ascii """:
+a1 }, @leftPad('0' )@lengthOf( uint8x
+    )char[] // 50% %s
+chars ,
+    }
+")).
+Eval vm_compute in ("<<<M1695>>>" ++ check (runes_of_ascii "MetaData len { char[] asx `` , u32
+    msg_type
+, }
+packet
+uint8x
+    {
+    zchar[ 007  ]x_y_z@lengthOf( i8i8 ) `it's`
+, @leftPad (	'\x00'	)f64 Logon ,} // " ++ [27880; 37322]%N)).
+Eval vm_compute in ("<<<M1727>>>" ++ check (runes_of_ascii "packet
+uint8x { @tag( 1 )@lengthOf( Packet
+/// triple
+// `tick` ""quote"" 'q'
+)
+    repeat T
+    ,
+repeat options1// trailing space 
+`tab	here`
+// packet A { u8 x, }
+// @lengthOf(
+,chars crc  , float32 MetaDataX  `` , @tag( 0123456789 )
+    char uint8x
+    @calculatedFrom(""" ++ [28040; 24687]%N ++ runes_of_ascii """
+)
+`a\` , @lengthOf(A )
+uint16// packet A { u8 x, }
 Z9_
-    {
-    string string_ , Logon x
-,
-uint32
-    // packet A { u8 x, }
-    Z9_,asx
-_x
-    , `tab	here` }
+    `line1
+line2` ,
+    @rightPad
+(
+'0'
+) i32
+    repeatCount	@calculatedFrom(""a	b"" ) `a\`	,}
+    options
+{ Header =""" ++ [28040; 24687]%N ++ runes_of_ascii """
+; T = uint8 u8x
+    =false ; falsey	= f32 ;
+    matchKey
+= '0' ;
+}")).
+Eval vm_compute in ("<<<M1759>>>" ++ check (runes_of_ascii "MetaData _x {}")).
+Eval vm_compute in ("<<<M1791>>>" ++ check (runes_of_ascii "MetaData matchKey
+    { stringy len, u64 u128 ,zchar[
+//x
+// `tick` ""quote"" 'q'
+0123456789	]// packet A { u8 x, }
+Logon , f64 trueish ,} packet // " ++ [128512]%N ++ runes_of_ascii " emoji
+falsey
+// 50% %s
+//
+{}
 ")).
-Eval vm_compute in ("<<<M2687>>>" ++ check (runes_of_ascii "options{}root packet
-metadata {
-@lengthOf(x ) float32
-body ``, }
-    MetaData
-caf" ++ [233]%N ++ runes_of_ascii "_1
-    {
-    string string_ , Logon x
-,
-uint32
-    // packet A { u8 x, }
-    Z9_,asx
-_x
-    `tab	here` , }
+Eval vm_compute in ("<<<T1791>>>" ++ terms [mkTok 37 "MetaData" 1 0 false; mkTok 42 "matchKey" 1 9 false; mkTok 2 "{" 2 4 false; mkTok 42 "stringy" 2 6 false; mkTok 42 "len" 2 14 false; mkTok 40 "," 2 17 false; mkTok 23 "u64" 2 19 false; mkTok 42 "u128" 2 23 false; mkTok 40 "," 2 28 false; mkTok 14 "zchar[" 2 29 false; mkTok 44 "//x" 3 0 true; mkTok 44 "// `tick` ""quote"" 'q'" 4 0 true; mkTok 30 "0123456789" 5 0 false; mkTok 13 "]" 5 11 false; mkTok 44 "// packet A { u8 x, }" 5 12 true; mkTok 42 "Logon" 6 0 false; mkTok 40 "," 6 6 false; mkTok 29 "f64" 6 8 false; mkTok 42 "trueish" 6 12 false; mkTok 40 "," 6 20 false; mkTok 3 "}" 6 21 false; mkTok 35 "packet" 6 23 false; mkTok 44 (string_of_bytes [47; 47; 32; 240; 159; 152; 128; 32; 101; 109; 111; 106; 105]%N) 6 30 true; mkTok 42 "falsey" 7 0 false; mkTok 44 "// 50% %s" 8 0 true; mkTok 44 "//" 9 0 true; mkTok 2 "{" 10 0 false; mkTok 3 "}" 10 1 false; mkTok 0 "<EOF>" 11 0 false] (mkPacket (mkPtok 37 "MetaData" 1 0 0) (Some (mkPtok 3 "}" 10 1 27)) [(DMeta (mkMetaDef (mkSpan (mkPtok 37 "MetaData" 1 0 0) (mkPtok 3 "}" 6 21 20)) (mkPtok 37 "MetaData" 1 0 0) (mkPtok 42 "matchKey" 1 9 1) (mkPtok 2 "{" 2 4 2) [(MIRef (mkRefMetaDecl (mkSpan (mkPtok 42 "stringy" 2 6 3) (mkPtok 40 "," 2 17 5)) (mkPtok 42 "stringy" 2 6 3) (mkPtok 42 "len" 2 14 4) None (mkPtok 40 "," 2 17 5))); (MIDecl (mkMetaDecl (mkSpan (mkPtok 23 "u64" 2 19 6) (mkPtok 40 "," 2 28 8)) (TyBasic (mkSpan (mkPtok 23 "u64" 2 19 6) (mkPtok 23 "u64" 2 19 6)) (mkBasicType (mkSpan (mkPtok 23 "u64" 2 19 6) (mkPtok 23 "u64" 2 19 6)) (mkPtok 23 "u64" 2 19 6))) (mkPtok 42 "u128" 2 23 7) None (mkPtok 40 "," 2 28 8))); (MIDecl (mkMetaDecl (mkSpan (mkPtok 14 "zchar[" 2 29 9) (mkPtok 40 "," 6 6 16)) (TyFixed (mkSpan (mkPtok 14 "zchar[" 2 29 9) (mkPtok 13 "]" 5 11 13)) (mkFixedString (mkSpan (mkPtok 14 "zchar[" 2 29 9) (mkPtok 13 "]" 5 11 13)) (mkPtok 14 "zchar[" 2 29 9) (mkPtok 30 "0123456789" 5 0 12) (mkPtok 13 "]" 5 11 13))) (mkPtok 42 "Logon" 6 0 15) None (mkPtok 40 "," 6 6 16))); (MIDecl (mkMetaDecl (mkSpan (mkPtok 29 "f64" 6 8 17) (mkPtok 40 "," 6 20 19)) (TyBasic (mkSpan (mkPtok 29 "f64" 6 8 17) (mkPtok 29 "f64" 6 8 17)) (mkBasicType (mkSpan (mkPtok 29 "f64" 6 8 17) (mkPtok 29 "f64" 6 8 17)) (mkPtok 29 "f64" 6 8 17))) (mkPtok 42 "trueish" 6 12 18) None (mkPtok 40 "," 6 20 19)))] (mkPtok 3 "}" 6 21 20))); (DPacket (mkPacketDef (mkSpan (mkPtok 35 "packet" 6 23 21) (mkPtok 3 "}" 10 1 27)) None (mkPtok 35 "packet" 6 23 21) (mkPtok 42 "falsey" 7 0 23) (mkPtok 2 "{" 10 0 26) [] (mkPtok 3 "}" 10 1 27)))])).
+Eval vm_compute in ("<<<M1823>>>" ++ check (runes_of_ascii "
+MetaData
+u8x
+    { Z9_	msg_type
+//	t
+// 50% %s
+`tab	here` , } packet	float
+{@lengthOf( u8x ) u16 tag , } packet trueish {
+    @calculatedFrom(""CRC32""//x
+) repeat
+string stringy
+, }
 ")).
-Eval vm_compute in ("<<<M2719>>>" ++ check (runes_of_ascii "options {
-    falsey=
-""a\\"" ; ")).
-Eval vm_compute in ("<<<M2751>>>" ++ check (runes_of_ascii "MetaData f32a f32a
+Eval vm_compute in ("<<<M1855>>>" ++ check (runes_of_ascii "MetaData MetaDataX { } MetaData// a // b
+i8i8
+{ float //
+packetx , uint8 falsey ,
+    char float
+`100% of %d` , Header roots,
+char[]	As
+, }
+")).
+Eval vm_compute in ("<<<M1887>>>" ++ check (runes_of_ascii "// trailing space 
+packet
+    stringy { @lengthOf( crc) // " ++ [128512]%N ++ runes_of_ascii " emoji
+string tag
+    `" ++ [233]%N ++ runes_of_ascii "`,@lengthOf( uint8x )
+@rightPad (
+'\x00'
+)//
+zchar[ 1 ] matchKey
+    @calculatedFrom(
+    // " ++ [128512]%N ++ runes_of_ascii " emoji
+    """ ++ [128512]%N ++ runes_of_ascii """ ) `100% of %d` ,
+}
+packet chars// 50% %s
+{} packet T
+{ @calculatedFrom( ""// no comment"" ) repeat //	t
+uint32 // " ++ [128512]%N ++ runes_of_ascii " emoji
+roots, uint16 float `a\`
+    ,
+    }
+
+")).
+Eval vm_compute in ("<<<M1919>>>" ++ check (runes_of_ascii "//	t
+options{BodyLength =uint16 crc= char[ 00 ]
+;	uint8x =
+    char[] //x
+Foo
+=false
+    ; // @lengthOf(
+int =  '\x00'; }
+    //x
+    packet	matchKey{@lengthOf( repeatCount ) chars  @calculatedFrom( ""a	b""
+    )
+`{ , }` ,  } options {
+    body =zchar[  7
+] ; x_y_z=' ' A=	char[
+10 ] matchKey =
+""CRC32""Z9_=	'0'; }
+    MetaData//	t
+A { Foo a1	,char[ 42]metadata , char[] rootA	,char[]
+    _x	`crlf
+line`
+,}
+")).
+Eval vm_compute in ("<<<M1951>>>" ++ check (runes_of_ascii "root
+    packet// trailing space 
+Logon{ repeat	char[ 65535
+]  repeatCount `say ""hi""` , @calculatedFrom(""\n""// packet A { u8 x, }
+)i8 string_  , @calculatedFrom(
+""1""  ) a1 @calculatedFrom( ""a\""b"") , match
+u8x
+    as stringy { [7
+] :
+    Foo  [ 3 ,1 ] :crc
+, 4294967296 :metadata, 007: metadata } , @rightPad () repeat T Logon	, // trailing space 
+@tag(
+    42
+    )
+    //x
+    u8x@calculatedFrom(
+    // c
+    ""// no comment"") ``	,
+    } options
+{} packet repeatCount
+    {
+uint32 // packet A { u8 x, }
+int
+@lengthOf(crc ) `{ , }` ,match rootA	as f32a
+{0123456789
+:
+u, """ ++ [233]%N ++ runes_of_ascii "t" ++ [233]%N ++ runes_of_ascii """
+:
+string_
+, 0
+: // c
+len ,
+[
+""\" ++ [233]%N ++ runes_of_ascii """ // packet A { u8 x, }
+, ""a	b""] :
+leftPad ,	}
+    ,
+float32 _x // packet A { u8 x, }
+@lengthOf(
+    _x ) ,uint64 zchar
+@calculatedFrom(""CRC32"" )
+    ,// 50% %s
+char // packet A { u8 x, }
+asx @calculatedFrom( ""\" ++ [233]%N ++ runes_of_ascii """ ),
+    }
+MetaData
+    Header  {u64 x``
+, _x _x ,
+    // c
+    trueish options1,
+u16 crc ,
+string  stringy `u8 x,` ,
+    // packet A { u8 x, }
+    char[] tag`a\`
+,	} root
+packet roots
+{ a1@calculatedFrom("""" ) ,	}
+")).
+Eval vm_compute in ("<<<M1983>>>" ++ check (runes_of_ascii "// trailing space 
+options //x
 {
-    //	t
-    }root
-    packet tag  {
+// trailing space 
+/// triple
+charz= ""{,}""
+; Logon =
+    ""\n""// trailing space 
+;}
+")).
+Eval vm_compute in ("<<<M2015>>>" ++ check (runes_of_ascii "MetaData repeatCount repeatCount { float64 packetx,
+} root packet  metadata {
+char _x @lengthOf( trueish ), @leftPad
+( ' '// " ++ [27880; 37322]%N ++ runes_of_ascii "
+)/// triple
+char[] len`doc` , // packet A { u8 x, }
+repeatCount , }
+")).
+Eval vm_compute in ("<<<M2047>>>" ++ check (runes_of_ascii "MetaData repeatCount { float64 packetx,
+} true packet  metadata {
+char _x @lengthOf( trueish ), @leftPad
+( ' '// " ++ [27880; 37322]%N ++ runes_of_ascii "
+)/// triple
+char[] len`doc` , // packet A { u8 x, }
+repeatCount , }
+")).
+Eval vm_compute in ("<<<M2079>>>" ++ check (runes_of_ascii "MetaData repeatCount { float64 packetx,
+} root packet  metadata {
+char _x @lengthOf(  ), @leftPad
+( ' '// " ++ [27880; 37322]%N ++ runes_of_ascii "
+)/// triple
+char[] len`doc` , // packet A { u8 x, }
+repeatCount , }
+")).
+Eval vm_compute in ("<<<M2111>>>" ++ check (runes_of_ascii "MetaData repeatCount { float64 packetx,
+} root packet  metadata {
+char _x @lengthOf( trueish ), @leftPad
+( ' '// " ++ [27880; 37322]%N ++ runes_of_ascii "
+char[]/// triple
+) len`doc` , // packet A { u8 x, }
+repeatCount , }
+")).
+Eval vm_compute in ("<<<M2143>>>" ++ check (runes_of_ascii "MetaData repeatCount { float64 packetx,
+} root packet  metadata {
+char _x @lengthOf( trueish ), @leftPad
+( ' '// " ++ [27880; 37322]%N ++ runes_of_ascii "
+)/// triple
+char[] len`doc` , // packet A { u8 x, }
+repeatCount")).
+Eval vm_compute in ("<<<M2175>>>" ++ check (runes_of_ascii "options
+leftPad
+    =65535
+;
+a1 = true ; packetx=  '\x00' ; packetx
+=  """ ++ [28040; 24687]%N ++ runes_of_ascii """MetaDataX= // " ++ [27880; 37322]%N ++ runes_of_ascii "
+false }root // c
+packet // packet A { u8 x, }
+Pad { repeat
+u8 Header
+// packet A { u8 x, }
+//	t
+`{ , }`
+// a // b
+//x
+, }
+")).
+Eval vm_compute in ("<<<M2207>>>" ++ check (runes_of_ascii "options{
+leftPad
+    =65535
+;
+a1 true = ; packetx=  '\x00' ; packetx
+=  """ ++ [28040; 24687]%N ++ runes_of_ascii """MetaDataX= // " ++ [27880; 37322]%N ++ runes_of_ascii "
+false }root // c
+packet // packet A { u8 x, }
+Pad { repeat
+u8 Header
+// packet A { u8 x, }
+//	t
+`{ , }`
+// a // b
+//x
+, }
+")).
+Eval vm_compute in ("<<<M2239>>>" ++ check (runes_of_ascii "options{
+leftPad
+    =65535
+;
+a1 = true ; packetx=  '\x00'")).
+Eval vm_compute in ("<<<M2271>>>" ++ check (runes_of_ascii "options{
+leftPad
+    =65535
+;
+a1 = true ; packetx=  '\x00' ; packetx
+=  """ ++ [28040; 24687]%N ++ runes_of_ascii """MetaDataX= // " ++ [27880; 37322]%N ++ runes_of_ascii "
+false } }root // c
+packet // packet A { u8 x, }
+Pad { repeat
+u8 Header
+// packet A { u8 x, }
+//	t
+`{ , }`
+// a // b
+//x
+, }
+")).
+Eval vm_compute in ("<<<M2303>>>" ++ check (runes_of_ascii "options{
+leftPad
+    =65535
+;
+a1 = true ; packetx=  '\x00' ; packetx
+=  """ ++ [28040; 24687]%N ++ runes_of_ascii """MetaDataX= // " ++ [27880; 37322]%N ++ runes_of_ascii "
+false }root // c
+packet // packet A { u8 x, }
+Pad { repeat
+f32 Header
+// packet A { u8 x, }
+//	t
+`{ , }`
+// a // b
+//x
+, }
+")).
+Eval vm_compute in ("<<<M2335>>>" ++ check (runes_of_ascii "options{
+leftPad
+    =65535
+;
+a1 = true ; packetx=  '\x00' ; packetx
+=  """ ++ [28040; 24687]%N ++ runes_of_ascii """MetaDataX= // " ++ [27880; 37322]%N ++ runes_of_ascii "
+false }root // c
+packet // packet A { u8 x, }
+Pad { repeat
+u8 Header
+// packet A { u8 x, }
+//	t
+#`{ , }`
+// a // b
+//x
+, }
+")).
+Eval vm_compute in ("<<<M2367>>>" ++ check (runes_of_ascii "
+packet float
+{	@calculatedFrom( """ ++ [233]%N ++ runes_of_ascii "t" ++ [233]%N ++ runes_of_ascii """ """ ++ [233]%N ++ runes_of_ascii "t" ++ [233]%N ++ runes_of_ascii """ )
+@rightPad ( '\x00' )
+    @calculatedFrom( ""x y"" ) string chars  ,
+    // a // b
+    char[0 ]
+    u	@lengthOf( i8i8 ) `{ , }` ,repeat char[] o //x
+`// not a comment`, } // c")).
+Eval vm_compute in ("<<<M2399>>>" ++ check (runes_of_ascii "
+packet float
+{	@calculatedFrom( """ ++ [233]%N ++ runes_of_ascii "t" ++ [233]%N ++ runes_of_ascii """ )
+@rightPad ( '\x00' )
+    ( ""x y"" ) string chars  ,
+    // a // b
+    char[0 ]
+    u	@lengthOf( i8i8 ) `{ , }` ,repeat char[] o //x
+`// not a comment`, } // c")).
+Eval vm_compute in ("<<<M2431>>>" ++ check (runes_of_ascii "
+packet float
+{	@calculatedFrom( """ ++ [233]%N ++ runes_of_ascii "t" ++ [233]%N ++ runes_of_ascii """ )
+@rightPad ( '\x00' )
+    @calculatedFrom( ""x y"" ) string chars  ,
+    // a // b
+    char[ ]
+    u	@lengthOf( i8i8 ) `{ , }` ,repeat char[] o //x
+`// not a comment`, } // c")).
+Eval vm_compute in ("<<<M2463>>>" ++ check (runes_of_ascii "
+packet float
+{	@calculatedFrom( """ ++ [233]%N ++ runes_of_ascii "t" ++ [233]%N ++ runes_of_ascii """ )
+@rightPad ( '\x00' )
+    @calculatedFrom( ""x y"" ) string chars  ,
+    // a // b
+    char[0 ]
+    u	@lengthOf( i8i8 ) , `{ , }`repeat char[] o //x
+`// not a comment`, } // c")).
+Eval vm_compute in ("<<<M2495>>>" ++ check (runes_of_ascii "
+packet float
+{	@calculatedFrom( """ ++ [233]%N ++ runes_of_ascii "t" ++ [233]%N ++ runes_of_ascii """ )
+@rightPad ( '\x00' )
+    @calculatedFrom( ""x y"" ) string chars  ,
+    // a // b
+    char[0 ]
+    u	@lengthOf( i8i8 ) `{ , }` ,repeat char[] o //x
+`// not a comment`")).
+Eval vm_compute in ("<<<M2527>>>" ++ check (runes_of_ascii "root  u128{
+    repeat
+    zchar[ 65535 ] u `" ++ [28040; 24687; 31867; 22411]%N ++ runes_of_ascii "` ,// `tick` ""quote"" 'q'
+} packet i64_ {repeatCount
+    `
+` ,	} // " ++ [128512]%N ++ runes_of_ascii " emoji")).
+Eval vm_compute in ("<<<M2559>>>" ++ check (runes_of_ascii "root packet u128{
+    repeat
+    zchar[ 65535 u ] `" ++ [28040; 24687; 31867; 22411]%N ++ runes_of_ascii "` ,// `tick` ""quote"" 'q'
+} packet i64_ {repeatCount
+    `
+` ,	} // " ++ [128512]%N ++ runes_of_ascii " emoji")).
+Eval vm_compute in ("<<<M2591>>>" ++ check (runes_of_ascii "root packet u128{
+    repeat
+    zchar[ 65535 ] u `" ++ [28040; 24687; 31867; 22411]%N ++ runes_of_ascii "` ,// `tick` ""quote"" 'q'
+} packet")).
+Eval vm_compute in ("<<<M2623>>>" ++ check (runes_of_ascii "root ? packet u128{
+    repeat
+    zchar[ 65535 ] u `" ++ [28040; 24687; 31867; 22411]%N ++ runes_of_ascii "` ,// `tick` ""quote"" 'q'
+} packet i64_ {repeatCount
+    `
+` ,	} // " ++ [128512]%N ++ runes_of_ascii " emoji")).
+Eval vm_compute in ("<<<M2655>>>" ++ check (runes_of_ascii "
+MetaData
+roots { BodyLength
+    int8 ,//	t
 }
 ")).
-Eval vm_compute in ("<<<M2783>>>" ++ check (runes_of_ascii "MetaData f32a
-{
-    //	t
-    }root
-    packet tag  ""// no comment""
+Eval vm_compute in ("<<<M2687>>>" ++ check (runes_of_ascii "
+MetaData
+roots { int8
+    " ++ [0]%N ++ runes_of_ascii " BodyLength ,//	t
 }
 ")).
+Eval vm_compute in ("<<<M2719>>>" ++ check (runes_of_ascii "options {Packet = ""CRC32"" = false; leftPad =
+    '\x00'
+    // `tick` ""quote"" 'q'
+    ; o=255  ;
+    // packet A { u8 x, }
+    }")).
+Eval vm_compute in ("<<<M2751>>>" ++ check (runes_of_ascii "options {Packet = ""CRC32""i8i8 = false; leftPad =
+    ;
+    // `tick` ""quote"" 'q'
+    '\x00' o=255  ;
+    // packet A { u8 x, }
+    }")).
+Eval vm_compute in ("<<<M2783>>>" ++ check (runes_of_ascii "options {Packet")).
 Eval vm_compute in ("<<<M2815>>>" ++ check (runes_of_ascii "
-")).
-Eval vm_compute in ("<<<T2815>>>" ++ terms [mkTok 0 "<EOF>" 2 0 false] (mkPacket (mkPtok 0 "<EOF>" 2 0 0) None [])).
+packet metadata  @rightPad (
+    // packet A { u8 x, }
+    ' ' ) repeat u32	A
+,matchKey ,
+    @lengthOf( string_ ) @lengthOf( body )
+    // a // b
+    @lengthOf(float  )	repeat
+int32 u8x
+    // c
+    `tab	here`
+, } // a // b")).
 Eval vm_compute in ("<<<M2847>>>" ++ check (runes_of_ascii "
-options
-    {msg_type =
-    float32  }root
-packet packet Z9_{ char /// triple
-crc @lengthOf(
-options1 ) //
-,} MetaData a1{}
-")).
+packet metadata { @rightPad (
+    // packet A { u8 x, }
+    ' ' ) repeat A	u32
+,matchKey ,
+    @lengthOf( string_ ) @lengthOf( body )
+    // a // b
+    @lengthOf(float  )	repeat
+int32 u8x
+    // c
+    `tab	here`
+, } // a // b")).
 Eval vm_compute in ("<<<M2879>>>" ++ check (runes_of_ascii "
-options
-    {msg_type =
-    float32  }root
-packet Z9_{ char /// triple
-crc @lengthOf(
-zchar[ ) //
-,} MetaData a1{}
-")).
+packet metadata { @rightPad (
+    // packet A { u8 x, }
+    ' ' ) repeat u32	A
+,matchKey ,
+    @lengthOf(")).
 Eval vm_compute in ("<<<M2911>>>" ++ check (runes_of_ascii "
-options
-    {msg_type =
-    float32  }root
-packet Z9_{ char /// triple
-crc @lengthOf(
-options1 ) //
-,} MetaData a1{
+packet metadata { @rightPad (
+    // packet A { u8 x, }
+    ' ' ) repeat u32	A
+,matchKey ,
+    @lengthOf( string_ ) @lengthOf( body )
+    // a // b
+    @lengthOf(float  ) )	repeat
+int32 u8x
+    // c
+    `tab	here`
+, } // a // b")).
+Eval vm_compute in ("<<<M2943>>>" ++ check (runes_of_ascii "
+packet metadata { @rightPad (
+    // packet A { u8 x, }
+    ' ' ) repeat u32	A
+,matchKey ,
+    @lengthOf( string_ ) @lengthOf( body )
+    // a // b
+    @lengthOf(float  )	repeat
+int32 u8x
+    // c
+    `tab	here`
+,")).
+Eval vm_compute in ("<<<M2975>>>" ++ check (runes_of_ascii "packet")).
+Eval vm_compute in ("<<<M3007>>>" ++ check (runes_of_ascii "packet x{
+string
+zchar ', //	t
+}
 ")).
-Eval vm_compute in ("<<<M2943>>>" ++ check (runes_of_ascii "packet crc crc{ // " ++ [128512]%N ++ runes_of_ascii " emoji
-repeat string i8i8
-`a\`, }
-")).
-Eval vm_compute in ("<<<M2975>>>" ++ check (runes_of_ascii "packet crc{ // " ++ [128512]%N ++ runes_of_ascii " emoji
-repeat string i8i8
-`a\`uint16 }
-")).
-Eval vm_compute in ("<<<M3007>>>" ++ check (@nil rune)).
-Eval vm_compute in ("<<<M3039>>>" ++ check (runes_of_ascii "packet BodyLength {} MetaData zchar{ zchar[ zchar[// @lengthOf(
-42 ]
-    pack , string_
-A , char[]crc , _x trueish ,
-// " ++ [27880; 37322]%N ++ runes_of_ascii "
-// " ++ [128512]%N ++ runes_of_ascii " emoji
-zchar[
-    3 ]	T // trailing space 
-, } packet body
+Eval vm_compute in ("<<<M3039>>>" ++ check (runes_of_ascii "
+MetaData Logon
+{ // c
+root} packet
+    Pad {
+    } options
 {
-    }
-")).
-Eval vm_compute in ("<<<M3071>>>" ++ check (runes_of_ascii "packet BodyLength {} MetaData zchar{ zchar[// @lengthOf(
-42 ]
-    pack , string_
-; , char[]crc , _x trueish ,
-// " ++ [27880; 37322]%N ++ runes_of_ascii "
-// " ++ [128512]%N ++ runes_of_ascii " emoji
-zchar[
-    3 ]	T // trailing space 
-, } packet body
+u
+    =
+    ""CRC32""
+    // " ++ [128512]%N ++ runes_of_ascii " emoji
+    i64_ = u16;
+T =65535 x = ' '
+    ; u128
+= true ; }")).
+Eval vm_compute in ("<<<M3071>>>" ++ check (runes_of_ascii "
+MetaData Logon
+{ // c
+}root packet
+    Pad {
+    }")).
+Eval vm_compute in ("<<<M3103>>>" ++ check (runes_of_ascii "
+MetaData Logon
+{ // c
+}root packet
+    Pad {
+    } options
 {
-    }
-")).
-Eval vm_compute in ("<<<M3103>>>" ++ check (runes_of_ascii "packet BodyLength {} MetaData zchar{ zchar[// @lengthOf(
-42 ]
-    pack , string_
-A , char[]crc , _x trueish 
-// " ++ [27880; 37322]%N ++ runes_of_ascii "
-// " ++ [128512]%N ++ runes_of_ascii " emoji
-zchar[
-    3 ]	T // trailing space 
-, } packet body
+u
+    =
+    ""CRC32""
+    // " ++ [128512]%N ++ runes_of_ascii " emoji
+    i64_ = u16 u16;
+T =65535 x = ' '
+    ; u128
+= true ; }")).
+Eval vm_compute in ("<<<M3135>>>" ++ check (runes_of_ascii "
+MetaData Logon
+{ // c
+}root packet
+    Pad {
+    } options
 {
-    }
-")).
-Eval vm_compute in ("<<<M3135>>>" ++ check (runes_of_ascii "packet BodyLength {} MetaData zchar{ zchar[// @lengthOf(
-42 ]
-    pack , string_
-A , char[]crc , _x trueish ,
-// " ++ [27880; 37322]%N ++ runes_of_ascii "
-// " ++ [128512]%N ++ runes_of_ascii " emoji
-zchar[
-    3 ]	T // trailing space 
-, packet } body
+u
+    =
+    ""CRC32""
+    // " ++ [128512]%N ++ runes_of_ascii " emoji
+    i64_ = u16;
+T =65535 x ""a\""b"" ' '
+    ; u128
+= true ; }")).
+Eval vm_compute in ("<<<M3167>>>" ++ check (runes_of_ascii "
+MetaData Logon
+{ // c
+}root packet
+    Pad {
+    } options
 {
-    }
+u
+    =
+    ""CRC32""
+    // " ++ [128512]%N ++ runes_of_ascii " emoji
+    i64_ = u16;
+T =65535 x = ' '
+    ; u128
+= true ; ")).
+Eval vm_compute in ("<<<M3199>>>" ++ check (runes_of_ascii "MetaData body body{}
+packet	Packet { x_y_z @calculatedFrom(  ""a\\"")// `tick` ""quote"" 'q'
+, }
 ")).
-Eval vm_compute in ("<<<M3167>>>" ++ check (runes_of_ascii "packet BodyLength {} MetaData zchar{ zchar[// @le<ngthOf(
-42 ]
-    pack , string_
-A , char[]crc , _x trueish ,
-// " ++ [27880; 37322]%N ++ runes_of_ascii "
-// " ++ [128512]%N ++ runes_of_ascii " emoji
-zchar[
-    3 ]	T // trailing space 
-, } packet body
-{
-    }
+Eval vm_compute in ("<<<M3231>>>" ++ check (runes_of_ascii "MetaData body{}
+packet	Packet { uint64 @calculatedFrom(  ""a\\"")// `tick` ""quote"" 'q'
+, }
 ")).
-Eval vm_compute in ("<<<M3199>>>" ++ check (runes_of_ascii "packet
-string_ {@lengthOf(  ) match packetx as f32a {
-    1 :	calculatedFrom , }  ,
-    } packet len
-    //	t
-    { @calculatedFrom( """ ++ [233]%N ++ runes_of_ascii "t" ++ [233]%N ++ runes_of_ascii """ ) body Header , char[] lengthOf  `two words` ,chars{repeat string_ matchKey ,
-    } ,
-    }
+Eval vm_compute in ("<<<M3263>>>" ++ check (runes_of_ascii "MetaData body{}
+packet	Packet { x_y_z# @calculatedFrom(  ""a\\"")// `tick` ""quote"" 'q'
+, }
 ")).
-Eval vm_compute in ("<<<M3231>>>" ++ check (runes_of_ascii "packet
-string_ {@lengthOf( int ) match packetx as f32a 1
-    { :	calculatedFrom , }  ,
-    } packet len
-    //	t
-    { @calculatedFrom( """ ++ [233]%N ++ runes_of_ascii "t" ++ [233]%N ++ runes_of_ascii """ ) body Header , char[] lengthOf  `two words` ,chars{repeat string_ matchKey ,
-    } ,
-    }
+Eval vm_compute in ("<<<M3295>>>" ++ check (runes_of_ascii "packet f32a {} } root packet len {repeat u // " ++ [128512]%N ++ runes_of_ascii " emoji
+`{ , }` , }
 ")).
-Eval vm_compute in ("<<<M3263>>>" ++ check (runes_of_ascii "packet
-string_ {@lengthOf( int ) match packetx as f32a {
-    1 :	calculatedFrom , }")).
-Eval vm_compute in ("<<<M3295>>>" ++ check (runes_of_ascii "packet
-string_ {@lengthOf( int ) match packetx as f32a {
-    1 :	calculatedFrom , }  ,
-    } packet len
-    //	t
-    { @calculatedFrom( """ ++ [233]%N ++ runes_of_ascii "t" ++ [233]%N ++ runes_of_ascii """ ) ) body Header , char[] lengthOf  `two words` ,chars{repeat string_ matchKey ,
-    } ,
-    }
+Eval vm_compute in ("<<<M3327>>>" ++ check (runes_of_ascii "packet f32a {} root packet len {repeat u16 // " ++ [128512]%N ++ runes_of_ascii " emoji
+`{ , }` , }
 ")).
-Eval vm_compute in ("<<<M3327>>>" ++ check (runes_of_ascii "packet
-string_ {@lengthOf( int ) match packetx as f32a {
-    1 :	calculatedFrom , }  ,
-    } packet len
-    //	t
-    { @calculatedFrom( """ ++ [233]%N ++ runes_of_ascii "t" ++ [233]%N ++ runes_of_ascii """ ) body Header , char[] lengthOf  match ,chars{repeat string_ matchKey ,
-    } ,
-    }
+Eval vm_compute in ("<<<M3359>>>" ++ check (runes_of_ascii "packet f32a {} root packet " ++ [233]%N ++ runes_of_ascii "len {repeat u // " ++ [128512]%N ++ runes_of_ascii " emoji
+`{ , }` , }
 ")).
-Eval vm_compute in ("<<<M3359>>>" ++ check (runes_of_ascii "packet
-string_ {@lengthOf( int ) match packetx as f32a {
-    1 :	calculatedFrom , }  ,
-    } packet len
-    //	t
-    { @calculatedFrom( """ ++ [233]%N ++ runes_of_ascii "t" ++ [233]%N ++ runes_of_ascii """ ) body Header , char[] lengthOf  `two words` ,chars{repeat string_ matchKey 
-    } ,
-    }
-")).
-Eval vm_compute in ("<<<M3391>>>" ++ check (runes_of_ascii "packet
-string_ {@lengthOf( int ) match 'packetx as f32a {
-    1 :	calculatedFrom , }  ,
-    } packet len
-    //	t
-    { @calculatedFrom( """ ++ [233]%N ++ runes_of_ascii "t" ++ [233]%N ++ runes_of_ascii """ ) body Header , char[] lengthOf  `two words` ,chars{repeat string_ matchKey ,
-    } ,
-    }
-")).
-Eval vm_compute in ("<<<M3423>>>" ++ check (runes_of_ascii "/// triple
-root
-packet // packet A { u8 x, }
-chars { @lengthOf(charz )
-stringy,  @tag(  0 ) // a // b
-asx
-    As
-, ,
-// trailing space 
-// trailing space 
-x_y_z {
-repeat i16 charz , } ,	int16  crc ,}
-")).
-Eval vm_compute in ("<<<M3455>>>" ++ check (runes_of_ascii "/// triple
-root
-packet // packet A { u8 x, }
-chars { @lengthOf(charz )
-stringy,  @tag(  0 ) // a // b
-asx
-    As
-,
-// trailing space 
-// trailing space 
-x_y_z {
-repeat i16  , } ,	int16  crc ,}
-")).
-Eval vm_compute in ("<<<M3487>>>" ++ check (runes_of_ascii "/// triple
-root
-packet // packet A { u8 x, }
-chars { @lengthOf(charz )
-stringy,  @tag(  0 ) // a // b
-asx
-    As
-,
-// trailing space 
-// trailing space 
- {
-repeat i16 charz , } ,	int16  crc ,}
-")).
+Eval vm_compute in ("<<<M3391>>>" ++ check (runes_of_ascii "options{ _x=""\" ++ [233]%N ++ runes_of_ascii """;
+    Logon = 10	; Foo= 7;
+i64_= char[]} options {
+matchKey = ""// no comment"" // a // b
+falsey = string
+; trueish =
+    4294967296
+options1=
+    ""it's"" string_	 true } options {
+    /// triple
+    }")).
+Eval vm_compute in ("<<<M3423>>>" ++ check (runes_of_ascii "options{ _x=""\" ++ [233]%N ++ runes_of_ascii """;
+    Logon = 10	; Foo= 7;
+i64_= char[]} options 
+matchKey = ""// no comment"" // a // b
+falsey = string
+; trueish =
+    4294967296
+options1=
+    ""it's"" string_	= true } options {
+    /// triple
+    }")).
+Eval vm_compute in ("<<<M3455>>>" ++ check (runes_of_ascii "options{ _x=""\" ++ [233]%N ++ runes_of_ascii """;
+    Logon = 10	; Foo= 7;
+i64_= char[]} |options {
+matchKey = ""// no comment"" // a // b
+falsey = string
+; trueish =
+    4294967296
+options1=
+    ""it's"" string_	= true } options {
+    /// triple
+    }")).
+Eval vm_compute in ("<<<M3487>>>" ++ check (runes_of_ascii "options{ _x=""\" ++ [233]%N ++ runes_of_ascii """;
+    Logon = 10	; Foo= 7;
+i64_= char[]} options options {
+matchKey = ""// no comment"" // a // b
+falsey = string
+; trueish =
+    4294967296
+options1=
+    ""it's"" string_	= true } options {
+    /// triple
+    }")).
 Eval vm_compute in ("<<<M3519>>>" ++ check (runes_of_ascii "options")).
 Eval vm_compute in ("<<<M3551>>>" ++ check (runes_of_ascii "@left")).
 Eval vm_compute in ("<<<M3583>>>" ++ check (runes_of_ascii """//""")).
@@ -2150,12 +1827,11 @@ Eval vm_compute in ("<<<M3647>>>" ++ check (runes_of_ascii "packet A { char[ 3 ]
 Eval vm_compute in ("<<<M3679>>>" ++ check (runes_of_ascii "packet A { match k n { 1 : B }, }")).
 Eval vm_compute in ("<<<M3711>>>" ++ check (runes_of_ascii "packet A { } x packet B { }")).
 Eval vm_compute in ("<<<M3743>>>" ++ check (runes_of_ascii "}")).
-Eval vm_compute in ("<<<M3775>>>" ++ check (runes_of_ascii "int32")).
-Eval vm_compute in ("<<<M3807>>>" ++ check (runes_of_ascii "f32 @calculatedFrom( u32 @tag( )")).
-Eval vm_compute in ("<<<M3839>>>" ++ check (runes_of_ascii "' ' char[ int32 char @tag( repeat } @lengthOf( char[ 0123456789")).
-Eval vm_compute in ("<<<M3871>>>" ++ check (runes_of_ascii ") char[ i64 { true f64 match ""// no comment"" options : string [ )")).
-Eval vm_compute in ("<<<M3903>>>" ++ check (runes_of_ascii "string @calculatedFrom( false zchar[ packet as int8 uint64 float32 ; int32")).
-Eval vm_compute in ("<<<M3935>>>" ++ check (runes_of_ascii "= } ] ( ; `line1
-line2` as uint16 char[] packet float32 true")).
-Eval vm_compute in ("<<<M3967>>>" ++ check (runes_of_ascii "char @rightPad uint64 MetaData :")).
-Eval vm_compute in ("<<<M3999>>>" ++ check (runes_of_ascii "char ( as char[ = i8 ) int8 char[] @calculatedFrom( ; int16 zchar[")).
+Eval vm_compute in ("<<<M3775>>>" ++ check (runes_of_ascii "; } uint64 i32 uint8 ( '0' = , string true } , int8")).
+Eval vm_compute in ("<<<M3807>>>" ++ check (runes_of_ascii "char[ = { packet '\x00' int16 zchar[ : ) As int64 u16 `// not a comment`")).
+Eval vm_compute in ("<<<M3839>>>" ++ check (runes_of_ascii "f32 string = root")).
+Eval vm_compute in ("<<<M3871>>>" ++ check (runes_of_ascii "as u32 ) , @tag( u16 float32 = = uint16 asx {")).
+Eval vm_compute in ("<<<M3903>>>" ++ check (runes_of_ascii "as match i64 '0' @calculatedFrom( int8 [ false")).
+Eval vm_compute in ("<<<M3935>>>" ++ check (runes_of_ascii "options true { ; f64 as ) u32 f64 i16 string @leftPad")).
+Eval vm_compute in ("<<<M3967>>>" ++ check (runes_of_ascii "true uint16 false { char[ root i64 } @tag( i32 0123456789")).
+Eval vm_compute in ("<<<M3999>>>" ++ check (runes_of_ascii "uint8 , ] @lengthOf( match 42 [")).
